@@ -1,5 +1,6 @@
 import ThermoVerif.Model.Phases
 import Mathlib.Tactic.Ring
+import Mathlib.Data.List.Nodup
 /-
 Helper lemmas for Props/C12: sums over lists of rationals, the effect of each primitive of
 Model/Phases.lean on the observables (totals, rows, T, P), and the invariants `Live` and `WF`.
@@ -11,7 +12,12 @@ namespace ThermoVerif.Phases
 theorem sum_map_zero {β : Type} (s : List β) : (s.map (fun _ => (0:Rat))).sum = 0 := by
   induction s with
   | nil => rfl
-  | cons a s ih => simp [ih]
+  | cons a s ih => rw [List.map_cons, List.sum_cons, ih]; ring
+
+@[simp] theorem sum_replicate_zero (n : Nat) : (List.replicate n (0:Rat)).sum = 0 := by
+  induction n with
+  | zero => rfl
+  | succ n ih => rw [List.replicate_succ, List.sum_cons, ih]; ring
 
 theorem sum_map_add {β : Type} (s : List β) (f g : β → Rat) :
     (s.map (fun x => f x + g x)).sum = (s.map f).sum + (s.map g).sum := by
@@ -161,43 +167,56 @@ theorem allocRows_row_old (w : World) (vals : List (Nat → Rat)) (r : Nat) (h :
   have : ¬ w.nRow ≤ r := Nat.not_le.2 h
   simp [World.allocRows, this]
 
-/-! ### totals, T, P under the primitives -/
+/-! ### totals, T, P of stream `k` under the primitives -/
 
-/-- what every conversion preserves -/
-def Same (w w' : World) : Prop :=
-  (∀ i, i < w.n → w'.total i = w.total i) ∧ w'.temp = w.temp ∧ w'.pres = w.pres ∧ w'.n = w.n
+/-- what every conversion of stream `k` preserves -/
+def Same (w w' : World) (k : Nat) : Prop :=
+  (∀ i, i < w.n → w'.total k i = w.total k i) ∧ w'.temp k = w.temp k ∧ w'.pres k = w.pres k ∧ w'.n = w.n
 
-theorem Same.refl (w : World) : Same w w := ⟨fun _ _ => rfl, rfl, rfl, rfl⟩
+theorem Same.refl (w : World) (k : Nat) : Same w w k := ⟨fun _ _ => rfl, rfl, rfl, rfl⟩
 
-theorem Same.trans {a b c : World} (h1 : Same a b) (h2 : Same b c) : Same a c :=
+theorem Same.trans {a b c : World} {k : Nat} (h1 : Same a b k) (h2 : Same b c k) : Same a c k :=
   ⟨fun i hi => (h2.1 i (h1.2.2.2 ▸ hi)).trans (h1.1 i hi), h2.2.1.trans h1.2.1,
    h2.2.2.1.trans h1.2.2.1, h2.2.2.2.trans h1.2.2.2⟩
 
-theorem relabel_same (w : World) (q : Ph) : Same w (w.relabel q) := by
-  refine ⟨fun i _ => ?_, rfl, rfl, rfl⟩
-  simp [World.total, World.relabel, List.map_map, Function.comp_def]
+theorem relabel_pr (w : World) (k : Nat) (q : Ph) :
+    (w.relabel k q).pr k = (w.pr k).map (fun x => (q, x.2)) := by
+  simp [World.relabel, World.pr, World.setIpr]
 
-theorem toSingle_same (w : World) (q : Ph) : Same w (w.toSingle q) := by
+theorem relabel_same (w : World) (k : Nat) (q : Ph) : Same w (w.relabel k q) k := by
   refine ⟨fun i _ => ?_, rfl, rfl, rfl⟩
-  simp [World.total, World.toSingle, World.allocRows, List.map_map, Function.comp_def]
+  simp [World.total, relabel_pr, List.map_map, Function.comp_def]
+  rfl
 
+theorem toSingle_pr (w : World) (k : Nat) (q : Ph) : (w.toSingle k q).pr k = [(q, w.nRow)] := by
+  simp [World.toSingle, World.pr, World.setStr, World.setCache, World.allocImol, World.allocRows]
+
+theorem toSingle_row (w : World) (k : Nat) (q : Ph) (i : Nat) :
+    (w.toSingle k q).row w.nRow i = w.total k i := by
+  simp [World.toSingle, World.setStr, World.setCache, World.allocImol, World.allocRows, World.total,
+    List.map_map, Function.comp_def]
+
+theorem toSingle_same (w : World) (k : Nat) (q : Ph) : Same w (w.toSingle k q) k := by
+  refine ⟨fun i _ => ?_, ?_, ?_, rfl⟩
+  · simp [World.total, toSingle_pr, toSingle_row]
+  · simp [World.temp, World.toSingle, World.setStr, World.setCache, World.allocImol, World.allocRows]
+  · simp [World.pres, World.toSingle, World.setStr, World.setCache, World.allocImol, World.allocRows]
 
 @[simp] theorem moveVals_length (srcs : List (Ph × (Nat → Rat) × Bool)) (t : List Ph) :
     (moveVals srcs t).length = t.length := by simp [moveVals]
 
-/-- everything a successful `toMulti` determines, except the view store and the cache -/
-theorem toMulti_ok {w w' : World} {t : List Ph} (h : w.toMulti t = .ok w') :
-    (∀ s ∈ w.sources, s.2.2 = true → (dest t s.1).isSome = true) ∧
-    w'.n = w.n ∧ w'.T = w.T ∧ w'.P = w.P ∧ w'.s.tc = w.s.tc ∧ w'.nTc = w.nTc ∧
-    w'.nRow = w.nRow + t.length ∧
-    w'.s.pr = t.zip (List.range' w.nRow t.length) ∧
-    w'.row = (w.allocRows (moveVals w.sources t)).1.row ∧
-    w'.snaps = w.snaps ∧ w'.nView = w.nView ∧ w'.s.multi = true := by
+/-- everything a successful `toMulti` determines about stream `k`, except the view store and the cache -/
+theorem toMulti_ok {w w' : World} {k : Nat} {t : List Ph} (h : w.toMulti k t = .ok w') :
+    (∀ s ∈ w.sources k, s.2.2 = true → (dest t s.1).isSome = true) ∧
+    w'.n = w.n ∧ w'.T = w.T ∧ w'.P = w.P ∧ (w'.str k).tc = (w.str k).tc ∧
+    w'.pr k = t.zip (List.range' w.nRow t.length) ∧
+    w'.row = (w.allocRows (moveVals (w.sources k) t)).1.row ∧
+    w'.snaps = w.snaps ∧ (w'.str k).multi = true ∧ w'.nStr = w.nStr := by
   unfold World.toMulti at h
   simp only [] at h
   split at h
   · rename_i hall
-    have hall' : ∀ s ∈ w.sources, s.2.2 = true → (dest t s.1).isSome = true := by
+    have hall' : ∀ s ∈ w.sources k, s.2.2 = true → (dest t s.1).isSome = true := by
       intro s hs hne
       rw [List.all_eq_true] at hall
       have := hall s hs
@@ -205,15 +224,15 @@ theorem toMulti_ok {w w' : World} {t : List Ph} (h : w.toMulti t = .ok w') :
     split at h
     · rename_i hm
       injection h with h; subst h
-      exact ⟨hall', by simp [World.allocRows, hm]⟩
+      exact ⟨hall', by simp [World.pr, World.setStr, World.rebind, World.allocImol, World.allocRows, hm]⟩
     · injection h with h; subst h
-      exact ⟨hall', by simp [World.allocRows]⟩
+      exact ⟨hall', by simp [World.pr, World.setStr, World.allocCache, World.allocImol, World.allocRows]⟩
   · cases h
 
-theorem toMulti_phases {w w' : World} {t : List Ph} (h : w.toMulti t = .ok w') : w'.s.phases = t := by
-  have := (toMulti_ok h).2.2.2.2.2.2.2.1
-  simp [Strm.phases, this, map_fst_zip_range']
-
+theorem toMulti_phases {w w' : World} {k : Nat} {t : List Ph} (h : w.toMulti k t = .ok w') :
+    w'.phases k = t := by
+  have := (toMulti_ok h).2.2.2.2.2.1
+  simp [World.phases, this, map_fst_zip_range']
 
 /-- what row `q` of the rebuilt indexer receives -/
 def moved (srcs : List (Ph × (Nat → Rat) × Bool)) (t : List Ph) (q : Ph) (i : Nat) : Rat :=
@@ -223,28 +242,29 @@ theorem moveVals_eq (srcs : List (Ph × (Nat → Rat) × Bool)) (t : List Ph) :
     moveVals srcs t = t.map (fun q i => moved srcs t q i) := rfl
 
 /-- sums over the rows of the rebuilt indexer, weighted by a function of the label -/
-theorem toMulti_sum {w w' : World} {t : List Ph} (h : w.toMulti t = .ok w') (H : Ph → Rat → Rat) (i : Nat) :
-    (w'.s.pr.map (fun x => H x.1 (w'.row x.2 i))).sum
-      = (t.map (fun q => H q (moved w.sources t q i))).sum := by
-  obtain ⟨_, _, _, _, _, _, _, hpr, hrow, _⟩ := toMulti_ok h
+theorem toMulti_sum {w w' : World} {k : Nat} {t : List Ph} (h : w.toMulti k t = .ok w')
+    (H : Ph → Rat → Rat) (i : Nat) :
+    ((w'.pr k).map (fun x => H x.1 (w'.row x.2 i))).sum
+      = (t.map (fun q => H q (moved (w.sources k) t q i))).sum := by
+  obtain ⟨_, _, _, _, _, hpr, hrow, _⟩ := toMulti_ok h
   rw [hpr, hrow]
-  have hl : t.length = (moveVals w.sources t).length := by simp
-  have := zip_range'_map t (moveVals w.sources t) w.nRow
-    (fun r => (w.allocRows (moveVals w.sources t)).1.row r i) (fun v => v i) H hl
+  have hl : t.length = (moveVals (w.sources k) t).length := by simp
+  have := zip_range'_map t (moveVals (w.sources k) t) w.nRow
+    (fun r => (w.allocRows (moveVals (w.sources k) t)).1.row r i) (fun v => v i) H hl
     (fun j hj => by rw [allocRows_row_new w _ j hj])
   rw [moveVals_length] at this
   rw [this, moveVals_eq, zip_map_self, List.map_map]
   rfl
 
-theorem toMulti_rowAt {w w' : World} {t : List Ph} (h : w.toMulti t = .ok w') (ht : t.Nodup)
+theorem toMulti_rowAt {w w' : World} {k : Nat} {t : List Ph} (h : w.toMulti k t = .ok w') (ht : t.Nodup)
     (q : Ph) (i : Nat) :
-    w'.rowAt q i = if q ∈ t then moved w.sources t q i else 0 := by
+    w'.rowAt k q i = if q ∈ t then moved (w.sources k) t q i else 0 := by
   unfold World.rowAt
   rw [sum_filter]
   have := toMulti_sum h (fun p c => if p == q then c else 0) i
   rw [this]
-  have e : (t.map (fun q' => if (q' == q) = true then moved w.sources t q' i else 0))
-      = t.map (fun q' => if q = q' then moved w.sources t q i else 0) := by
+  have e : (t.map (fun q' => if (q' == q) = true then moved (w.sources k) t q' i else 0))
+      = t.map (fun q' => if q = q' then moved (w.sources k) t q i else 0) := by
     apply List.map_congr_left
     intro q' _
     by_cases hq : q' = q
@@ -256,22 +276,22 @@ theorem toMulti_rowAt {w w' : World} {t : List Ph} (h : w.toMulti t = .ok w') (h
   · rw [sum_ite_eq_of_mem t q _ ht hq]; simp [hq]
   · rw [sum_ite_eq_of_not_mem t q _ hq]; simp [hq]
 
-theorem sources_total (w : World) (i : Nat) :
-    (w.sources.map (fun s => s.2.1 i)).sum = w.total i := by
+theorem sources_total (w : World) (k : Nat) (i : Nat) :
+    ((w.sources k).map (fun s => s.2.1 i)).sum = w.total k i := by
   simp [World.sources, World.total, List.map_map, Function.comp_def]
 
-theorem sources_empty_zero {w : World} {s : Ph × (Nat → Rat) × Bool} (hs : s ∈ w.sources)
+theorem sources_empty_zero {w : World} {k : Nat} {s : Ph × (Nat → Rat) × Bool} (hs : s ∈ w.sources k)
     (hne : s.2.2 = false) {i : Nat} (hi : i < w.n) : s.2.1 i = 0 := by
   simp only [World.sources, List.mem_map] at hs
   obtain ⟨x, _, rfl⟩ := hs
   simp only [Bool.not_eq_false'] at hne
   exact isEmptyVal_zero hne hi
 
-theorem toMulti_total {w w' : World} {t : List Ph} (h : w.toMulti t = .ok w') (ht : t.Nodup)
-    {i : Nat} (hi : i < w.n) : w'.total i = w.total i := by
-  have e1 : w'.total i = (t.map (fun q => moved w.sources t q i)).sum :=
+theorem toMulti_total {w w' : World} {k : Nat} {t : List Ph} (h : w.toMulti k t = .ok w') (ht : t.Nodup)
+    {i : Nat} (hi : i < w.n) : w'.total k i = w.total k i := by
+  have e1 : w'.total k i = (t.map (fun q => moved (w.sources k) t q i)).sum :=
     toMulti_sum h (fun _ c => c) i
-  rw [e1, ← sources_total w i]
+  rw [e1, ← sources_total w k i]
   unfold moved
   rw [sum_comm]
   apply sum_map_congr
@@ -290,19 +310,18 @@ theorem toMulti_total {w w' : World} {t : List Ph} (h : w.toMulti t = .ok w') (h
       simp [hq0]
     rw [e, sum_ite_eq_of_mem t q0 _ ht hmem]
 
-theorem toMulti_same {w w' : World} {t : List Ph} (h : w.toMulti t = .ok w') (ht : t.Nodup) :
-    Same w w' := by
+theorem toMulti_same {w w' : World} {k : Nat} {t : List Ph} (h : w.toMulti k t = .ok w') (ht : t.Nodup) :
+    Same w w' k := by
   obtain ⟨_, hn, hT, hP, htc, _⟩ := toMulti_ok h
   exact ⟨fun i hi => toMulti_total h ht hi, by simp [World.temp, hT, htc], by simp [World.pres, hP, htc], hn⟩
 
-
-/-- the three ways `setPhases` can succeed -/
-theorem setPhases_cases {w w' : World} {ps : List Ph} (h : w.setPhases ps = .ok w') :
-    (∃ q, phaseTuple ps = [q] ∧ w.s.multi = true ∧ w' = w.toSingle q) ∨
-    (∃ q, phaseTuple ps = [q] ∧ w.s.multi = false ∧ w' = w.relabel q) ∨
-    (2 ≤ (phaseTuple ps).length ∧ w.s.multi = true ∧ phaseTuple ps = w.s.phases ∧ w' = w) ∨
-    (2 ≤ (phaseTuple ps).length ∧ ¬ (w.s.multi = true ∧ phaseTuple ps = w.s.phases) ∧
-      w.toMulti (phaseTuple ps) = .ok w') := by
+/-- the ways `setPhases` can succeed -/
+theorem setPhases_cases {w w' : World} {k : Nat} {ps : List Ph} (h : w.setPhases k ps = .ok w') :
+    (∃ q, phaseTuple ps = [q] ∧ (w.str k).multi = true ∧ w' = w.toSingle k q) ∨
+    (∃ q, phaseTuple ps = [q] ∧ (w.str k).multi = false ∧ w' = w.relabel k q) ∨
+    (2 ≤ (phaseTuple ps).length ∧ (w.str k).multi = true ∧ phaseTuple ps = w.phases k ∧ w' = w) ∨
+    (2 ≤ (phaseTuple ps).length ∧ ¬ ((w.str k).multi = true ∧ phaseTuple ps = w.phases k) ∧
+      w.toMulti k (phaseTuple ps) = .ok w') := by
   unfold World.setPhases at h
   simp only [] at h
   split at h
@@ -330,18 +349,19 @@ theorem setPhases_cases {w w' : World} {ps : List Ph} (h : w.setPhases ps = .ok 
       simp only [Bool.and_eq_true, beq_iff_eq] at hc
       exact Or.inr (Or.inr (Or.inr ⟨hlen, hc, h⟩))
 
-theorem setPhases_same {w w' : World} {ps : List Ph} (h : w.setPhases ps = .ok w') : Same w w' := by
+theorem setPhases_same {w w' : World} {k : Nat} {ps : List Ph} (h : w.setPhases k ps = .ok w') :
+    Same w w' k := by
   rcases setPhases_cases h with ⟨q, _, _, rfl⟩ | ⟨q, _, _, rfl⟩ | ⟨_, _, _, rfl⟩ | ⟨_, _, h⟩
-  · exact toSingle_same w q
-  · exact relabel_same w q
-  · exact Same.refl _
+  · exact toSingle_same w k q
+  · exact relabel_same w k q
+  · exact Same.refl _ k
   · exact toMulti_same h (phaseTuple_nodup ps)
 
 /-- the ways `setPhase` can succeed -/
-theorem setPhase_cases {w w' : World} {ls : List Ph} (h : w.setPhase ls = .ok w') :
-    (w.s.multi = true ∧ ∃ q, (ls = [] ∧ q = Ph.l ∨ ls = [q]) ∧ w' = w.toSingle q) ∨
-    (w.s.multi = true ∧ 2 ≤ ls.length ∧ w.setPhases ls = .ok w') ∨
-    (w.s.multi = false ∧ ∃ q, ls = [q] ∧ w' = w.relabel q) := by
+theorem setPhase_cases {w w' : World} {k : Nat} {ls : List Ph} (h : w.setPhase k ls = .ok w') :
+    ((w.str k).multi = true ∧ ∃ q, (ls = [] ∧ q = Ph.l ∨ ls = [q]) ∧ w' = w.toSingle k q) ∨
+    ((w.str k).multi = true ∧ 2 ≤ ls.length ∧ w.setPhases k ls = .ok w') ∨
+    ((w.str k).multi = false ∧ ∃ q, ls = [q] ∧ w' = w.relabel k q) := by
   unfold World.setPhase at h
   split at h
   · rename_i hm
@@ -364,67 +384,67 @@ theorem setPhase_cases {w w' : World} {ls : List Ph} (h : w.setPhase ls = .ok w'
       exact Or.inr (Or.inr ⟨by simpa using hm, q, rfl, h.symm⟩)
     · cases h
 
-theorem setPhase_same {w w' : World} {ls : List Ph} (h : w.setPhase ls = .ok w') : Same w w' := by
+theorem setPhase_same {w w' : World} {k : Nat} {ls : List Ph} (h : w.setPhase k ls = .ok w') :
+    Same w w' k := by
   rcases setPhase_cases h with ⟨_, q, _, rfl⟩ | ⟨_, _, h⟩ | ⟨_, q, _, rfl⟩
-  · exact toSingle_same w q
+  · exact toSingle_same w k q
   · exact setPhases_same h
-  · exact relabel_same w q
+  · exact relabel_same w k q
 
-theorem reduce_same {w w' : World} (h : w.reduce = .ok w') : Same w w' := by
+theorem reduce_same {w w' : World} {k : Nat} (h : w.reduce k = .ok w') : Same w w' k := by
   unfold World.reduce at h
   split at h
   · exact setPhase_same h
-  · injection h with h; subst h; exact Same.refl w
+  · injection h with h; subst h; exact Same.refl w k
 
-theorem asStream_same {w w' : World} (h : w.asStream = .ok w') : Same w w' := by
+theorem asStream_same {w w' : World} {k : Nat} (h : w.asStream k = .ok w') : Same w w' k := by
   unfold World.asStream at h
   split at h
   · split at h
     · exact setPhase_same h
     · exact setPhase_same h
     · cases h
-  · injection h with h; subst h; exact Same.refl w
+  · injection h with h; subst h; exact Same.refl w k
 
-theorem accessor_same {w w' : World} {a b : Ph} {f : Ph → Bool} (h : w.accessor a b f = .ok w') :
-    Same w w' := by
+theorem accessor_same {w w' : World} {k : Nat} {a b : Ph} {f : Ph → Bool}
+    (h : w.accessor k a b f = .ok w') : Same w w' k := by
   unfold World.accessor at h
   split at h
   · split at h
-    · injection h with h; subst h; exact Same.refl w
+    · injection h with h; subst h; exact Same.refl w k
     · exact setPhases_same h
   · simp only [] at h
     split at h
     · split at h
-      · exact (relabel_same w .l).trans (setPhases_same h)
+      · exact (relabel_same w k .l).trans (setPhases_same h)
       · exact setPhases_same h
     · exact setPhases_same h
 
-
 /-! ### each phase's material stays in that phase -/
 
-/-- the target phase set has a place (exact label, else the other-case label) for every non-empty phase -/
-def Covers (w : World) (t : List Ph) : Prop :=
-  ∀ x ∈ w.s.pr, w.isEmptyRow x.2 = false → (dest t x.1).isSome = true
+/-- the target phase set has a place (exact label, else the other-case label) for every non-empty phase of stream `k` -/
+def Covers (w : World) (k : Nat) (t : List Ph) : Prop :=
+  ∀ x ∈ w.pr k, w.isEmptyRow x.2 = false → (dest t x.1).isSome = true
 
-/-- every row of `w'` holds exactly the material of the phases of `w` whose destination it is -/
-def RowsKept (w w' : World) : Prop :=
-  ∀ q ∈ w'.s.phases, ∀ i, i < w.n →
-    w'.rowAt q i = (w.s.pr.map (fun x => if dest w'.s.phases x.1 = some q then w.row x.2 i else 0)).sum
+/-- every row of stream `k` in `w'` holds exactly the material of the phases of stream `k` in `w` whose destination it is -/
+def RowsKept (w w' : World) (k : Nat) : Prop :=
+  ∀ q ∈ w'.phases k, ∀ i, i < w.n →
+    w'.rowAt k q i = ((w.pr k).map (fun x => if dest (w'.phases k) x.1 = some q then w.row x.2 i else 0)).sum
 
-theorem rowAt_eq (w : World) (q : Ph) (i : Nat) :
-    w.rowAt q i = (w.s.pr.map (fun x => if x.1 = q then w.row x.2 i else 0)).sum := by
+theorem rowAt_eq (w : World) (k : Nat) (q : Ph) (i : Nat) :
+    w.rowAt k q i = ((w.pr k).map (fun x => if x.1 = q then w.row x.2 i else 0)).sum := by
   unfold World.rowAt
   rw [sum_filter]
   apply sum_map_congr
   intro x _
   by_cases h : x.1 = q <;> simp [h]
 
-theorem rowsKept_refl (w : World) : RowsKept w w := by
+theorem rowsKept_refl (w : World) (k : Nat) : RowsKept w w k := by
   intro q _ i _
   rw [rowAt_eq]
   apply sum_map_congr
   intro x hx
-  have hm : x.1 ∈ w.s.phases := List.mem_map.2 ⟨x, hx, rfl⟩
+  have hm : x.1 ∈ w.phases k := List.mem_map.2 ⟨x, hx, rfl⟩
   rw [dest_of_mem hm]
   by_cases h : x.1 = q <;> simp [h]
 
@@ -432,8 +452,8 @@ theorem emptyRow_zero {w : World} {r : Nat} (h : w.isEmptyRow r = true) {i : Nat
     w.row r i = 0 := isEmptyVal_zero h hi
 
 /-- all material ends up under the single label `q0` -/
-theorem rowsKept_of_all_eq {w w' : World} {q0 : Ph} (hph : ∀ q ∈ w'.s.phases, q = q0)
-    (hrow : ∀ i, w'.rowAt q0 i = w.total i) (hc : Covers w w'.s.phases) : RowsKept w w' := by
+theorem rowsKept_of_all_eq {w w' : World} {k : Nat} {q0 : Ph} (hph : ∀ q ∈ w'.phases k, q = q0)
+    (hrow : ∀ i, w'.rowAt k q0 i = w.total k i) (hc : Covers w k (w'.phases k)) : RowsKept w w' k := by
   intro q hq i hi
   have := hph q hq; subst this
   rw [hrow i]
@@ -448,21 +468,29 @@ theorem rowsKept_of_all_eq {w w' : World} {q0 : Ph} (hph : ∀ q ∈ w'.s.phases
     subst this
     simp [hq']
 
-theorem toSingle_rowAt (w : World) (q : Ph) (i : Nat) : (w.toSingle q).rowAt q i = w.total i := by
-  simp [World.rowAt, World.total, World.toSingle, World.allocRows, List.map_map, Function.comp_def]
+theorem toSingle_phases (w : World) (k : Nat) (q : Ph) : (w.toSingle k q).phases k = [q] := by
+  simp [World.phases, toSingle_pr]
 
-theorem toSingle_rowsKept (w : World) (q : Ph) (hc : Covers w [q]) : RowsKept w (w.toSingle q) := by
+theorem toSingle_rowAt (w : World) (k : Nat) (q : Ph) (i : Nat) :
+    (w.toSingle k q).rowAt k q i = w.total k i := by
+  simp [World.rowAt, toSingle_pr, toSingle_row]
+
+theorem toSingle_rowsKept (w : World) (k : Nat) (q : Ph) (hc : Covers w k [q]) :
+    RowsKept w (w.toSingle k q) k := by
   apply rowsKept_of_all_eq (q0 := q)
   · intro q' hq'
-    simpa [World.toSingle, Strm.phases] using hq'
-  · exact toSingle_rowAt w q
-  · simpa [World.toSingle, Strm.phases] using hc
+    simpa [toSingle_phases] using hq'
+  · exact toSingle_rowAt w k q
+  · simpa [toSingle_phases] using hc
 
-theorem relabel_phases (w : World) (q : Ph) : (w.relabel q).s.phases = w.s.pr.map (fun _ => q) := by
-  simp [World.relabel, Strm.phases, List.map_map, Function.comp_def]
+theorem relabel_phases (w : World) (k : Nat) (q : Ph) :
+    (w.relabel k q).phases k = (w.pr k).map (fun _ => q) := by
+  simp [World.phases, relabel_pr, List.map_map, Function.comp_def]
 
-theorem relabel_rowsKept (w : World) (q : Ph) (hc : Covers w (w.relabel q).s.phases) :
-    RowsKept w (w.relabel q) := by
+theorem relabel_row (w : World) (k : Nat) (q : Ph) : (w.relabel k q).row = w.row := rfl
+
+theorem relabel_rowsKept (w : World) (k : Nat) (q : Ph) (hc : Covers w k ((w.relabel k q).phases k)) :
+    RowsKept w (w.relabel k q) k := by
   apply rowsKept_of_all_eq (q0 := q)
   · intro q' hq'
     rw [relabel_phases] at hq'
@@ -470,11 +498,11 @@ theorem relabel_rowsKept (w : World) (q : Ph) (hc : Covers w (w.relabel q).s.pha
     exact h.symm
   · intro i
     rw [rowAt_eq]
-    simp [World.total, World.relabel, List.map_map, Function.comp_def]
+    simp [World.total, relabel_pr, relabel_row, List.map_map, Function.comp_def]
   · exact hc
 
-theorem toMulti_rowsKept {w w' : World} {t : List Ph} (h : w.toMulti t = .ok w') (ht : t.Nodup) :
-    RowsKept w w' := by
+theorem toMulti_rowsKept {w w' : World} {k : Nat} {t : List Ph} (h : w.toMulti k t = .ok w') (ht : t.Nodup) :
+    RowsKept w w' k := by
   intro q hq i hi
   have hp := toMulti_phases h
   rw [hp] at hq ⊢
@@ -489,82 +517,87 @@ theorem toMulti_rowsKept {w w' : World} {t : List Ph} (h : w.toMulti t = .ok w')
   | false => simp
 
 /-- a successful `toMulti` had a place for everything -/
-theorem toMulti_covers {w w' : World} {t : List Ph} (h : w.toMulti t = .ok w') : Covers w t := by
+theorem toMulti_covers {w w' : World} {k : Nat} {t : List Ph} (h : w.toMulti k t = .ok w') : Covers w k t := by
   intro x hx he
   apply (toMulti_ok h).1 (x.1, w.row x.2, !w.isEmptyRow x.2)
   · exact List.mem_map.2 ⟨x, hx, rfl⟩
   · simp [he]
 
-theorem setPhases_rowsKept {w w' : World} {ps : List Ph} (h : w.setPhases ps = .ok w')
-    (hc : Covers w w'.s.phases) : RowsKept w w' := by
+theorem covers_self (w : World) (k : Nat) : Covers w k (w.phases k) := by
+  intro x hx _
+  have hm : x.1 ∈ w.phases k := List.mem_map.2 ⟨x, hx, rfl⟩
+  rw [dest_of_mem hm]; rfl
+
+theorem setPhases_rowsKept {w w' : World} {k : Nat} {ps : List Ph} (h : w.setPhases k ps = .ok w')
+    (hc : Covers w k (w'.phases k)) : RowsKept w w' k := by
   rcases setPhases_cases h with ⟨q, _, _, rfl⟩ | ⟨q, _, _, rfl⟩ | ⟨_, _, _, rfl⟩ | ⟨_, _, h⟩
-  · exact toSingle_rowsKept w q (by simpa [World.toSingle, Strm.phases] using hc)
-  · exact relabel_rowsKept w q hc
-  · exact rowsKept_refl _
+  · exact toSingle_rowsKept w k q (by simpa [toSingle_phases] using hc)
+  · exact relabel_rowsKept w k q hc
+  · exact rowsKept_refl _ k
   · exact toMulti_rowsKept h (phaseTuple_nodup ps)
 
-theorem setPhase_rowsKept {w w' : World} {ls : List Ph} (h : w.setPhase ls = .ok w')
-    (hc : Covers w w'.s.phases) : RowsKept w w' := by
+theorem setPhase_rowsKept {w w' : World} {k : Nat} {ls : List Ph} (h : w.setPhase k ls = .ok w')
+    (hc : Covers w k (w'.phases k)) : RowsKept w w' k := by
   rcases setPhase_cases h with ⟨_, q, _, rfl⟩ | ⟨_, _, h⟩ | ⟨_, q, _, rfl⟩
-  · exact toSingle_rowsKept w q (by simpa [World.toSingle, Strm.phases] using hc)
+  · exact toSingle_rowsKept w k q (by simpa [toSingle_phases] using hc)
   · exact setPhases_rowsKept h hc
-  · exact relabel_rowsKept w q hc
+  · exact relabel_rowsKept w k q hc
 
-theorem reduce_rowsKept {w w' : World} (h : w.reduce = .ok w') (hc : Covers w w'.s.phases) :
-    RowsKept w w' := by
+theorem reduce_rowsKept {w w' : World} {k : Nat} (h : w.reduce k = .ok w') (hc : Covers w k (w'.phases k)) :
+    RowsKept w w' k := by
   unfold World.reduce at h
   split at h
   · exact setPhase_rowsKept h hc
-  · injection h with h; subst h; exact rowsKept_refl w
+  · injection h with h; subst h; exact rowsKept_refl w k
 
-theorem asStream_rowsKept {w w' : World} (h : w.asStream = .ok w') (hc : Covers w w'.s.phases) :
-    RowsKept w w' := by
+theorem asStream_rowsKept {w w' : World} {k : Nat} (h : w.asStream k = .ok w')
+    (hc : Covers w k (w'.phases k)) : RowsKept w w' k := by
   unfold World.asStream at h
   split at h
   · split at h
     · exact setPhase_rowsKept h hc
     · exact setPhase_rowsKept h hc
     · cases h
-  · injection h with h; subst h; exact rowsKept_refl w
+  · injection h with h; subst h; exact rowsKept_refl w k
 
 /-- relabelling first and converting afterwards, seen from the original labels -/
-theorem rowsKept_after_relabel {w w' : World} {q0 : Ph} (hk : RowsKept (w.relabel q0) w')
-    (hd : ∀ x ∈ w.s.pr, w.isEmptyRow x.2 = false → dest w'.s.phases x.1 = dest w'.s.phases q0) :
-    RowsKept w w' := by
+theorem rowsKept_after_relabel {w w' : World} {k : Nat} {q0 : Ph} (hk : RowsKept (w.relabel k q0) w' k)
+    (hd : ∀ x ∈ w.pr k, w.isEmptyRow x.2 = false → dest (w'.phases k) x.1 = dest (w'.phases k) q0) :
+    RowsKept w w' k := by
   intro q hq i hi
   rw [hk q hq i hi]
-  simp only [World.relabel, List.map_map, Function.comp_def]
+  simp only [relabel_pr, relabel_row, List.map_map, Function.comp_def]
   apply sum_map_congr
   intro x hx
   cases he : w.isEmptyRow x.2 with
   | true => simp [emptyRow_zero he hi]
   | false => rw [hd x hx he]
 
-
-theorem relabel_multi (w : World) (q : Ph) : (w.relabel q).s.multi = w.s.multi := rfl
+theorem relabel_multi (w : World) (k : Nat) (q : Ph) : ((w.relabel k q).str k).multi = (w.str k).multi := rfl
 
 /-- from a single-phase stream, `setPhases` with two distinct target phases is `toMulti` -/
-theorem setPhases_single_two {w w' : World} {ps : List Ph} (h : w.setPhases ps = .ok w')
-    (hm : w.s.multi = false) (hlen : 2 ≤ (phaseTuple ps).length) :
-    w.toMulti (phaseTuple ps) = .ok w' := by
+theorem setPhases_single_two {w w' : World} {k : Nat} {ps : List Ph} (h : w.setPhases k ps = .ok w')
+    (hm : (w.str k).multi = false) (hlen : 2 ≤ (phaseTuple ps).length) :
+    w.toMulti k (phaseTuple ps) = .ok w' := by
   rcases setPhases_cases h with ⟨q, hq, _, _⟩ | ⟨q, hq, _, _⟩ | ⟨_, hm', _, _⟩ | ⟨_, _, h⟩
   · rw [hq] at hlen; simp at hlen
   · rw [hq] at hlen; simp at hlen
   · rw [hm] at hm'; cases hm'
   · exact h
 
-theorem accessor_rowsKept {w w' : World} {a b : Ph} {f : Ph → Bool} (h : w.accessor a b f = .ok w')
-    (hc : Covers w w'.s.phases) (hlen : 2 ≤ (phaseTuple [a, b]).length)
+theorem accessor_rowsKept {w w' : World} {k : Nat} {a b : Ph} {f : Ph → Bool}
+    (h : w.accessor k a b f = .ok w')
+    (hc : Covers w k (w'.phases k)) (hlen : 2 ≤ (phaseTuple [a, b]).length)
     (hf : ∀ p, f p = true → (dest (phaseTuple [a, b]) p).isSome = true →
       dest (phaseTuple [a, b]) p = dest (phaseTuple [a, b]) .l) :
-    RowsKept w w' := by
+    RowsKept w w' k := by
   unfold World.accessor at h
   split at h
   · split at h
-    · injection h with h; subst h; exact rowsKept_refl w
+    · injection h with h; subst h; exact rowsKept_refl w k
     · exact setPhases_rowsKept h hc
   · rename_i hm
-    have hm : w.s.multi = false := by simpa using hm
+    have hm : (w.str k).multi = false := by simpa using hm
     simp only [] at h
     split at h
     · rename_i p hp
@@ -575,7 +608,7 @@ theorem accessor_rowsKept {w w' : World} {a b : Ph} {f : Ph → Bool} (h : w.acc
         apply rowsKept_after_relabel (toMulti_rowsKept ht (phaseTuple_nodup _))
         intro x hx he
         have hx1 : x.1 = p := by
-          have : x.1 ∈ w.s.phases := List.mem_map.2 ⟨x, hx, rfl⟩
+          have : x.1 ∈ w.phases k := List.mem_map.2 ⟨x, hx, rfl⟩
           rw [hp] at this
           simpa using this
         rw [hph, hx1]
@@ -585,353 +618,587 @@ theorem accessor_rowsKept {w w' : World} {a b : Ph} {f : Ph → Bool} (h : w.acc
       · exact setPhases_rowsKept h hc
     · exact setPhases_rowsKept h hc
 
-theorem vle_rowsKept {w w' : World} (h : w.vle = .ok w') (hc : Covers w w'.s.phases) : RowsKept w w' :=
+theorem vle_rowsKept {w w' : World} {k : Nat} (h : w.vle k = .ok w') (hc : Covers w k (w'.phases k)) :
+    RowsKept w w' k :=
   accessor_rowsKept h hc (by decide) (by intro p; cases p <;> decide)
 
-theorem lle_rowsKept {w w' : World} (h : w.lle = .ok w') (hc : Covers w w'.s.phases) : RowsKept w w' :=
+theorem lle_rowsKept {w w' : World} {k : Nat} (h : w.lle k = .ok w') (hc : Covers w k (w'.phases k)) :
+    RowsKept w w' k :=
   accessor_rowsKept h hc (by decide) (by intro p; cases p <;> decide)
 
-theorem sle_rowsKept {w w' : World} (h : w.sle = .ok w') (hc : Covers w w'.s.phases) : RowsKept w w' :=
+theorem sle_rowsKept {w w' : World} {k : Nat} (h : w.sle k = .ok w') (hc : Covers w k (w'.phases k)) :
+    RowsKept w w' k :=
   accessor_rowsKept h hc (by decide) (by intro p; cases p <;> decide)
 
+/-! ### `reduce_phases` / `as_stream` keep a place for every non-empty phase -/
+
+/-- the lower-case letter of the group (g, l/L, s/S) of a phase -/
+def Ph.grp : Ph → Ph
+  | .L => .l | .l => .l | .S => .s | .s => .s | .g => .g
+
+theorem dest_isSome_of_grp {t : List Ph} {p : Ph} (h : p.grp ∈ t) : (dest t p).isSome = true := by
+  cases p <;> simp [Ph.grp] at h <;> simp [dest, Ph.flip, h] <;>
+    (split <;> simp)
+
+theorem grp_mem_phaseString {w : World} {k : Nat} {x : Ph × Nat} (hx : x ∈ w.pr k)
+    (he : w.isEmptyRow x.2 = false) : x.1.grp ∈ w.phaseString k := by
+  unfold World.phaseString
+  simp only [List.mem_append]
+  have key : ∀ grp : List Ph, x.1 ∈ grp →
+      ((w.pr k).any fun y => grp.contains y.1 && !w.isEmptyRow y.2) = true := by
+    intro grp hg
+    rw [List.any_eq_true]
+    exact ⟨x, hx, by simp [hg, he]⟩
+  cases hp : x.1 with
+  | g => left; left; rw [hp] at key; rw [if_pos (key [.g] (by simp))]; simp [Ph.grp]
+  | l => left; right; rw [hp] at key; rw [if_pos (key [.l, .L] (by simp))]; simp [Ph.grp]
+  | L => left; right; rw [hp] at key; rw [if_pos (key [.l, .L] (by simp))]; simp [Ph.grp]
+  | s => right; rw [hp] at key; rw [if_pos (key [.s, .S] (by simp))]; simp [Ph.grp]
+  | S => right; rw [hp] at key; rw [if_pos (key [.s, .S] (by simp))]; simp [Ph.grp]
+
+theorem setPhases_covers_of_grp {w w' : World} {k : Nat} {ls : List Ph} (h : w.setPhases k ls = .ok w')
+    (hg : ∀ x ∈ w.pr k, w.isEmptyRow x.2 = false → x.1.grp ∈ ls) : Covers w k (w'.phases k) := by
+  rcases setPhases_cases h with ⟨q, hq, _, rfl⟩ | ⟨q, hq, _, rfl⟩ | ⟨_, _, _, rfl⟩ | ⟨_, _, h⟩
+  · intro x hx he
+    apply dest_isSome_of_grp
+    have := mem_phaseTuple.2 (hg x hx he)
+    rw [hq] at this
+    simpa [toSingle_phases] using this
+  · intro x hx he
+    apply dest_isSome_of_grp
+    have := mem_phaseTuple.2 (hg x hx he)
+    rw [hq] at this
+    have hq' : x.1.grp = q := by simpa using this
+    rw [relabel_phases, hq']
+    exact List.mem_map.2 ⟨x, hx, rfl⟩
+  · exact covers_self _ k
+  · rw [toMulti_phases h]; exact toMulti_covers h
+
+theorem setPhase_covers_of_grp {w w' : World} {k : Nat} {ls : List Ph} (h : w.setPhase k ls = .ok w')
+    (hm : (w.str k).multi = true)
+    (hg : ∀ x ∈ w.pr k, w.isEmptyRow x.2 = false → x.1.grp ∈ ls) : Covers w k (w'.phases k) := by
+  rcases setPhase_cases h with ⟨_, q, hq, rfl⟩ | ⟨_, _, h⟩ | ⟨hm', _⟩
+  · intro x hx he
+    apply dest_isSome_of_grp
+    have := hg x hx he
+    rcases hq with ⟨rfl, _⟩ | rfl
+    · cases this
+    · simpa [toSingle_phases] using this
+  · exact setPhases_covers_of_grp h hg
+  · rw [hm] at hm'; cases hm'
+
+theorem reduce_covers {w w' : World} {k : Nat} (h : w.reduce k = .ok w') : Covers w k (w'.phases k) := by
+  unfold World.reduce at h
+  split at h
+  · rename_i hm
+    exact setPhase_covers_of_grp h hm (fun x hx he => grp_mem_phaseString hx he)
+  · injection h with h; subst h
+    exact covers_self w k
+
+theorem asStream_covers {w w' : World} {k : Nat} (h : w.asStream k = .ok w') : Covers w k (w'.phases k) := by
+  unfold World.asStream at h
+  split at h
+  · rename_i hm
+    split at h
+    · rename_i q hq
+      exact setPhase_covers_of_grp h hm (fun x hx he => hq ▸ grp_mem_phaseString hx he)
+    · rename_i hq
+      exact setPhase_covers_of_grp h hm (fun x hx he => by
+        have := grp_mem_phaseString hx he
+        rw [hq] at this; cases this)
+    · cases h
+  · injection h with h; subst h
+    exact covers_self w k
 
 /-! ### phase views stay attached -/
 
-/-- Every view in `_streams` is the view of the parent's CURRENT row for its key (looked up the way
-`get_phase` does) and shares the parent's thermal-condition object; a `Stream` has no cached views. -/
-structure Live (w : World) : Prop where
-  cached : ∀ c ∈ w.s.cache, c.2 < w.nView ∧ (w.view c.2).phase = c.1 ∧ (w.view c.2).tc = w.s.tc ∧
-    lookupRow w.s.pr c.1 = some (w.view c.2).row
-  single : w.s.multi = false → w.s.cache = []
+/-- Every view in the `_streams` dict of stream `k` is the view of the stream's CURRENT row for its key
+(looked up the way `get_phase` does) and shares the stream's thermal-condition object. -/
+def LiveAt (w : World) (k : Nat) : Prop :=
+  ∀ e ∈ w.cacheOf k, (w.view e.2).phase = e.1 ∧ (w.view e.2).tc = (w.str k).tc ∧
+    lookupRow (w.pr k) e.1 = some (w.view e.2).row
 
-theorem live_init : Live World.init := ⟨by simp [World.init], fun _ => rfl⟩
+/-- Allocation discipline, separation of the streams' `_streams` dicts and their views, streams that share an
+indexer object (proxies) are of the same class, and liveness of the views of every MultiStream. -/
+structure Inv (w : World) : Prop where
+  imol_lt : ∀ k, k < w.nStr → (w.str k).imol < w.nImol
+  cache_lt : ∀ k, k < w.nStr → (w.str k).cache < w.nCache
+  kind_alias : ∀ j k, j < w.nStr → k < w.nStr → (w.str j).imol = (w.str k).imol → (w.str j).multi = (w.str k).multi
+  cache_inj : ∀ j k, j < w.nStr → k < w.nStr → (w.str j).cache = (w.str k).cache → j = k
+  view_lt : ∀ k, k < w.nStr → ∀ e ∈ w.cacheOf k, e.2 < w.nView
+  view_sep : ∀ j k, j < w.nStr → k < w.nStr → j ≠ k → ∀ e1 ∈ w.cacheOf j, ∀ e2 ∈ w.cacheOf k, e1.2 ≠ e2.2
+  live : ∀ k, k < w.nStr → (w.str k).multi = true → LiveAt w k
 
-theorem live_of_eq {w w' : World} (hl : Live w) (h1 : w'.s = w.s) (h2 : w'.view = w.view)
-    (h3 : w'.nView = w.nView) : Live w' := by
+theorem inv_init : Inv World.init := by
+  constructor <;> intro k <;> simp [World.init]
+
+/-- An operation that touches only the private objects of stream `k` (its `Strm` record, its indexer, its
+`_streams` dict and the views in it) and fresh objects keeps the invariant if it keeps stream `k` live. -/
+theorem inv_of_frame {w w' : World} {k : Nat} (hi : Inv w) (hk : k < w.nStr)
+    (hn : w'.nStr = w.nStr)
+    (hstr : ∀ j, j ≠ k → w'.str j = w.str j)
+    (himol : (w'.str k).imol = (w.str k).imol ∨ w.nImol ≤ (w'.str k).imol)
+    (himol_lt : (w'.str k).imol < w'.nImol) (hnImol : w.nImol ≤ w'.nImol)
+    (hcache : (w'.str k).cache = (w.str k).cache ∨ w.nCache ≤ (w'.str k).cache)
+    (hcache_lt : (w'.str k).cache < w'.nCache) (hnCache : w.nCache ≤ w'.nCache)
+    (hipr : ∀ i, i < w.nImol → i ≠ (w.str k).imol → w'.ipr i = w.ipr i)
+    (hcch : ∀ c, c < w.nCache → c ≠ (w.str k).cache → w'.cache c = w.cache c)
+    (hview : ∀ v, v < w.nView → (∀ e ∈ w.cacheOf k, e.2 ≠ v) → w'.view v = w.view v)
+    (hnView : w.nView ≤ w'.nView)
+    (hk_views : ∀ e ∈ w'.cacheOf k, e.2 < w'.nView ∧ ((∃ e0 ∈ w.cacheOf k, e0.2 = e.2) ∨ w.nView ≤ e.2))
+    (hk_live : (w'.str k).multi = true → LiveAt w' k)
+    (hold : w'.ipr (w.str k).imol = w.ipr (w.str k).imol ∨
+      ∀ j, j ≠ k → j < w.nStr → (w.str j).imol = (w.str k).imol → (w.str j).multi = true →
+        ∀ e ∈ w.cacheOf j, lookupRow (w'.ipr (w.str k).imol) e.1 = lookupRow (w.ipr (w.str k).imol) e.1)
+    (hkind : (w'.str k).imol = (w.str k).imol → (w'.str k).multi = (w.str k).multi) : Inv w' := by
+  have hcacheOf : ∀ j, j ≠ k → j < w.nStr → w'.cacheOf j = w.cacheOf j := by
+    intro j hj hjn
+    unfold World.cacheOf
+    rw [hstr j hj]
+    apply hcch _ (hi.cache_lt j hjn)
+    intro e
+    exact hj (hi.cache_inj j k hjn hk e)
   constructor
-  · intro c hc
-    rw [h1] at hc
-    rw [h1, h2, h3]
-    exact hl.cached c hc
-  · rw [h1]; exact hl.single
+  · intro j hj
+    rw [hn] at hj
+    by_cases hjk : j = k
+    · subst hjk; exact himol_lt
+    · rw [hstr j hjk]; exact Nat.lt_of_lt_of_le (hi.imol_lt j hj) hnImol
+  · intro j hj
+    rw [hn] at hj
+    by_cases hjk : j = k
+    · subst hjk; exact hcache_lt
+    · rw [hstr j hjk]; exact Nat.lt_of_lt_of_le (hi.cache_lt j hj) hnCache
+  · intro j j' hj hj' he
+    rw [hn] at hj hj'
+    by_cases hjk : j = k <;> by_cases hjk' : j' = k
+    · rw [hjk, hjk']
+    · subst hjk
+      rw [hstr j' hjk'] at he ⊢
+      rcases himol with h | h
+      · rw [h] at he; rw [hkind h]; exact hi.kind_alias _ _ hj hj' he
+      · have := hi.imol_lt j' hj'; omega
+    · subst hjk'
+      rw [hstr j hjk] at he ⊢
+      rcases himol with h | h
+      · rw [h] at he; rw [hkind h]; exact hi.kind_alias _ _ hj hj' he
+      · have := hi.imol_lt j hj; omega
+    · rw [hstr j hjk, hstr j' hjk'] at he ⊢; exact hi.kind_alias _ _ hj hj' he
+  · intro j j' hj hj' he
+    rw [hn] at hj hj'
+    by_cases hjk : j = k <;> by_cases hjk' : j' = k
+    · rw [hjk, hjk']
+    · subst hjk
+      rw [hstr j' hjk'] at he
+      rcases hcache with h | h
+      · rw [h] at he; exact hi.cache_inj _ _ hj hj' he
+      · have := hi.cache_lt j' hj'; omega
+    · subst hjk'
+      rw [hstr j hjk] at he
+      rcases hcache with h | h
+      · rw [h] at he; exact hi.cache_inj _ _ hj hj' he
+      · have := hi.cache_lt j hj; omega
+    · rw [hstr j hjk, hstr j' hjk'] at he; exact hi.cache_inj _ _ hj hj' he
+  · intro j hj e he
+    rw [hn] at hj
+    by_cases hjk : j = k
+    · subst hjk; exact (hk_views e he).1
+    · rw [hcacheOf j hjk hj] at he
+      exact Nat.lt_of_lt_of_le (hi.view_lt j hj e he) hnView
+  · intro j j' hj hj' hne e1 he1 e2 he2
+    rw [hn] at hj hj'
+    by_cases hjk : j = k <;> by_cases hjk' : j' = k
+    · exact absurd (hjk.trans hjk'.symm) hne
+    · subst hjk
+      rw [hcacheOf j' hjk' hj'] at he2
+      rcases (hk_views e1 he1).2 with ⟨e0, he0, h0⟩ | h
+      · rw [← h0]; exact hi.view_sep _ _ hj hj' hne e0 he0 e2 he2
+      · have := hi.view_lt j' hj' e2 he2; omega
+    · subst hjk'
+      rw [hcacheOf j hjk hj] at he1
+      rcases (hk_views e2 he2).2 with ⟨e0, he0, h0⟩ | h
+      · rw [← h0]; exact hi.view_sep _ _ hj hj' hne e1 he1 e0 he0
+      · have := hi.view_lt j hj e1 he1; omega
+    · rw [hcacheOf j hjk hj] at he1
+      rw [hcacheOf j' hjk' hj'] at he2
+      exact hi.view_sep _ _ hj hj' hne e1 he1 e2 he2
+  · intro j hj hm
+    rw [hn] at hj
+    by_cases hjk : j = k
+    · subst hjk; exact hk_live hm
+    · rw [hstr j hjk] at hm
+      intro e he
+      rw [hcacheOf j hjk hj] at he
+      have hv : w'.view e.2 = w.view e.2 :=
+        hview _ (hi.view_lt j hj e he) (fun e0 he0 h0 => hi.view_sep k j hk hj (Ne.symm hjk) e0 he0 e he h0)
+      obtain ⟨l1, l2, l3⟩ := hi.live j hj hm e he
+      rw [hv, hstr j hjk]
+      refine ⟨l1, l2, ?_⟩
+      unfold World.pr at l3 ⊢
+      rw [hstr j hjk]
+      by_cases himj : (w.str j).imol = (w.str k).imol
+      · rw [himj] at l3 ⊢
+        rcases hold with h | h
+        · rw [h]; exact l3
+        · rw [h j hjk hj himj hm e he]; exact l3
+      · rw [hipr _ (hi.imol_lt j hj) himj]; exact l3
 
-theorem live_of_cache_nil {w : World} (h : w.s.cache = []) : Live w :=
-  ⟨by simp [h], fun _ => h⟩
+/-- an operation that changes only row values, T, P or the snapshots -/
+theorem inv_of_shape {w w' : World} (hi : Inv w) (h1 : w'.str = w.str) (h2 : w'.ipr = w.ipr)
+    (h3 : w'.cache = w.cache) (h4 : w'.view = w.view) (h5 : w'.nStr = w.nStr) (h6 : w'.nImol = w.nImol)
+    (h7 : w'.nCache = w.nCache) (h8 : w'.nView = w.nView) : Inv w' := by
+  have hc : ∀ k, w'.cacheOf k = w.cacheOf k := by intro k; simp [World.cacheOf, h1, h3]
+  have hp : ∀ k, w'.pr k = w.pr k := by intro k; simp [World.pr, h1, h2]
+  constructor
+  · intro k hk; rw [h5] at hk; rw [h1, h6]; exact hi.imol_lt k hk
+  · intro k hk; rw [h5] at hk; rw [h1, h7]; exact hi.cache_lt k hk
+  · intro j k hj hk; rw [h5] at hj hk; rw [h1]; exact hi.kind_alias j k hj hk
+  · intro j k hj hk; rw [h5] at hj hk; rw [h1]; exact hi.cache_inj j k hj hk
+  · intro k hk e he; rw [h5] at hk; rw [hc] at he; rw [h8]; exact hi.view_lt k hk e he
+  · intro j k hj hk hne e1 he1 e2 he2; rw [h5] at hj hk; rw [hc] at he1 he2
+    exact hi.view_sep j k hj hk hne e1 he1 e2 he2
+  · intro k hk hm e he; rw [h5] at hk; rw [h1] at hm; rw [hc] at he
+    rw [h4, h1, hp]; exact hi.live k hk hm e he
 
-theorem relabel_live {w : World} (hl : Live w) (hm : w.s.multi = false) (q : Ph) : Live (w.relabel q) :=
-  live_of_cache_nil (by simpa [World.relabel] using hl.single hm)
+theorem emptyRows_inv {w : World} (hi : Inv w) (k : Nat) : Inv (w.emptyRows k) :=
+  inv_of_shape hi rfl rfl rfl rfl rfl rfl rfl rfl
+theorem writeRow_inv {w : World} (hi : Inv w) (r i : Nat) (x : Rat) : Inv (w.writeRow r i x) :=
+  inv_of_shape hi rfl rfl rfl rfl rfl rfl rfl rfl
+theorem setT_inv {w : World} (hi : Inv w) (t : Nat) (x : Rat) : Inv (w.setT t x) :=
+  inv_of_shape hi rfl rfl rfl rfl rfl rfl rfl rfl
+theorem setP_inv {w : World} (hi : Inv w) (t : Nat) (x : Rat) : Inv (w.setP t x) :=
+  inv_of_shape hi rfl rfl rfl rfl rfl rfl rfl rfl
+theorem copyRows_inv {w : World} (hi : Inv w) (k : Nat) (vals : List (Nat → Rat)) : Inv (w.copyRows k vals) :=
+  inv_of_shape hi rfl rfl rfl rfl rfl rfl rfl rfl
+theorem writeByPhase_inv {w : World} (hi : Inv w) (k : Nat) (vals : Ph → Nat → Rat) :
+    Inv (w.writeByPhase k vals) :=
+  inv_of_shape hi rfl rfl rfl rfl rfl rfl rfl rfl
+theorem save_inv {w : World} (hi : Inv w) (k : Nat) : Inv (w.save k) :=
+  inv_of_shape hi rfl rfl rfl rfl rfl rfl rfl rfl
 
-theorem toSingle_live (w : World) (q : Ph) : Live (w.toSingle q) :=
-  live_of_cache_nil (by simp [World.toSingle])
+theorem not_aliased {w : World} {k : Nat} (h : w.aliased k = false) {j : Nat} (hj : j < w.nStr) (hjk : j ≠ k) :
+    (w.str j).imol ≠ (w.str k).imol := by
+  unfold World.aliased at h
+  rw [List.any_eq_false] at h
+  have := h j (List.mem_range.2 hj)
+  intro he
+  apply this
+  simp [hjk, he]
 
-theorem toMulti_live {w w' : World} {t : List Ph} (hl : Live w) (h : w.toMulti t = .ok w') : Live w' := by
+theorem relabel_inv {w : World} {k : Nat} (hi : Inv w) (hk : k < w.nStr) (hm : (w.str k).multi = false)
+    (q : Ph) : Inv (w.relabel k q) := by
+  apply inv_of_frame (w' := w.relabel k q) hi hk rfl (fun _ _ => rfl) (Or.inl rfl) (hi.imol_lt k hk) (Nat.le_refl _)
+    (Or.inl rfl) (hi.cache_lt k hk) (Nat.le_refl _)
+  · intro i _ hne; simp [World.relabel, World.setIpr, hne]
+  · intro c _ _; rfl
+  · intro v _ _; rfl
+  · exact Nat.le_refl _
+  · intro e he
+    exact ⟨hi.view_lt k hk e he, Or.inl ⟨e, he, rfl⟩⟩
+  · intro h
+    rw [relabel_multi, hm] at h; cases h
+  · right
+    intro j _ hj he hmj
+    rw [hi.kind_alias j k hj hk he, hm] at hmj; cases hmj
+  · intro _; rfl
+
+theorem toSingle_inv {w : World} {k : Nat} (hi : Inv w) (hk : k < w.nStr) (q : Ph) :
+    Inv (w.toSingle k q) := by
+  apply inv_of_frame hi hk
+  · simp [World.toSingle, World.setStr, World.setCache, World.allocImol, World.allocRows]
+  · intro j hj; simp [World.toSingle, World.setStr, World.setCache, World.allocImol, World.allocRows, hj]
+  · right; simp [World.toSingle, World.setStr, World.setCache, World.allocImol, World.allocRows]
+  · simp [World.toSingle, World.setStr, World.setCache, World.allocImol, World.allocRows]
+  · simp [World.toSingle, World.setStr, World.setCache, World.allocImol, World.allocRows]
+  · left; simp [World.toSingle, World.setStr, World.setCache, World.allocImol, World.allocRows]
+  · have := hi.cache_lt k hk
+    simpa [World.toSingle, World.setStr, World.setCache, World.allocImol, World.allocRows] using this
+  · simp [World.toSingle, World.setStr, World.setCache, World.allocImol, World.allocRows]
+  · intro i hi' _
+    have : i ≠ w.nImol := Nat.ne_of_lt hi'
+    simp [World.toSingle, World.setStr, World.setCache, World.allocImol, World.allocRows, this]
+  · intro c _ hne
+    simp [World.toSingle, World.setStr, World.setCache, World.allocImol, World.allocRows, hne]
+  · intro v _ _
+    simp [World.toSingle, World.setStr, World.setCache, World.allocImol, World.allocRows]
+  · simp [World.toSingle, World.setStr, World.setCache, World.allocImol, World.allocRows]
+  · intro e he
+    simp [World.toSingle, World.cacheOf, World.setStr, World.setCache, World.allocImol, World.allocRows] at he
+  · intro h
+    simp [World.toSingle, World.setStr, World.setCache, World.allocImol, World.allocRows] at h
+  · left
+    have hne : (w.str k).imol ≠ w.nImol := Nat.ne_of_lt (hi.imol_lt k hk)
+    simp [World.toSingle, World.setStr, World.setCache, World.allocImol, World.allocRows, hne]
+  · intro he
+    have := hi.imol_lt k hk
+    simp [World.toSingle, World.setStr, World.setCache, World.allocImol, World.allocRows] at he
+    omega
+
+/-! re-seating the cached views -/
+
+@[simp] theorem rebind_str (w : World) (k : Nat) (b : Bool) : (w.rebind k b).str = w.str := rfl
+@[simp] theorem rebind_ipr (w : World) (k : Nat) (b : Bool) : (w.rebind k b).ipr = w.ipr := rfl
+@[simp] theorem rebind_pr (w : World) (k j : Nat) (b : Bool) : (w.rebind k b).pr j = w.pr j := rfl
+@[simp] theorem rebind_nStr (w : World) (k : Nat) (b : Bool) : (w.rebind k b).nStr = w.nStr := rfl
+@[simp] theorem rebind_nImol (w : World) (k : Nat) (b : Bool) : (w.rebind k b).nImol = w.nImol := rfl
+@[simp] theorem rebind_nCache (w : World) (k : Nat) (b : Bool) : (w.rebind k b).nCache = w.nCache := rfl
+@[simp] theorem rebind_nView (w : World) (k : Nat) (b : Bool) : (w.rebind k b).nView = w.nView := rfl
+@[simp] theorem rebind_row (w : World) (k : Nat) (b : Bool) : (w.rebind k b).row = w.row := rfl
+@[simp] theorem rebind_T (w : World) (k : Nat) (b : Bool) : (w.rebind k b).T = w.T := rfl
+@[simp] theorem rebind_P (w : World) (k : Nat) (b : Bool) : (w.rebind k b).P = w.P := rfl
+@[simp] theorem rebind_snaps (w : World) (k : Nat) (b : Bool) : (w.rebind k b).snaps = w.snaps := rfl
+@[simp] theorem rebind_n (w : World) (k : Nat) (b : Bool) : (w.rebind k b).n = w.n := rfl
+
+theorem rebind_cacheOf (w : World) (k : Nat) (b : Bool) :
+    (w.rebind k b).cacheOf k = (w.cacheOf k).filter (fun e => (lookupRow (w.pr k) e.1).isSome) := by
+  simp [World.rebind, World.cacheOf]
+
+theorem rebind_cache_other (w : World) (k : Nat) (b : Bool) (c : Nat) (h : c ≠ (w.str k).cache) :
+    (w.rebind k b).cache c = w.cache c := by
+  simp [World.rebind, h]
+
+theorem rebind_view_other (w : World) (k : Nat) (b : Bool) (v : Nat) (h : ∀ e ∈ w.cacheOf k, e.2 ≠ v) :
+    (w.rebind k b).view v = w.view v := by
+  have : ((w.cacheOf k).map (·.2)).contains v = false := by
+    cases hc : ((w.cacheOf k).map (·.2)).contains v with
+    | false => rfl
+    | true =>
+      rw [List.contains_iff_mem, List.mem_map] at hc
+      obtain ⟨e, he, hev⟩ := hc
+      exact absurd hev (h e he)
+  simp only [World.rebind, this, Bool.false_eq_true, if_false]
+
+theorem rebind_liveAt {w : World} {k : Nat} {b : Bool}
+    (hph : ∀ e ∈ w.cacheOf k, (w.view e.2).phase = e.1)
+    (htc : b = false → ∀ e ∈ w.cacheOf k, (w.view e.2).tc = (w.str k).tc) : LiveAt (w.rebind k b) k := by
+  intro e he
+  rw [rebind_cacheOf] at he
+  simp only [List.mem_filter] at he
+  obtain ⟨he, hsome⟩ := he
+  obtain ⟨r, hr⟩ := Option.isSome_iff_exists.1 hsome
+  have hmem : ((w.cacheOf k).map (·.2)).contains e.2 = true := by
+    rw [List.contains_iff_mem, List.mem_map]
+    exact ⟨e, he, rfl⟩
+  have hp := hph e he
+  have hv : (w.rebind k b).view e.2
+      = { row := r, tc := if b = true then (w.str k).tc else (w.view e.2).tc, phase := e.1 } := by
+    simp only [World.rebind, hmem, if_true, hp, hr]
+  rw [hv]
+  refine ⟨rfl, ?_, by simpa using hr⟩
+  cases b with
+  | true => simp
+  | false => simpa using htc rfl e he
+
+/-- the frame part of a re-seating operation: `w1` differs from `w` only in the private objects of stream
+`k` and in fresh objects, its dict of `k` and the views are still those of `w`; then `w1.rebind k b` keeps
+the invariant -/
+theorem inv_rebind {w w1 : World} {k : Nat} {b : Bool} (hi : Inv w) (hk : k < w.nStr)
+    (hm : (w.str k).multi = true)
+    (hn : w1.nStr = w.nStr)
+    (hstr : ∀ j, j ≠ k → w1.str j = w.str j)
+    (himol : (w1.str k).imol = (w.str k).imol ∨ w.nImol ≤ (w1.str k).imol)
+    (himol_lt : (w1.str k).imol < w1.nImol) (hnImol : w.nImol ≤ w1.nImol)
+    (hcache : (w1.str k).cache = (w.str k).cache) (hnCache : w1.nCache = w.nCache)
+    (hipr : ∀ i, i < w.nImol → i ≠ (w.str k).imol → w1.ipr i = w.ipr i)
+    (hcch : w1.cache = w.cache) (hview : w1.view = w.view) (hnView : w1.nView = w.nView)
+    (htc : b = false → (w1.str k).tc = (w.str k).tc)
+    (hold : w1.ipr (w.str k).imol = w.ipr (w.str k).imol ∨
+      ∀ j, j ≠ k → j < w.nStr → (w.str j).imol = (w.str k).imol → (w.str j).multi = true →
+        ∀ e ∈ w.cacheOf j, lookupRow (w1.ipr (w.str k).imol) e.1 = lookupRow (w.ipr (w.str k).imol) e.1)
+    (hkind : (w1.str k).imol = (w.str k).imol → (w1.str k).multi = (w.str k).multi) :
+    Inv (w1.rebind k b) := by
+  have hc1 : w1.cacheOf k = w.cacheOf k := by simp [World.cacheOf, hcache, hcch]
+  apply inv_of_frame hi hk (by simpa using hn) (by simpa using hstr) (by simpa using himol)
+    (by simpa using himol_lt) (by simpa using hnImol) (Or.inl (by simpa using hcache))
+    (by simpa [hcache, hnCache] using hi.cache_lt k hk) (by simp [hnCache])
+  · simpa using hipr
+  · intro c _ hne
+    rw [rebind_cache_other w1 k b c (by rw [hcache]; exact hne), hcch]
+  · intro v _ hv
+    rw [rebind_view_other w1 k b v (by rw [hc1]; exact hv), hview]
+  · simp [hnView]
+  · intro e he
+    rw [rebind_cacheOf, hc1] at he
+    have he' := (List.mem_filter.1 he).1
+    exact ⟨by simpa [hnView] using hi.view_lt k hk e he', Or.inl ⟨e, he', rfl⟩⟩
+  · intro _
+    apply rebind_liveAt
+    · intro e he
+      rw [hc1] at he; rw [hview]
+      exact (hi.live k hk hm e he).1
+    · intro hb e he
+      rw [hc1] at he; rw [hview, htc hb]
+      exact (hi.live k hk hm e he).2.1
+  · simpa using hold
+  · simpa using hkind
+
+theorem toMulti_inv {w w' : World} {k : Nat} {t : List Ph} (hi : Inv w) (hk : k < w.nStr)
+    (h : w.toMulti k t = .ok w') : Inv w' := by
   unfold World.toMulti at h
   simp only [] at h
   split at h
   · split at h
+    · rename_i hm
+      injection h with h; subst h
+      apply inv_rebind hi hk hm
+      · simp [World.setStr, World.allocImol, World.allocRows]
+      · intro j hj; simp [World.setStr, World.allocImol, World.allocRows, hj]
+      · right; simp [World.setStr, World.allocImol, World.allocRows]
+      · simp [World.setStr, World.allocImol, World.allocRows]
+      · simp [World.setStr, World.allocImol, World.allocRows]
+      · simp [World.setStr, World.allocImol, World.allocRows]
+      · simp [World.setStr, World.allocImol, World.allocRows]
+      · intro i hi' _
+        have : i ≠ w.nImol := Nat.ne_of_lt hi'
+        simp [World.setStr, World.allocImol, World.allocRows, this]
+      · simp [World.setStr, World.allocImol, World.allocRows]
+      · simp [World.setStr, World.allocImol, World.allocRows]
+      · simp [World.setStr, World.allocImol, World.allocRows]
+      · intro _; simp [World.setStr, World.allocImol, World.allocRows]
+      · left
+        have hne : (w.str k).imol ≠ w.nImol := Nat.ne_of_lt (hi.imol_lt k hk)
+        simp [World.setStr, World.allocImol, World.allocRows, hne]
+      · intro he
+        have := hi.imol_lt k hk
+        simp [World.setStr, World.allocImol, World.allocRows] at he
+        omega
     · injection h with h; subst h
-      constructor
-      · intro c hc
-        simp only [List.mem_filter] at hc
-        obtain ⟨hc, hsome⟩ := hc
-        obtain ⟨h1, h2, h3, _⟩ := hl.cached c hc
-        have hmem : (w.s.cache.map (·.2)).contains c.2 = true := by
-          simp only [List.contains_iff_mem, List.mem_map]
-          exact ⟨c, hc, rfl⟩
-        obtain ⟨r, hr⟩ := Option.isSome_iff_exists.1 hsome
-        simp only [World.allocRows] at hr ⊢
-        simp only [hmem, if_true, h2, hr]
-        exact ⟨h1, trivial, h3, trivial⟩
-      · intro hm
-        rename_i hm'
-        simp [hm'] at hm
-    · injection h with h; subst h
-      exact live_of_cache_nil rfl
+      apply inv_of_frame hi hk
+      · simp [World.setStr, World.allocCache, World.allocImol, World.allocRows]
+      · intro j hj; simp [World.setStr, World.allocCache, World.allocImol, World.allocRows, hj]
+      · right; simp [World.setStr, World.allocCache, World.allocImol, World.allocRows]
+      · simp [World.setStr, World.allocCache, World.allocImol, World.allocRows]
+      · simp [World.setStr, World.allocCache, World.allocImol, World.allocRows]
+      · right; simp [World.setStr, World.allocCache, World.allocImol, World.allocRows]
+      · simp [World.setStr, World.allocCache, World.allocImol, World.allocRows]
+      · simp [World.setStr, World.allocCache, World.allocImol, World.allocRows]
+      · intro i hi' _
+        have : i ≠ w.nImol := Nat.ne_of_lt hi'
+        simp [World.setStr, World.allocCache, World.allocImol, World.allocRows, this]
+      · intro c hc _
+        have : c ≠ w.nCache := Nat.ne_of_lt hc
+        simp [World.setStr, World.allocCache, World.allocImol, World.allocRows, this]
+      · intro v _ _
+        simp [World.setStr, World.allocCache, World.allocImol, World.allocRows]
+      · simp [World.setStr, World.allocCache, World.allocImol, World.allocRows]
+      · intro e he
+        simp [World.cacheOf, World.setStr, World.allocCache, World.allocImol, World.allocRows] at he
+      · intro _ e he
+        simp [World.cacheOf, World.setStr, World.allocCache, World.allocImol, World.allocRows] at he
+      · left
+        have hne : (w.str k).imol ≠ w.nImol := Nat.ne_of_lt (hi.imol_lt k hk)
+        simp [World.setStr, World.allocCache, World.allocImol, World.allocRows, hne]
+      · intro he
+        have := hi.imol_lt k hk
+        simp [World.setStr, World.allocCache, World.allocImol, World.allocRows] at he
+        omega
   · cases h
 
-theorem setPhases_live {w w' : World} {ps : List Ph} (hl : Live w) (h : w.setPhases ps = .ok w') :
-    Live w' := by
+theorem setPhases_inv {w w' : World} {k : Nat} {ps : List Ph} (hi : Inv w) (hk : k < w.nStr)
+    (h : w.setPhases k ps = .ok w') : Inv w' := by
   rcases setPhases_cases h with ⟨q, _, _, rfl⟩ | ⟨q, _, hm, rfl⟩ | ⟨_, _, _, rfl⟩ | ⟨_, _, h⟩
-  · exact toSingle_live w q
-  · exact relabel_live hl hm q
-  · exact hl
-  · exact toMulti_live hl h
+  · exact toSingle_inv hi hk q
+  · exact relabel_inv hi hk hm q
+  · exact hi
+  · exact toMulti_inv hi hk h
 
-theorem setPhase_live {w w' : World} {ls : List Ph} (hl : Live w) (h : w.setPhase ls = .ok w') :
-    Live w' := by
+theorem setPhase_inv {w w' : World} {k : Nat} {ls : List Ph} (hi : Inv w) (hk : k < w.nStr)
+    (h : w.setPhase k ls = .ok w') : Inv w' := by
   rcases setPhase_cases h with ⟨_, q, _, rfl⟩ | ⟨_, _, h⟩ | ⟨hm, q, _, rfl⟩
-  · exact toSingle_live w q
-  · exact setPhases_live hl h
-  · exact relabel_live hl hm q
+  · exact toSingle_inv hi hk q
+  · exact setPhases_inv hi hk h
+  · exact relabel_inv hi hk hm q
 
-theorem reduce_live {w w' : World} (hl : Live w) (h : w.reduce = .ok w') : Live w' := by
+theorem reduce_inv {w w' : World} {k : Nat} (hi : Inv w) (hk : k < w.nStr) (h : w.reduce k = .ok w') :
+    Inv w' := by
   unfold World.reduce at h
   split at h
-  · exact setPhase_live hl h
-  · injection h with h; subst h; exact hl
+  · exact setPhase_inv hi hk h
+  · injection h with h; subst h; exact hi
 
-theorem asStream_live {w w' : World} (hl : Live w) (h : w.asStream = .ok w') : Live w' := by
+theorem asStream_inv {w w' : World} {k : Nat} (hi : Inv w) (hk : k < w.nStr) (h : w.asStream k = .ok w') :
+    Inv w' := by
   unfold World.asStream at h
   split at h
   · split at h
-    · exact setPhase_live hl h
-    · exact setPhase_live hl h
+    · exact setPhase_inv hi hk h
+    · exact setPhase_inv hi hk h
     · cases h
-  · injection h with h; subst h; exact hl
+  · injection h with h; subst h; exact hi
 
-theorem accessor_live {w w' : World} {a b : Ph} {f : Ph → Bool} (hl : Live w)
-    (h : w.accessor a b f = .ok w') : Live w' := by
+theorem accessor_inv {w w' : World} {k : Nat} {a b : Ph} {f : Ph → Bool} (hi : Inv w) (hk : k < w.nStr)
+    (h : w.accessor k a b f = .ok w') : Inv w' := by
   unfold World.accessor at h
   split at h
   · split at h
-    · injection h with h; subst h; exact hl
-    · exact setPhases_live hl h
+    · injection h with h; subst h; exact hi
+    · exact setPhases_inv hi hk h
   · rename_i hm
-    have hm : w.s.multi = false := by simpa using hm
+    have hm : (w.str k).multi = false := by simpa using hm
     simp only [] at h
     split at h
     · split at h
-      · exact setPhases_live (relabel_live hl hm .l) h
-      · exact setPhases_live hl h
-    · exact setPhases_live hl h
+      · exact setPhases_inv (relabel_inv hi hk hm .l) hk h
+      · exact setPhases_inv hi hk h
+    · exact setPhases_inv hi hk h
 
-theorem getView_live {w w' : World} {p : Ph} (hl : Live w) (h : w.getView p = .ok w') : Live w' := by
+theorem getView_inv {w w' : World} {k : Nat} {p : Ph} (hi : Inv w) (hk : k < w.nStr)
+    (h : w.getView k p = .ok w') : Inv w' := by
   unfold World.getView at h
   split at h
   · rename_i hm
     split at h
-    · injection h with h; subst h; exact hl
+    · injection h with h; subst h; exact hi
     · split at h
       · rename_i r hr
         injection h with h; subst h
-        constructor
-        · intro c hc
-          simp only [List.mem_append, List.mem_singleton] at hc
-          rcases hc with hc | hc
-          · obtain ⟨h1, h2, h3, h4⟩ := hl.cached c hc
-            have hne : c.2 ≠ w.nView := Nat.ne_of_lt h1
+        apply inv_of_frame hi hk
+        · rfl
+        · intro _ _; rfl
+        · exact Or.inl rfl
+        · exact hi.imol_lt k hk
+        · exact Nat.le_refl _
+        · exact Or.inl rfl
+        · exact hi.cache_lt k hk
+        · exact Nat.le_refl _
+        · intro _ _ _; rfl
+        · intro c _ hne; simp [hne]
+        · intro v hv _
+          have : v ≠ w.nView := Nat.ne_of_lt hv
+          simp [this]
+        · simp
+        · intro e he
+          simp only [World.cacheOf, if_true, List.mem_append, List.mem_singleton] at he
+          rcases he with he | rfl
+          · exact ⟨Nat.lt_succ_of_lt (hi.view_lt k hk e he), Or.inl ⟨e, he, rfl⟩⟩
+          · exact ⟨Nat.lt_succ_self _, Or.inr (Nat.le_refl _)⟩
+        · intro _ e he
+          simp only [World.cacheOf, if_true, List.mem_append, List.mem_singleton] at he
+          rcases he with he | rfl
+          · have hne : e.2 ≠ w.nView := Nat.ne_of_lt (hi.view_lt k hk e he)
             simp only [hne, if_false]
-            exact ⟨Nat.lt_succ_of_lt h1, h2, h3, h4⟩
-          · subst hc
-            simp [hr]
-        · intro hm'
-          simp [hm] at hm'
+            exact hi.live k hk hm e he
+          · simp only [World.pr] at hr
+            simp [World.pr, hr]
+        · exact Or.inl rfl
+        · intro _; rfl
       · cases h
   · split at h
     · split at h
-      · injection h with h; subst h; exact hl
+      · injection h with h; subst h; exact hi
       · cases h
     · cases h
 
-theorem writeRow_live {w : World} (hl : Live w) (r i : Nat) (x : Rat) : Live (w.writeRow r i x) :=
-  live_of_eq hl rfl rfl rfl
+theorem setPhases_nStr {w w' : World} {k : Nat} {ps : List Ph} (h : w.setPhases k ps = .ok w') :
+    w'.nStr = w.nStr := by
+  rcases setPhases_cases h with ⟨q, _, _, rfl⟩ | ⟨q, _, _, rfl⟩ | ⟨_, _, _, rfl⟩ | ⟨_, _, h⟩
+  · simp [World.toSingle, World.setStr, World.setCache, World.allocImol, World.allocRows]
+  · rfl
+  · rfl
+  · exact (toMulti_ok h).2.2.2.2.2.2.2.2.2
 
-theorem emptyRows_live {w : World} (hl : Live w) : Live w.emptyRows := live_of_eq hl rfl rfl rfl
-theorem copyRows_live {w : World} (hl : Live w) (vals : List (Nat → Rat)) : Live (w.copyRows vals) :=
-  live_of_eq hl rfl rfl rfl
-theorem setT_live {w : World} (hl : Live w) (tc : Nat) (x : Rat) : Live (w.setT tc x) :=
-  live_of_eq hl rfl rfl rfl
-theorem setP_live {w : World} (hl : Live w) (tc : Nat) (x : Rat) : Live (w.setP tc x) :=
-  live_of_eq hl rfl rfl rfl
-theorem save_live {w : World} (hl : Live w) : Live w.save := live_of_eq hl rfl rfl rfl
-
-theorem restore_live {w w' : World} {k : Nat} (hl : Live w) (h : w.restore k = .ok w') : Live w' := by
-  unfold World.restore at h
-  split at h
-  · cases h
-  · rename_i d _
-    simp only [bind, Except.bind] at h
-    split at h
-    · cases h
-    · rename_i w2 h2
-      injection h with h; subst h
-      exact setP_live (setT_live (copyRows_live (setPhases_live (emptyRows_live hl) h2) _) _ _) _ _
-
-theorem step_live {w w' : World} {op : Op} (hl : Live w) (h : w.step op = .ok w') : Live w' := by
-  cases op with
-  | newS p T P f => injection h with h; subst h; exact live_of_cache_nil (by simp [World.newSingle])
-  | newM ps T P fl =>
-    simp only [World.step] at h
-    split at h
-    · injection h with h; subst h; exact live_of_cache_nil (by simp [World.newMulti])
-    · cases h
-  | setPhases ps => exact setPhases_live hl h
-  | setPhase ls => exact setPhase_live hl h
-  | reduce => exact reduce_live hl h
-  | asStream => exact asStream_live hl h
-  | vle => exact accessor_live hl h
-  | lle => exact accessor_live hl h
-  | sle => exact accessor_live hl h
-  | empty => injection h with h; subst h; exact emptyRows_live hl
-  | view p => exact getView_live hl h
-  | wView hd i x =>
-    simp only [World.step, World.writeView] at h
-    split at h
-    · injection h with h; subst h; exact writeRow_live hl _ _ _
-    · cases h
-  | wPar p i x =>
-    simp only [World.step, World.writePar] at h
-    split at h
-    · split at h
-      · cases h
-      · split at h
-        · injection h with h; subst h; exact writeRow_live hl _ _ _
-        · cases h
-    · split at h
-      · cases h
-      · injection h with h; subst h; exact writeRow_live hl _ _ _
-  | wT x => injection h with h; subst h; exact setT_live hl _ _
-  | wP x => injection h with h; subst h; exact setP_live hl _ _
-  | wvT hd x =>
-    simp only [World.step] at h
-    split at h
-    · injection h with h; subst h; exact setT_live hl _ _
-    · cases h
-  | wvP hd x =>
-    simp only [World.step] at h
-    split at h
-    · injection h with h; subst h; exact setP_live hl _ _
-    · cases h
-  | vPhase hd p =>
-    simp only [World.step] at h
-    split at h
-    · split at h
-      · injection h with h; subst h; exact hl
-      · cases h
-    · cases h
-  | save => injection h with h; subst h; exact save_live hl
-  | restore k => exact restore_live hl h
-
-theorem apply_live {w : World} (hl : Live w) (op : Op) : Live (w.apply op) := by
-  unfold World.apply
-  split
-  · rename_i w' h; exact step_live hl h
-  · exact hl
-
-theorem run_live {w : World} (hl : Live w) (ops : List Op) : Live (w.run ops) := by
-  induction ops generalizing w with
-  | nil => exact hl
-  | cons op ops ih => exact ih (apply_live hl op)
-
-
-/-! ### well-formedness and save / restore -/
-
-/-- a `StreamData` taken from a well-formed stream -/
-def SnapOK (d : Snap) : Prop :=
-  d.vals.length = d.phases.length ∧
-  ((∃ p, d.phases = [p]) ∨ (phaseTuple d.phases = d.phases ∧ 2 ≤ d.phases.length))
-
-structure WF (w : World) : Prop where
-  rows_nodup : w.s.rows.Nodup
-  single : w.s.multi = false → ∃ x, w.s.pr = [x]
-  multi : w.s.multi = true → phaseTuple w.s.phases = w.s.phases ∧ 2 ≤ w.s.pr.length
-  snaps : ∀ d ∈ w.snaps, SnapOK d
-
-theorem wf_init : WF World.init :=
-  ⟨by simp [World.init, Strm.rows], fun _ => ⟨_, rfl⟩, fun h => (by simp [World.init] at h),
-   by simp [World.init]⟩
-
-theorem wf_of_eq {w w' : World} (hw : WF w) (h1 : w'.s = w.s) (h2 : w'.snaps = w.snaps) : WF w' :=
-  ⟨h1 ▸ hw.rows_nodup, h1 ▸ hw.single, h1 ▸ hw.multi, h2 ▸ hw.snaps⟩
-
-theorem relabel_wf {w : World} (hw : WF w) (hm : w.s.multi = false) (q : Ph) : WF (w.relabel q) := by
-  obtain ⟨x, hx⟩ := hw.single hm
-  refine ⟨?_, fun _ => ⟨(q, x.2), by simp [World.relabel, hx]⟩, fun h => ?_, hw.snaps⟩
-  · simp [World.relabel, Strm.rows, hx]
-  · rw [relabel_multi, hm] at h; cases h
-
-theorem toSingle_wf {w : World} (hw : WF w) (q : Ph) : WF (w.toSingle q) :=
-  ⟨by simp [World.toSingle, Strm.rows], fun _ => ⟨_, rfl⟩, fun h => (by simp [World.toSingle] at h),
-   hw.snaps⟩
-
-theorem toMulti_wf {w w' : World} {t : List Ph} (hw : WF w) (h : w.toMulti t = .ok w')
-    (ht : phaseTuple t = t) (hlen : 2 ≤ t.length) : WF w' := by
-  obtain ⟨_, _, _, _, _, _, _, hpr, _, hsn, _, hm⟩ := toMulti_ok h
-  refine ⟨?_, fun h => (by rw [hm] at h; cases h), fun _ => ⟨?_, ?_⟩, hsn ▸ hw.snaps⟩
-  · simp only [Strm.rows, hpr, map_snd_zip_range']
-    exact List.nodup_range'
-  · rw [toMulti_phases h]; exact ht
-  · rw [hpr]; simpa using hlen
-
-theorem setPhases_wf {w w' : World} {ps : List Ph} (hw : WF w) (h : w.setPhases ps = .ok w') : WF w' := by
-  rcases setPhases_cases h with ⟨q, _, _, rfl⟩ | ⟨q, _, hm, rfl⟩ | ⟨_, _, _, rfl⟩ | ⟨hlen, _, h⟩
-  · exact toSingle_wf hw q
-  · exact relabel_wf hw hm q
-  · exact hw
-  · exact toMulti_wf hw h (phaseTuple_idem ps) hlen
-
-theorem setPhase_wf {w w' : World} {ls : List Ph} (hw : WF w) (h : w.setPhase ls = .ok w') : WF w' := by
-  rcases setPhase_cases h with ⟨_, q, _, rfl⟩ | ⟨_, _, h⟩ | ⟨hm, q, _, rfl⟩
-  · exact toSingle_wf hw q
-  · exact setPhases_wf hw h
-  · exact relabel_wf hw hm q
-
-theorem reduce_wf {w w' : World} (hw : WF w) (h : w.reduce = .ok w') : WF w' := by
-  unfold World.reduce at h
-  split at h
-  · exact setPhase_wf hw h
-  · injection h with h; subst h; exact hw
-
-theorem asStream_wf {w w' : World} (hw : WF w) (h : w.asStream = .ok w') : WF w' := by
-  unfold World.asStream at h
-  split at h
-  · split at h
-    · exact setPhase_wf hw h
-    · exact setPhase_wf hw h
-    · cases h
-  · injection h with h; subst h; exact hw
-
-theorem accessor_wf {w w' : World} {a b : Ph} {f : Ph → Bool} (hw : WF w)
-    (h : w.accessor a b f = .ok w') : WF w' := by
-  unfold World.accessor at h
-  split at h
-  · split at h
-    · injection h with h; subst h; exact hw
-    · exact setPhases_wf hw h
-  · rename_i hm
-    have hm : w.s.multi = false := by simpa using hm
-    simp only [] at h
-    split at h
-    · split at h
-      · exact setPhases_wf (relabel_wf hw hm .l) h
-      · exact setPhases_wf hw h
-    · exact setPhases_wf hw h
-
-theorem getView_wf {w w' : World} {p : Ph} (hw : WF w) (h : w.getView p = .ok w') : WF w' := by
-  unfold World.getView at h
-  split at h
-  · split at h
-    · injection h with h; subst h; exact hw
-    · split at h
-      · injection h with h; subst h
-        exact ⟨hw.rows_nodup, hw.single, hw.multi, hw.snaps⟩
-      · cases h
-  · split at h
-    · split at h
-      · injection h with h; subst h; exact hw
-      · cases h
-    · cases h
-
-theorem snapshot_ok {w : World} (hw : WF w) : SnapOK w.snapshot := by
-  refine ⟨by simp [World.snapshot, Strm.phases], ?_⟩
-  cases hm : w.s.multi with
-  | false =>
-    obtain ⟨x, hx⟩ := hw.single hm
-    exact Or.inl ⟨x.1, by simp [World.snapshot, Strm.phases, hx]⟩
-  | true =>
-    obtain ⟨h1, h2⟩ := hw.multi hm
-    exact Or.inr ⟨h1, by simpa [World.snapshot, Strm.phases] using h2⟩
-
-theorem save_wf {w : World} (hw : WF w) : WF w.save := by
-  refine ⟨hw.rows_nodup, hw.single, hw.multi, ?_⟩
-  intro d hd
-  simp only [World.save, List.mem_append, List.mem_singleton] at hd
-  rcases hd with hd | rfl
-  · exact hw.snaps d hd
-  · exact snapshot_ok hw
-
-
-theorem restore_wf {w w' : World} {k : Nat} (hw : WF w) (h : w.restore k = .ok w') : WF w' := by
+theorem restore_inv {w w' : World} {k idx : Nat} (hi : Inv w) (hk : k < w.nStr)
+    (h : w.restore k idx = .ok w') : Inv w' := by
   unfold World.restore at h
   split at h
   · cases h
@@ -940,82 +1207,1823 @@ theorem restore_wf {w w' : World} {k : Nat} (hw : WF w) (h : w.restore k = .ok w
     · cases h
     · rename_i w2 h2
       injection h with h; subst h
-      have hw1 : WF w.emptyRows := wf_of_eq hw rfl rfl
-      have hw2 := setPhases_wf hw1 h2
-      exact wf_of_eq hw2 rfl rfl
+      exact setP_inv (setT_inv (copyRows_inv (setPhases_inv (emptyRows_inv hi k) hk h2) _ _) _ _) _ _
 
-theorem newSingle_wf {w : World} (hw : WF w) (p : Ph) (T P : Rat) (f : Nat → Rat) :
-    WF (w.newSingle p T P f) :=
-  ⟨by simp [World.newSingle, Strm.rows], fun _ => ⟨_, rfl⟩, fun h => (by simp [World.newSingle] at h),
-   hw.snaps⟩
+/-! a new stream -/
 
-theorem newMulti_wf {w : World} (hw : WF w) (ps : List Ph) (T P : Rat) (fl : List (Ph × (Nat → Rat)))
-    (hlen : 2 ≤ (phaseTuple ps).length) : WF (w.newMulti ps T P fl) := by
-  have hpr : (w.newMulti ps T P fl).s.pr
-      = (phaseTuple ps).zip (List.range' w.nRow (phaseTuple ps).length) := by
-    simp [World.newMulti, World.allocRows]
-  refine ⟨?_, fun h => (by simp [World.newMulti] at h), fun _ => ⟨?_, ?_⟩, hw.snaps⟩
-  · simp only [Strm.rows, hpr, map_snd_zip_range']
-    exact List.nodup_range'
-  · simp only [Strm.phases, hpr, map_fst_zip_range']
-    exact phaseTuple_idem ps
-  · rw [hpr]; simpa using hlen
+theorem inv_new {w w' : World} (hi : Inv w) (hn : w'.nStr = w.nStr + 1)
+    (hstr : ∀ j, j < w.nStr → w'.str j = w.str j)
+    (hkindnew : ∀ j, j < w.nStr → (w.str j).imol = (w'.str w.nStr).imol → (w.str j).multi = (w'.str w.nStr).multi)
+    (himol_lt : (w'.str w.nStr).imol < w'.nImol)
+    (hcache : w.nCache ≤ (w'.str w.nStr).cache) (hcache_lt : (w'.str w.nStr).cache < w'.nCache)
+    (hnImol : w.nImol ≤ w'.nImol) (hnCache : w.nCache ≤ w'.nCache)
+    (hipr : ∀ i, i < w.nImol → w'.ipr i = w.ipr i) (hcch : ∀ c, c < w.nCache → w'.cache c = w.cache c)
+    (hview : w'.view = w.view) (hnView : w'.nView = w.nView)
+    (hempty : w'.cache (w'.str w.nStr).cache = []) : Inv w' := by
+  have hcacheOf : ∀ j, j < w.nStr → w'.cacheOf j = w.cacheOf j := by
+    intro j hj
+    unfold World.cacheOf
+    rw [hstr j hj]
+    exact hcch _ (hi.cache_lt j hj)
+  have hprOf : ∀ j, j < w.nStr → w'.pr j = w.pr j := by
+    intro j hj
+    unfold World.pr
+    rw [hstr j hj]
+    exact hipr _ (hi.imol_lt j hj)
+  have hnew : w'.cacheOf w.nStr = [] := hempty
+  have split : ∀ j, j < w'.nStr → j < w.nStr ∨ j = w.nStr := by
+    intro j hj; rw [hn] at hj; omega
+  constructor
+  · intro j hj
+    rcases split j hj with h | rfl
+    · rw [hstr j h]; exact Nat.lt_of_lt_of_le (hi.imol_lt j h) hnImol
+    · exact himol_lt
+  · intro j hj
+    rcases split j hj with h | rfl
+    · rw [hstr j h]; exact Nat.lt_of_lt_of_le (hi.cache_lt j h) hnCache
+    · exact hcache_lt
+  · intro j j' hj hj' he
+    rcases split j hj with h | rfl <;> rcases split j' hj' with h' | rfl
+    · rw [hstr j h, hstr j' h'] at he ⊢; exact hi.kind_alias j j' h h' he
+    · rw [hstr j h] at he ⊢; exact hkindnew j h he
+    · rw [hstr j' h'] at he ⊢; exact (hkindnew j' h' he.symm).symm
+    · rfl
+  · intro j j' hj hj' he
+    rcases split j hj with h | rfl <;> rcases split j' hj' with h' | rfl
+    · rw [hstr j h, hstr j' h'] at he; exact hi.cache_inj j j' h h' he
+    · rw [hstr j h] at he; have := hi.cache_lt j h; omega
+    · rw [hstr j' h'] at he; have := hi.cache_lt j' h'; omega
+    · rfl
+  · intro j hj e he
+    rcases split j hj with h | rfl
+    · rw [hcacheOf j h] at he; rw [hnView]; exact hi.view_lt j h e he
+    · rw [hnew] at he; cases he
+  · intro j j' hj hj' hne e1 he1 e2 he2
+    rcases split j hj with h | rfl <;> rcases split j' hj' with h' | rfl
+    · rw [hcacheOf j h] at he1; rw [hcacheOf j' h'] at he2
+      exact hi.view_sep j j' h h' hne e1 he1 e2 he2
+    · rw [hnew] at he2; cases he2
+    · rw [hnew] at he1; cases he1
+    · exact absurd rfl hne
+  · intro j hj hm e he
+    rcases split j hj with h | rfl
+    · rw [hcacheOf j h] at he
+      rw [hstr j h] at hm
+      rw [hview, hprOf j h, hstr j h]
+      exact hi.live j h hm e he
+    · rw [hnew] at he; cases he
 
-theorem step_wf {w w' : World} {op : Op} (hw : WF w) (h : w.step op = .ok w') : WF w' := by
-  cases op with
-  | newS p T P f => injection h with h; subst h; exact newSingle_wf hw p T P f
-  | newM ps T P fl =>
-    simp only [World.step] at h
-    split at h
-    · rename_i hlen
-      injection h with h; subst h; exact newMulti_wf hw ps T P fl hlen
+theorem newSingle_inv {w : World} (hi : Inv w) (p : Ph) (T P : Rat) (f : Nat → Rat) :
+    Inv (w.newSingle p T P f) := by
+  apply inv_new hi
+  · simp [World.newSingle, World.setStr, World.allocCache, World.allocTc, World.allocImol, World.allocRows]
+  · intro j hj
+    have : j ≠ w.nStr := Nat.ne_of_lt hj
+    simp [World.newSingle, World.setStr, World.allocCache, World.allocTc, World.allocImol, World.allocRows, this]
+  · intro j hj he
+    have := hi.imol_lt j hj
+    simp [World.newSingle, World.setStr, World.allocCache, World.allocTc, World.allocImol, World.allocRows] at he
+    omega
+  · simp [World.newSingle, World.setStr, World.allocCache, World.allocTc, World.allocImol, World.allocRows]
+  · simp [World.newSingle, World.setStr, World.allocCache, World.allocTc, World.allocImol, World.allocRows]
+  · simp [World.newSingle, World.setStr, World.allocCache, World.allocTc, World.allocImol, World.allocRows]
+  · simp [World.newSingle, World.setStr, World.allocCache, World.allocTc, World.allocImol, World.allocRows]
+  · simp [World.newSingle, World.setStr, World.allocCache, World.allocTc, World.allocImol, World.allocRows]
+  · intro i hi'
+    have : i ≠ w.nImol := Nat.ne_of_lt hi'
+    simp [World.newSingle, World.setStr, World.allocCache, World.allocTc, World.allocImol, World.allocRows, this]
+  · intro c hc
+    have : c ≠ w.nCache := Nat.ne_of_lt hc
+    simp [World.newSingle, World.setStr, World.allocCache, World.allocTc, World.allocImol, World.allocRows, this]
+  · simp [World.newSingle, World.setStr, World.allocCache, World.allocTc, World.allocImol, World.allocRows]
+  · simp [World.newSingle, World.setStr, World.allocCache, World.allocTc, World.allocImol, World.allocRows]
+  · simp [World.newSingle, World.setStr, World.allocCache, World.allocTc, World.allocImol, World.allocRows]
+
+theorem newMulti_inv {w : World} (hi : Inv w) (ps : List Ph) (T P : Rat) (fl : List (Ph × (Nat → Rat))) :
+    Inv (w.newMulti ps T P fl) := by
+  apply inv_new hi
+  · simp [World.newMulti, World.setStr, World.allocCache, World.allocTc, World.allocImol, World.allocRows]
+  · intro j hj
+    have : j ≠ w.nStr := Nat.ne_of_lt hj
+    simp [World.newMulti, World.setStr, World.allocCache, World.allocTc, World.allocImol, World.allocRows, this]
+  · intro j hj he
+    have := hi.imol_lt j hj
+    simp [World.newMulti, World.setStr, World.allocCache, World.allocTc, World.allocImol, World.allocRows] at he
+    omega
+  · simp [World.newMulti, World.setStr, World.allocCache, World.allocTc, World.allocImol, World.allocRows]
+  · simp [World.newMulti, World.setStr, World.allocCache, World.allocTc, World.allocImol, World.allocRows]
+  · simp [World.newMulti, World.setStr, World.allocCache, World.allocTc, World.allocImol, World.allocRows]
+  · simp [World.newMulti, World.setStr, World.allocCache, World.allocTc, World.allocImol, World.allocRows]
+  · simp [World.newMulti, World.setStr, World.allocCache, World.allocTc, World.allocImol, World.allocRows]
+  · intro i hi'
+    have : i ≠ w.nImol := Nat.ne_of_lt hi'
+    simp [World.newMulti, World.setStr, World.allocCache, World.allocTc, World.allocImol, World.allocRows, this]
+  · intro c hc
+    have : c ≠ w.nCache := Nat.ne_of_lt hc
+    simp [World.newMulti, World.setStr, World.allocCache, World.allocTc, World.allocImol, World.allocRows, this]
+  · simp [World.newMulti, World.setStr, World.allocCache, World.allocTc, World.allocImol, World.allocRows]
+  · simp [World.newMulti, World.setStr, World.allocCache, World.allocTc, World.allocImol, World.allocRows]
+  · simp [World.newMulti, World.setStr, World.allocCache, World.allocTc, World.allocImol, World.allocRows]
+
+/-! unlink, link, reset_thermo -/
+
+theorem unlink_inv {w w' : World} {k : Nat} (hi : Inv w) (hk : k < w.nStr) (h : w.unlink k = .ok w') :
+    Inv w' := by
+  unfold World.unlink at h
+  split at h
+  · cases h
+  · simp only [] at h
+    injection h with h; subst h
+    split
+    · rename_i hm
+      apply inv_rebind hi hk hm
+      · simp [World.setStr, World.allocTc, World.allocImol, World.allocRows]
+      · intro j hj; simp [World.setStr, World.allocTc, World.allocImol, World.allocRows, hj]
+      · right; simp [World.setStr, World.allocTc, World.allocImol, World.allocRows]
+      · simp [World.setStr, World.allocTc, World.allocImol, World.allocRows]
+      · simp [World.setStr, World.allocTc, World.allocImol, World.allocRows]
+      · simp [World.setStr, World.allocTc, World.allocImol, World.allocRows]
+      · simp [World.setStr, World.allocTc, World.allocImol, World.allocRows]
+      · intro i hi' _
+        have : i ≠ w.nImol := Nat.ne_of_lt hi'
+        simp [World.setStr, World.allocTc, World.allocImol, World.allocRows, this]
+      · simp [World.setStr, World.allocTc, World.allocImol, World.allocRows]
+      · simp [World.setStr, World.allocTc, World.allocImol, World.allocRows]
+      · simp [World.setStr, World.allocTc, World.allocImol, World.allocRows]
+      · intro hb; cases hb
+      · left
+        have hne : (w.str k).imol ≠ w.nImol := Nat.ne_of_lt (hi.imol_lt k hk)
+        simp [World.setStr, World.allocTc, World.allocImol, World.allocRows, hne]
+      · intro he
+        have := hi.imol_lt k hk
+        simp [World.setStr, World.allocTc, World.allocImol, World.allocRows] at he
+        omega
+    · rename_i hm
+      apply inv_of_frame hi hk
+      · simp [World.setStr, World.allocTc, World.allocImol, World.allocRows]
+      · intro j hj; simp [World.setStr, World.allocTc, World.allocImol, World.allocRows, hj]
+      · right; simp [World.setStr, World.allocTc, World.allocImol, World.allocRows]
+      · simp [World.setStr, World.allocTc, World.allocImol, World.allocRows]
+      · simp [World.setStr, World.allocTc, World.allocImol, World.allocRows]
+      · left; simp [World.setStr, World.allocTc, World.allocImol, World.allocRows]
+      · have := hi.cache_lt k hk
+        simpa [World.setStr, World.allocTc, World.allocImol, World.allocRows] using this
+      · simp [World.setStr, World.allocTc, World.allocImol, World.allocRows]
+      · intro i hi' _
+        have : i ≠ w.nImol := Nat.ne_of_lt hi'
+        simp [World.setStr, World.allocTc, World.allocImol, World.allocRows, this]
+      · intro c _ _
+        simp [World.setStr, World.allocTc, World.allocImol, World.allocRows]
+      · intro v _ _
+        simp [World.setStr, World.allocTc, World.allocImol, World.allocRows]
+      · simp [World.setStr, World.allocTc, World.allocImol, World.allocRows]
+      · intro e he
+        have he' : e ∈ w.cacheOf k := by
+          simpa [World.cacheOf, World.setStr, World.allocTc, World.allocImol, World.allocRows] using he
+        exact ⟨by simpa [World.setStr, World.allocTc, World.allocImol, World.allocRows] using hi.view_lt k hk e he',
+          Or.inl ⟨e, he', rfl⟩⟩
+      · intro h'
+        simp [World.setStr, World.allocTc, World.allocImol, World.allocRows] at h'
+        exact absurd h' hm
+      · left
+        have hne : (w.str k).imol ≠ w.nImol := Nat.ne_of_lt (hi.imol_lt k hk)
+        simp [World.setStr, World.allocTc, World.allocImol, World.allocRows, hne]
+      · intro he
+        have := hi.imol_lt k hk
+        simp [World.setStr, World.allocTc, World.allocImol, World.allocRows] at he
+        omega
+
+theorem find_isSome_iff (pr : List (Ph × Nat)) (q : Ph) :
+    (pr.find? (fun x => x.1 == q)).isSome = true ↔ q ∈ pr.map (·.1) := by
+  rw [List.find?_isSome]
+  constructor
+  · rintro ⟨x, hx, hxq⟩; exact List.mem_map.2 ⟨x, hx, by simpa using hxq⟩
+  · intro h; obtain ⟨x, hx, rfl⟩ := List.mem_map.1 h; exact ⟨x, hx, by simp⟩
+
+theorem lookupRow_isSome_congr {pr pr' : List (Ph × Nat)} (h : pr.map (·.1) = pr'.map (·.1)) (p : Ph) :
+    (lookupRow pr p).isSome = (lookupRow pr' p).isSome := by
+  have key : ∀ q, (pr.find? (fun x => x.1 == q)).isSome = (pr'.find? (fun x => x.1 == q)).isSome := by
+    intro q
+    rw [Bool.eq_iff_iff, find_isSome_iff, find_isSome_iff, h]
+  unfold lookupRow
+  have k1 := key p
+  cases h1 : pr.find? (fun x => x.1 == p) <;> cases h2 : pr'.find? (fun x => x.1 == p) <;>
+    simp [h1, h2] at k1 ⊢
+  cases hq : p.flip with
+  | none => rfl
+  | some q =>
+    simp only []
+    have k2 := key q
+    cases h3 : pr.find? (fun x => x.1 == q) <;> cases h4 : pr'.find? (fun x => x.1 == q) <;>
+      simp [h3, h4] at k2 ⊢
+
+theorem rebindLink_cacheOf (w : World) (k : Nat) (b : Bool) (j : Nat) :
+    (w.rebindLink k b).cacheOf j = w.cacheOf j := rfl
+
+theorem rebindLink_view_other (w : World) (k : Nat) (b : Bool) (v : Nat) (h : ∀ e ∈ w.cacheOf k, e.2 ≠ v) :
+    (w.rebindLink k b).view v = w.view v := by
+  have : ((w.cacheOf k).map (·.2)).contains v = false := by
+    cases hc : ((w.cacheOf k).map (·.2)).contains v with
+    | false => rfl
+    | true =>
+      rw [List.contains_iff_mem, List.mem_map] at hc
+      obtain ⟨e, he, hev⟩ := hc
+      exact absurd hev (h e he)
+  simp only [World.rebindLink, this, Bool.false_eq_true, if_false]
+
+theorem link_inv {w w' : World} {k j : Nat} {flow tp : Bool} (hi : Inv w) (hk : k < w.nStr)
+    (h : w.link k j flow tp = .ok w') : Inv w' := by
+  unfold World.link at h
+  split at h
+  · cases h
+  · split at h
     · cases h
-  | setPhases ps => exact setPhases_wf hw h
-  | setPhase ls => exact setPhase_wf hw h
-  | reduce => exact reduce_wf hw h
-  | asStream => exact asStream_wf hw h
-  | vle => exact accessor_wf hw h
-  | lle => exact accessor_wf hw h
-  | sle => exact accessor_wf hw h
-  | empty => injection h with h; subst h; exact wf_of_eq hw rfl rfl
-  | view p => exact getView_wf hw h
-  | wView hd i x =>
-    simp only [World.step, World.writeView] at h
-    split at h
-    · injection h with h; subst h; exact wf_of_eq hw rfl rfl
+    · rename_i hg
+      simp only [] at h
+      injection h with h; subst h
+      simp only [Bool.or_eq_true, Bool.not_eq_eq_eq_not, Bool.not_true, not_or, Bool.and_eq_true,
+        Bool.not_eq_true'] at hg
+      have hm : (w.str k).multi = true := by
+        cases hmm : (w.str k).multi with
+        | true => rfl
+        | false => simp [hmm] at hg
+      have hna : w.aliased k = false := by
+        cases ha : w.aliased k with
+        | false => rfl
+        | true => simp [ha] at hg
+      have hph : flow = true → w.phases k = w.phases j := by
+        intro hf
+        by_contra hne
+        have : (w.phases k == w.phases j) = false := by simpa using hne
+        simp [hf, this] at hg
+      -- the world before the views are re-seated
+      generalize hw2 : (if tp = true then
+          (if flow = true then w.setIpr (w.str k).imol (w.pr j) else w).setStr k
+            { (if flow = true then w.setIpr (w.str k).imol (w.pr j) else w).str k with tc := (w.str j).tc }
+        else (if flow = true then w.setIpr (w.str k).imol (w.pr j) else w)) = w2
+      have f_str : ∀ i, i ≠ k → w2.str i = w.str i := by
+        intro i hne; subst hw2; cases flow <;> cases tp <;> simp [World.setStr, World.setIpr, hne]
+      have f_imol : (w2.str k).imol = (w.str k).imol := by
+        subst hw2; cases flow <;> cases tp <;> simp [World.setStr, World.setIpr]
+      have f_multi : (w2.str k).multi = (w.str k).multi := by
+        subst hw2; cases flow <;> cases tp <;> simp [World.setStr, World.setIpr]
+      have f_cache : (w2.str k).cache = (w.str k).cache := by
+        subst hw2; cases flow <;> cases tp <;> simp [World.setStr, World.setIpr]
+      have f_cch : w2.cache = w.cache := by
+        subst hw2; cases flow <;> cases tp <;> simp [World.setStr, World.setIpr]
+      have f_view : w2.view = w.view := by
+        subst hw2; cases flow <;> cases tp <;> simp [World.setStr, World.setIpr]
+      have f_n : w2.nStr = w.nStr ∧ w2.nImol = w.nImol ∧ w2.nCache = w.nCache ∧ w2.nView = w.nView := by
+        subst hw2; cases flow <;> cases tp <;> simp [World.setStr, World.setIpr]
+      have f_ipr : ∀ i, i ≠ (w.str k).imol → w2.ipr i = w.ipr i := by
+        intro i hne; subst hw2; cases flow <;> cases tp <;> simp [World.setStr, World.setIpr, hne]
+      have f_pr : w2.pr k = if flow = true then w.pr j else w.pr k := by
+        subst hw2; cases flow <;> cases tp <;> simp [World.pr, World.setStr, World.setIpr]
+      have hc2 : w2.cacheOf k = w.cacheOf k := by simp [World.cacheOf, f_cache, f_cch]
+      have hlabels : (w2.pr k).map (·.1) = (w.pr k).map (·.1) := by
+        rw [f_pr]
+        cases flow with
+        | false => rfl
+        | true => exact (hph rfl).symm
+      have f_tc : tp = false → (w2.str k).tc = (w.str k).tc := by
+        intro ht; subst hw2; subst ht; cases flow <;> simp [World.setStr, World.setIpr]
+      -- the final world
+      have key : Inv (if (flow || tp) = true then w2.rebindLink k flow else w2) := by
+        apply inv_of_frame hi hk
+        · split <;> simp [World.rebindLink, f_n.1]
+        · intro i hne; split <;> simp [World.rebindLink, f_str i hne]
+        · left; split <;> simp [World.rebindLink, f_imol]
+        · have := hi.imol_lt k hk
+          split <;> simpa [World.rebindLink, f_imol, f_n.2.1] using this
+        · split <;> simp [World.rebindLink, f_n.2.1]
+        · left; split <;> simp [World.rebindLink, f_cache]
+        · have := hi.cache_lt k hk
+          split <;> simpa [World.rebindLink, f_cache, f_n.2.2.1] using this
+        · split <;> simp [World.rebindLink, f_n.2.2.1]
+        · intro i _ hne; split <;> simp [World.rebindLink, f_ipr i hne]
+        · intro c _ _; split <;> simp [World.rebindLink, f_cch]
+        · intro v _ hv
+          split
+          · rw [rebindLink_view_other w2 k flow v (by rw [hc2]; exact hv), f_view]
+          · rw [f_view]
+        · split <;> simp [World.rebindLink, f_n.2.2.2]
+        · intro e he
+          have he' : e ∈ w.cacheOf k := by
+            split at he
+            · simpa [rebindLink_cacheOf, hc2] using he
+            · simpa [hc2] using he
+          refine ⟨?_, Or.inl ⟨e, he', rfl⟩⟩
+          have := hi.view_lt k hk e he'
+          split <;> simpa [World.rebindLink, f_n.2.2.2] using this
+        · intro _ e he
+          have he' : e ∈ w.cacheOf k := by
+            split at he
+            · simpa [rebindLink_cacheOf, hc2] using he
+            · simpa [hc2] using he
+          obtain ⟨l1, l2, l3⟩ := hi.live k hk hm e he'
+          split
+          · -- views re-seated
+            have hmem : ((w2.cacheOf k).map (·.2)).contains e.2 = true := by
+              rw [List.contains_iff_mem, List.mem_map]
+              exact ⟨e, by rw [hc2]; exact he', rfl⟩
+            have hsome : (lookupRow (w2.pr k) e.1).isSome = true := by
+              rw [lookupRow_isSome_congr hlabels e.1, l3]; rfl
+            obtain ⟨r, hr⟩ := Option.isSome_iff_exists.1 hsome
+            have hv : (w2.rebindLink k flow).view e.2
+                = { row := if flow = true then r else (w.view e.2).row, tc := (w2.str k).tc, phase := e.1 } := by
+              simp only [World.rebindLink, hmem, if_true, f_view, l1, hr]
+            have hpr' : (w2.rebindLink k flow).pr k = w2.pr k := rfl
+            rw [hv, hpr']
+            refine ⟨rfl, rfl, ?_⟩
+            cases flow with
+            | true => simpa using hr
+            | false =>
+              simp only [Bool.false_eq_true, if_false]
+              rw [f_pr]; simpa using l3
+          · rename_i hb
+            have hf : flow = false := by
+              cases flow with
+              | false => rfl
+              | true => simp at hb
+            have ht : tp = false := by
+              cases tp with
+              | false => rfl
+              | true => simp at hb
+            rw [f_view, f_tc ht, f_pr, hf]
+            exact ⟨l1, l2, by simpa using l3⟩
+        · right
+          intro i hik hi' he _
+          exact absurd he (not_aliased hna hi' hik)
+        · intro _
+          split <;> simp [World.rebindLink, f_multi]
+      subst hw2
+      exact key
+
+theorem resetThermo_inv {w w' : World} {k t : Nat} (hi : Inv w) (hk : k < w.nStr)
+    (h : w.resetThermo k t = .ok w') : Inv w' := by
+  unfold World.resetThermo at h
+  split at h
+  · injection h with h; subst h; exact hi
+  · split at h
     · cases h
-  | wPar p i x =>
-    simp only [World.step, World.writePar] at h
-    split at h
+    · rename_i hg
+      simp only [] at h
+      injection h with h; subst h
+      have hna : w.aliased k = false := by
+        cases ha : w.aliased k with
+        | false => rfl
+        | true => simp [ha] at hg
+      split
+      · rename_i hm
+        apply inv_rebind hi hk hm
+        · simp [World.setStr, World.setIpr, World.allocRows]
+        · intro j hj; simp [World.setStr, World.setIpr, World.allocRows, hj]
+        · left; simp [World.setStr, World.setIpr, World.allocRows]
+        · have := hi.imol_lt k hk
+          simpa [World.setStr, World.setIpr, World.allocRows] using this
+        · simp [World.setStr, World.setIpr, World.allocRows]
+        · simp [World.setStr, World.setIpr, World.allocRows]
+        · simp [World.setStr, World.setIpr, World.allocRows]
+        · intro i _ hne; simp [World.setStr, World.setIpr, World.allocRows, hne]
+        · simp [World.setStr, World.setIpr, World.allocRows]
+        · simp [World.setStr, World.setIpr, World.allocRows]
+        · simp [World.setStr, World.setIpr, World.allocRows]
+        · intro _; simp [World.setStr, World.setIpr, World.allocRows]
+        · right
+          intro i hik hi' he _
+          exact absurd he (not_aliased hna hi' hik)
+        · intro _; simp [World.setStr, World.setIpr, World.allocRows]
+      · rename_i hm
+        apply inv_of_frame hi hk
+        · simp [World.setStr, World.setIpr, World.allocRows]
+        · intro j hj; simp [World.setStr, World.setIpr, World.allocRows, hj]
+        · left; simp [World.setStr, World.setIpr, World.allocRows]
+        · have := hi.imol_lt k hk
+          simpa [World.setStr, World.setIpr, World.allocRows] using this
+        · simp [World.setStr, World.setIpr, World.allocRows]
+        · left; simp [World.setStr, World.setIpr, World.allocRows]
+        · have := hi.cache_lt k hk
+          simpa [World.setStr, World.setIpr, World.allocRows] using this
+        · simp [World.setStr, World.setIpr, World.allocRows]
+        · intro i _ hne; simp [World.setStr, World.setIpr, World.allocRows, hne]
+        · intro c _ _; simp [World.setStr, World.setIpr, World.allocRows]
+        · intro v _ _; simp [World.setStr, World.setIpr, World.allocRows]
+        · simp [World.setStr, World.setIpr, World.allocRows]
+        · intro e he
+          have he' : e ∈ w.cacheOf k := by
+            simpa [World.cacheOf, World.setStr, World.setIpr, World.allocRows] using he
+          exact ⟨by simpa [World.setStr, World.setIpr, World.allocRows] using hi.view_lt k hk e he',
+            Or.inl ⟨e, he', rfl⟩⟩
+        · intro h'
+          simp [World.setStr, World.setIpr, World.allocRows] at h'
+          exact absurd h' hm
+        · right
+          intro i hik hi' he _
+          exact absurd he (not_aliased hna hi' hik)
+        · intro _; simp [World.setStr, World.setIpr, World.allocRows]
+
+/-! growing the phases of an indexer in place -/
+
+theorem find_filterMap_find (all : List (Ph × Nat)) (ks : List Ph) (q : Ph) :
+    (ks.filterMap (fun p => all.find? (fun x => x.1 == p))).find? (fun x => x.1 == q)
+      = if q ∈ ks then all.find? (fun x => x.1 == q) else none := by
+  induction ks with
+  | nil => simp
+  | cons p ks ih =>
+    rw [List.filterMap_cons]
+    cases hf : all.find? (fun x => x.1 == p) with
+    | none =>
+      simp only
+      rw [ih]
+      by_cases hq : q = p
+      · subst hq
+        simp [hf]
+      · have : (q ∈ p :: ks) ↔ q ∈ ks := by simp [hq]
+        simp [this]
+    | some x =>
+      simp only
+      have hx : x.1 = p := by
+        have := List.find?_some hf
+        simpa using this
+      rw [List.find?_cons]
+      by_cases hq : q = p
+      · subst hq
+        simp [hx, hf]
+      · have hne : (x.1 == q) = false := by rw [hx]; simpa using Ne.symm hq
+        rw [hne, ih]
+        have : (q ∈ p :: ks) ↔ q ∈ ks := by simp [hq]
+        simp [this]
+
+theorem find_zip_none {new : List Ph} {ids : List Nat} {p : Ph} (h : p ∉ new) :
+    (new.zip ids).find? (fun x => x.1 == p) = none := by
+  rw [List.find?_eq_none]
+  intro x hx hxp
+  have := (List.of_mem_zip hx).1
+  have e : x.1 = p := by simpa using hxp
+  exact h (e ▸ this)
+
+/-- the labels added by `expand` -/
+def newLabels (w : World) (k : Nat) (more : List Ph) : List Ph :=
+  Ph.all.filter (fun p => more.contains p && !(w.phases k).contains p)
+
+theorem expand_find (w : World) (k : Nat) (more : List Ph) (q : Ph) :
+    ((w.expand k more).pr k).find? (fun x => x.1 == q)
+      = ((w.pr k).find? (fun x => x.1 == q)).or
+          (((newLabels w k more).zip (List.range' w.nRow (newLabels w k more).length)).find? (fun x => x.1 == q)) := by
+  unfold World.expand
+  simp only []
+  split
+  · rename_i he
+    have : newLabels w k more = [] := by simpa [newLabels] using he
+    simp [this]
+  · simp only [World.pr, World.setIpr, World.allocRows, if_true]
+    rw [find_filterMap_find]
+    simp [Ph.mem_all, List.find?_append, newLabels]
+
+theorem expand_lookup {w : World} {k : Nat} {more : List Ph} {p : Ph} {r : Nat}
+    (hl : lookupRow (w.pr k) p = some r) (hp : p ∈ w.phases k ∨ p ∉ more) :
+    lookupRow ((w.expand k more).pr k) p = some r := by
+  unfold lookupRow at hl ⊢
+  rw [expand_find]
+  cases h1 : (w.pr k).find? (fun x => x.1 == p) with
+  | some x =>
+    rw [h1] at hl
+    simpa using hl
+  | none =>
+    rw [h1] at hl
+    have hnot : p ∉ w.phases k := by
+      intro hmem
+      obtain ⟨x, hx, hxp⟩ := List.mem_map.1 hmem
+      have := List.find?_eq_none.1 h1 x hx
+      simp [hxp] at this
+    have hpm : p ∉ newLabels w k more := by
+      intro hmem
+      have := (List.mem_filter.1 hmem).2
+      rcases hp with hp | hp
+      · exact hnot hp
+      · simp at this; exact hp this.1
+    simp only [Option.none_or, find_zip_none hpm]
+    cases hq : p.flip with
+    | none => rw [hq] at hl; cases hl
+    | some q =>
+      rw [hq] at hl
+      simp only at hl ⊢
+      rw [expand_find]
+      cases h2 : (w.pr k).find? (fun x => x.1 == q) with
+      | some y => rw [h2] at hl; simpa using hl
+      | none => rw [h2] at hl; cases hl
+
+theorem aliasKeyClash_false {w : World} {k : Nat} {more : List Ph} (hg : w.aliasKeyClash k more = false)
+    {j : Nat} (hj : j < w.nStr) (he : (w.str j).imol = (w.str k).imol) {e : Ph × Nat} (hm : e ∈ w.cacheOf j) :
+    e.1 ∈ w.phases k ∨ e.1 ∉ more := by
+  unfold World.aliasKeyClash at hg
+  rw [List.any_eq_false] at hg
+  have h1 := hg j (List.mem_range.2 hj)
+  simp only [he, beq_self_eq_true, Bool.true_and, Bool.not_eq_true] at h1
+  rw [List.any_eq_false] at h1
+  have h2 := h1 e hm
+  by_cases hin : e.1 ∈ w.phases k
+  · exact Or.inl hin
+  · right
+    intro hmore
+    apply h2
+    simp [hin, hmore]
+
+theorem expand_inv {w : World} {k : Nat} {more : List Ph} (hi : Inv w) (hk : k < w.nStr)
+    (hg : w.aliasKeyClash k more = false) : Inv (w.expand k more) := by
+  have hfields : (w.expand k more).str = w.str ∧ (w.expand k more).cache = w.cache ∧
+      (w.expand k more).view = w.view ∧ (w.expand k more).nStr = w.nStr ∧
+      (w.expand k more).nImol = w.nImol ∧ (w.expand k more).nCache = w.nCache ∧
+      (w.expand k more).nView = w.nView ∧
+      (∀ i, i ≠ (w.str k).imol → (w.expand k more).ipr i = w.ipr i) := by
+    unfold World.expand
+    simp only []
+    split
+    · exact ⟨rfl, rfl, rfl, rfl, rfl, rfl, rfl, fun _ _ => rfl⟩
+    · refine ⟨rfl, rfl, rfl, rfl, rfl, rfl, rfl, ?_⟩
+      intro i hne
+      simp [World.setIpr, World.allocRows, hne]
+  obtain ⟨h1, h3, h4, h5, h6, h7, h8, h2⟩ := hfields
+  have hc : (w.expand k more).cacheOf k = w.cacheOf k := by simp [World.cacheOf, h1, h3]
+  have hprk : (w.expand k more).ipr (w.str k).imol = (w.expand k more).pr k := by simp [World.pr, h1]
+  apply inv_of_frame hi hk h5 (fun j _ => by rw [h1]) (Or.inl (by rw [h1]))
+    (by rw [h1, h6]; exact hi.imol_lt k hk) (by rw [h6]) (Or.inl (by rw [h1]))
+    (by rw [h1, h7]; exact hi.cache_lt k hk) (by rw [h7])
+    (fun i _ hne => h2 i hne) (fun c _ _ => by rw [h3]) (fun v _ _ => by rw [h4])
+    (by rw [h8])
+  · intro e he
+    rw [hc] at he
+    exact ⟨by rw [h8]; exact hi.view_lt k hk e he, Or.inl ⟨e, he, rfl⟩⟩
+  · intro hm e he
+    rw [h1] at hm
+    rw [hc] at he
+    obtain ⟨l1, l2, l3⟩ := hi.live k hk hm e he
+    rw [h4, h1]
+    exact ⟨l1, l2, expand_lookup l3 (aliasKeyClash_false hg hk rfl he)⟩
+  · right
+    intro j _ hj hje hmj e he
+    obtain ⟨_, _, l3⟩ := hi.live j hj hmj e he
+    have l3' : lookupRow (w.pr k) e.1 = some (w.view e.2).row := by
+      unfold World.pr at l3 ⊢; rw [← hje]; exact l3
+    rw [hprk, expand_lookup l3' (aliasKeyClash_false hg hj hje he)]
+    exact l3'.symm
+  · intro _; rw [h1]
+
+theorem expand_nStr (w : World) (k : Nat) (more : List Ph) : (w.expand k more).nStr = w.nStr := by
+  unfold World.expand
+  simp only []
+  split <;> rfl
+
+theorem expand_multi (w : World) (k : Nat) (more : List Ph) : (w.expand k more).str = w.str := by
+  unfold World.expand
+  simp only []
+  split <;> rfl
+
+theorem copyLike_inv {w w' : World} {k j : Nat} (hi : Inv w) (hk : k < w.nStr)
+    (h : w.copyLike k j = .ok w') : Inv w' := by
+  unfold World.copyLike at h
+  simp only [] at h
+  split at h
+  · injection h with h; subst h
+    exact setP_inv (setT_inv hi _ _) _ _
+  · split at h
     · split at h
       · cases h
+      · rename_i hg
+        injection h with h; subst h
+        refine setP_inv (setT_inv (writeByPhase_inv ?_ _ _) _ _) _ _
+        split
+        · rename_i hneed
+          apply expand_inv hi hk
+          simp only [hneed, Bool.true_and, Bool.or_eq_true, not_or, Bool.not_eq_true] at hg
+          exact hg.1.2
+        · exact hi
+    · rename_i hm
+      split at h
+      · injection h with h; subst h
+        refine setP_inv (setT_inv ?_ _ _) _ _
+        apply inv_of_frame hi hk
+        · simp [World.setStr, World.allocCache, World.allocImol, World.allocRows]
+        · intro i hne; simp [World.setStr, World.allocCache, World.allocImol, World.allocRows, hne]
+        · right; simp [World.setStr, World.allocCache, World.allocImol, World.allocRows]
+        · simp [World.setStr, World.allocCache, World.allocImol, World.allocRows]
+        · simp [World.setStr, World.allocCache, World.allocImol, World.allocRows]
+        · right; simp [World.setStr, World.allocCache, World.allocImol, World.allocRows]
+        · simp [World.setStr, World.allocCache, World.allocImol, World.allocRows]
+        · simp [World.setStr, World.allocCache, World.allocImol, World.allocRows]
+        · intro i hi' _
+          have : i ≠ w.nImol := Nat.ne_of_lt hi'
+          simp [World.setStr, World.allocCache, World.allocImol, World.allocRows, this]
+        · intro c hc _
+          have : c ≠ w.nCache := Nat.ne_of_lt hc
+          simp [World.setStr, World.allocCache, World.allocImol, World.allocRows, this]
+        · intro v _ _
+          simp [World.setStr, World.allocCache, World.allocImol, World.allocRows]
+        · simp [World.setStr, World.allocCache, World.allocImol, World.allocRows]
+        · intro e he
+          simp [World.cacheOf, World.setStr, World.allocCache, World.allocImol, World.allocRows] at he
+        · intro _ e he
+          simp [World.cacheOf, World.setStr, World.allocCache, World.allocImol, World.allocRows] at he
+        · left
+          have hne : (w.str k).imol ≠ w.nImol := Nat.ne_of_lt (hi.imol_lt k hk)
+          simp [World.setStr, World.allocCache, World.allocImol, World.allocRows, hne]
+        · intro he
+          have := hi.imol_lt k hk
+          simp [World.setStr, World.allocCache, World.allocImol, World.allocRows] at he
+          omega
       · split at h
-        · injection h with h; subst h; exact wf_of_eq hw rfl rfl
+        · injection h with h; subst h
+          have hm' : (w.str k).multi = false := by simpa using hm
+          exact setP_inv (setT_inv (copyRows_inv (relabel_inv hi hk hm' _) _ _) _ _) _ _
         · cases h
+
+theorem mixP_inv {w : World} (hi : Inv w) (k : Nat) (live : List Nat) : Inv (w.mixP k live) := by
+  unfold World.mixP
+  split
+  · exact setP_inv hi _ _
+  · exact hi
+
+theorem mixP_str (w : World) (k : Nat) (live : List Nat) : (w.mixP k live).str = w.str := by
+  unfold World.mixP; split <;> rfl
+theorem mixP_nStr (w : World) (k : Nat) (live : List Nat) : (w.mixP k live).nStr = w.nStr := by
+  unfold World.mixP; split <;> rfl
+theorem mixP_cache (w : World) (k : Nat) (live : List Nat) : (w.mixP k live).cache = w.cache := by
+  unfold World.mixP; split <;> rfl
+theorem mixP_ipr (w : World) (k : Nat) (live : List Nat) : (w.mixP k live).ipr = w.ipr := by
+  unfold World.mixP; split <;> rfl
+
+theorem mixP_aliasKeyClash (w : World) (k : Nat) (live : List Nat) (more : List Ph) :
+    (w.mixP k live).aliasKeyClash k more = w.aliasKeyClash k more := by
+  simp [World.aliasKeyClash, World.cacheOf, World.phases, World.pr, mixP_str, mixP_cache, mixP_ipr, mixP_nStr]
+
+theorem mixFrom_inv {w w' : World} {k : Nat} {js : List Nat} (hi : Inv w) (hk : k < w.nStr)
+    (h : w.mixFrom k js = .ok w') : Inv w' := by
+  unfold World.mixFrom at h
+  simp only [] at h
+  split at h
+  · injection h with h; subst h; exact emptyRows_inv hi k
+  · rename_i live _
+    split at h
     · split at h
       · cases h
-      · injection h with h; subst h; exact wf_of_eq hw rfl rfl
-  | wT x => injection h with h; subst h; exact wf_of_eq hw rfl rfl
-  | wP x => injection h with h; subst h; exact wf_of_eq hw rfl rfl
+      · rename_i hg
+        injection h with h; subst h
+        apply writeByPhase_inv
+        split
+        · rename_i hneed
+          apply expand_inv (mixP_inv hi _ _) (by rw [mixP_nStr]; exact hk)
+          rw [mixP_aliasKeyClash]
+          simp only [hneed, Bool.true_and, Bool.or_eq_true, not_or, Bool.not_eq_true] at hg
+          exact hg.1.2
+        · exact mixP_inv hi _ _
+    · rename_i hm
+      have hm' : (w.str k).multi = false := by simpa using hm
+      split at h
+      · cases h
+      · injection h with h; subst h
+        apply copyRows_inv
+        split
+        · split
+          · exact relabel_inv (mixP_inv hi _ _) (by rw [mixP_nStr]; exact hk) (by rw [mixP_str]; exact hm') _
+          · exact mixP_inv hi _ _
+        · exact mixP_inv hi _ _
+
+theorem proxy_inv {w w' : World} {k : Nat} (hi : Inv w) (hk : k < w.nStr) (h : w.proxy k = .ok w') :
+    Inv w' := by
+  unfold World.proxy at h
+  simp only [] at h
+  injection h with h; subst h
+  have hne : ∀ j, j < w.nStr → j ≠ w.nStr := fun j hj => Nat.ne_of_lt hj
+  apply inv_new hi
+  · simp [World.setStr, World.allocCache]
+  · intro j hj; simp [World.setStr, World.allocCache, hne j hj]
+  · intro j hj he
+    have he' : (w.str j).imol = (w.str k).imol := by simpa [World.setStr, World.allocCache] using he
+    simpa [World.setStr, World.allocCache] using hi.kind_alias j k hj hk he'
+  · simpa [World.setStr, World.allocCache] using hi.imol_lt k hk
+  · simp [World.setStr, World.allocCache]
+  · simp [World.setStr, World.allocCache]
+  · simp [World.setStr, World.allocCache]
+  · simp [World.setStr, World.allocCache]
+  · intro i _; simp [World.setStr, World.allocCache]
+  · intro c hc
+    have : c ≠ w.nCache := Nat.ne_of_lt hc
+    simp [World.setStr, World.allocCache, this]
+  · simp [World.setStr, World.allocCache]
+  · simp [World.setStr, World.allocCache]
+  · simp [World.setStr, World.allocCache]
+
+/-- a successful step was within the bounds of the universe and is the body -/
+theorem step_ok {w w' : World} {op : Op} (h : w.step op = .ok w') :
+    op.inBounds w.nStr = true ∧ w.body op = .ok w' := by
+  unfold World.step at h
+  split at h
+  · rename_i hc; exact ⟨hc, h⟩
+  · cases h
+
+theorem step_target_lt {w w' : World} {op : Op} (h : w.step op = .ok w') {k : Nat}
+    (ht : op.target = some k) : k < w.nStr := by
+  have := (step_ok h).1
+  unfold Op.inBounds at this
+  rw [ht] at this
+  simp only [Bool.and_eq_true, decide_eq_true_eq] at this
+  exact this.1
+
+theorem step_inv {w w' : World} {op : Op} (hi : Inv w) (h : w.step op = .ok w') : Inv w' := by
+  have hb := (step_ok h).2
+  cases op with
+  | newS p T P f => simp only [World.body] at hb; injection hb with hb; subst hb; exact newSingle_inv hi p T P f
+  | newM ps T P fl =>
+    simp only [World.body] at hb
+    split at hb
+    · injection hb with hb; subst hb; exact newMulti_inv hi ps T P fl
+    · cases hb
+  | setPhases k ps => exact setPhases_inv hi (step_target_lt h rfl) hb
+  | setPhase k ls => exact setPhase_inv hi (step_target_lt h rfl) hb
+  | reduce k => exact reduce_inv hi (step_target_lt h rfl) hb
+  | asStream k => exact asStream_inv hi (step_target_lt h rfl) hb
+  | vle k => exact accessor_inv hi (step_target_lt h rfl) hb
+  | lle k => exact accessor_inv hi (step_target_lt h rfl) hb
+  | sle k => exact accessor_inv hi (step_target_lt h rfl) hb
+  | empty k => simp only [World.body] at hb; injection hb with hb; subst hb; exact emptyRows_inv hi k
+  | view k p => exact getView_inv hi (step_target_lt h rfl) hb
+  | wView hd i x =>
+    simp only [World.body, World.writeView] at hb
+    split at hb
+    · injection hb with hb; subst hb; exact writeRow_inv hi _ _ _
+    · cases hb
+  | wPar k p i x =>
+    simp only [World.body, World.writePar] at hb
+    split at hb
+    · split at hb
+      · cases hb
+      · split at hb
+        · injection hb with hb; subst hb; exact writeRow_inv hi _ _ _
+        · cases hb
+    · split at hb
+      · cases hb
+      · injection hb with hb; subst hb; exact writeRow_inv hi _ _ _
+  | wT k x => simp only [World.body] at hb; injection hb with hb; subst hb; exact setT_inv hi _ _
+  | wP k x => simp only [World.body] at hb; injection hb with hb; subst hb; exact setP_inv hi _ _
   | wvT hd x =>
-    simp only [World.step] at h
-    split at h
-    · injection h with h; subst h; exact wf_of_eq hw rfl rfl
-    · cases h
+    simp only [World.body] at hb
+    split at hb
+    · injection hb with hb; subst hb; exact setT_inv hi _ _
+    · cases hb
   | wvP hd x =>
-    simp only [World.step] at h
-    split at h
-    · injection h with h; subst h; exact wf_of_eq hw rfl rfl
-    · cases h
+    simp only [World.body] at hb
+    split at hb
+    · injection hb with hb; subst hb; exact setP_inv hi _ _
+    · cases hb
   | vPhase hd p =>
-    simp only [World.step] at h
+    simp only [World.body] at hb
+    split at hb
+    · split at hb
+      · injection hb with hb; subst hb; exact hi
+      · cases hb
+    · cases hb
+  | save k => simp only [World.body] at hb; injection hb with hb; subst hb; exact save_inv hi k
+  | restore k idx => exact restore_inv hi (step_target_lt h rfl) hb
+  | unlink k => exact unlink_inv hi (step_target_lt h rfl) hb
+  | link k j flow tp => exact link_inv hi (step_target_lt h rfl) hb
+  | copyLike k j => exact copyLike_inv hi (step_target_lt h rfl) hb
+  | mixFrom k js => exact mixFrom_inv hi (step_target_lt h rfl) hb
+  | resetThermo k t => exact resetThermo_inv hi (step_target_lt h rfl) hb
+  | proxy k => exact proxy_inv hi (step_target_lt h rfl) hb
+
+theorem apply_inv {w : World} (hi : Inv w) (op : Op) : Inv (w.apply op) := by
+  unfold World.apply
+  split
+  · rename_i w' h; exact step_inv hi h
+  · exact hi
+
+theorem run_inv {w : World} (hi : Inv w) (ops : List Op) : Inv (w.run ops) := by
+  induction ops generalizing w with
+  | nil => exact hi
+  | cons op ops ih => exact ih (apply_inv hi op)
+
+/-! ### well-formedness -/
+
+/-- a `StreamData` taken from a well-formed stream -/
+def SnapOK (d : Snap) : Prop :=
+  d.vals.length = d.phases.length ∧
+  ((∃ p, d.phases = [p]) ∨ (phaseTuple d.phases = d.phases ∧ 2 ≤ d.phases.length))
+
+/-- shape of an indexer: distinct allocated row objects; one row, or a sorted duplicate-free tuple of ≥ 2 phases -/
+def IndexerOK (nRow : Nat) (pr : List (Ph × Nat)) : Prop :=
+  (pr.map (·.2)).Nodup ∧ (∀ x ∈ pr, x.2 < nRow) ∧
+  ((∃ x, pr = [x]) ∨ (phaseTuple (pr.map (·.1)) = pr.map (·.1) ∧ 2 ≤ pr.length))
+
+structure WF (w : World) : Prop where
+  imol_lt : ∀ k, k < w.nStr → (w.str k).imol < w.nImol
+  idx_ok : ∀ i, i < w.nImol → IndexerOK w.nRow (w.ipr i)
+  kind : ∀ k, k < w.nStr → (w.str k).multi = decide (2 ≤ (w.pr k).length)
+  snaps : ∀ d ∈ w.snaps, SnapOK d
+
+theorem wf_init : WF World.init := by
+  constructor <;> simp [World.init]
+
+theorem IndexerOK.mono {n n' : Nat} {pr : List (Ph × Nat)} (h : IndexerOK n pr) (hn : n ≤ n') :
+    IndexerOK n' pr :=
+  ⟨h.1, fun x hx => Nat.lt_of_lt_of_le (h.2.1 x hx) hn, h.2.2⟩
+
+theorem WF.pr_ok {w : World} (hw : WF w) {k : Nat} (hk : k < w.nStr) : IndexerOK w.nRow (w.pr k) :=
+  hw.idx_ok _ (hw.imol_lt k hk)
+
+theorem WF.single {w : World} (hw : WF w) {k : Nat} (hk : k < w.nStr) (hm : (w.str k).multi = false) :
+    ∃ x, w.pr k = [x] := by
+  have hkind := hw.kind k hk
+  rw [hm] at hkind
+  rcases (hw.pr_ok hk).2.2 with h | ⟨_, h⟩
+  · exact h
+  · simp [h] at hkind
+
+theorem WF.multi {w : World} (hw : WF w) {k : Nat} (hk : k < w.nStr) (hm : (w.str k).multi = true) :
+    phaseTuple (w.phases k) = w.phases k ∧ 2 ≤ (w.pr k).length := by
+  have hkind := hw.kind k hk
+  rw [hm] at hkind
+  rcases (hw.pr_ok hk).2.2 with ⟨x, h⟩ | h
+  · simp [h] at hkind
+  · exact h
+
+/-- fresh rows under a given tuple of labels -/
+theorem indexerOK_fresh {nRow : Nat} {t : List Ph}
+    (ht : (∃ p, t = [p]) ∨ (phaseTuple t = t ∧ 2 ≤ t.length)) :
+    IndexerOK (nRow + t.length) (t.zip (List.range' nRow t.length)) := by
+  refine ⟨?_, ?_, ?_⟩
+  · rw [map_snd_zip_range']; exact List.nodup_range'
+  · intro x hx
+    have := (List.of_mem_zip hx).2
+    rw [List.mem_range'_1] at this
+    exact this.2
+  · rcases ht with ⟨p, rfl⟩ | ⟨h1, h2⟩
+    · exact Or.inl ⟨_, rfl⟩
+    · right
+      rw [map_fst_zip_range']
+      exact ⟨h1, by simpa using h2⟩
+
+/-- The general step: an operation on stream `k` that changes, apart from row values, T, P and views, only
+the `Strm` record of `k`, the indexer `k` had (in place, keeping its kind) and one fresh indexer. -/
+theorem wf_op {w w' : World} {k : Nat} (hw : WF w) (hk : k < w.nStr) (hn : w'.nStr = w.nStr)
+    (hnRow : w.nRow ≤ w'.nRow) (hnImol : w.nImol ≤ w'.nImol)
+    (hstr : ∀ j, j ≠ k → w'.str j = w.str j)
+    (hipr : ∀ i, i < w.nImol → i ≠ (w.str k).imol → w'.ipr i = w.ipr i)
+    (hold : IndexerOK w'.nRow (w'.ipr (w.str k).imol) ∧
+      decide (2 ≤ (w'.ipr (w.str k).imol).length) = decide (2 ≤ (w.ipr (w.str k).imol).length))
+    (hk_lt : (w'.str k).imol < w'.nImol)
+    (hk_kind : (w'.str k).multi = decide (2 ≤ (w'.pr k).length))
+    (hfresh : ∀ i, w.nImol ≤ i → i < w'.nImol → IndexerOK w'.nRow (w'.ipr i))
+    (hsn : w'.snaps = w.snaps) : WF w' := by
+  constructor
+  · intro j hj
+    rw [hn] at hj
+    by_cases hjk : j = k
+    · subst hjk; exact hk_lt
+    · rw [hstr j hjk]; exact Nat.lt_of_lt_of_le (hw.imol_lt j hj) hnImol
+  · intro i hi
+    by_cases hlt : i < w.nImol
+    · by_cases he : i = (w.str k).imol
+      · subst he; exact hold.1
+      · rw [hipr i hlt he]; exact (hw.idx_ok i hlt).mono hnRow
+    · exact hfresh i (Nat.le_of_not_lt hlt) hi
+  · intro j hj
+    rw [hn] at hj
+    by_cases hjk : j = k
+    · subst hjk; exact hk_kind
+    · unfold World.pr
+      rw [hstr j hjk]
+      by_cases he : (w.str j).imol = (w.str k).imol
+      · rw [he, hold.2, ← he]; exact hw.kind j hj
+      · rw [hipr _ (hw.imol_lt j hj) he]; exact hw.kind j hj
+  · rw [hsn]; exact hw.snaps
+
+/-- an operation that changes only row values, T, P, views, caches -/
+theorem wf_same {w w' : World} (hw : WF w) (h1 : w'.str = w.str) (h2 : w'.ipr = w.ipr)
+    (h3 : w'.nStr = w.nStr) (h4 : w'.nImol = w.nImol) (h5 : w.nRow ≤ w'.nRow) (h6 : w'.snaps = w.snaps) :
+    WF w' := by
+  constructor
+  · intro k hk; rw [h3] at hk; rw [h1, h4]; exact hw.imol_lt k hk
+  · intro i hi; rw [h4] at hi; rw [h2]; exact (hw.idx_ok i hi).mono h5
+  · intro k hk; rw [h3] at hk; simp only [World.pr, h1, h2]; exact hw.kind k hk
+  · rw [h6]; exact hw.snaps
+
+theorem shape_labels {n : Nat} {pr : List (Ph × Nat)} (h : IndexerOK n pr) :
+    (∃ p, pr.map (·.1) = [p]) ∨ (phaseTuple (pr.map (·.1)) = pr.map (·.1) ∧ 2 ≤ (pr.map (·.1)).length) := by
+  rcases h.2.2 with ⟨x, rfl⟩ | ⟨h1, h2⟩
+  · exact Or.inl ⟨x.1, rfl⟩
+  · exact Or.inr ⟨h1, by simpa using h2⟩
+
+theorem emptyRows_wf {w : World} (hw : WF w) (k : Nat) : WF (w.emptyRows k) :=
+  wf_same hw rfl rfl rfl rfl (Nat.le_refl _) rfl
+theorem writeRow_wf {w : World} (hw : WF w) (r i : Nat) (x : Rat) : WF (w.writeRow r i x) :=
+  wf_same hw rfl rfl rfl rfl (Nat.le_refl _) rfl
+theorem setT_wf {w : World} (hw : WF w) (t : Nat) (x : Rat) : WF (w.setT t x) :=
+  wf_same hw rfl rfl rfl rfl (Nat.le_refl _) rfl
+theorem setP_wf {w : World} (hw : WF w) (t : Nat) (x : Rat) : WF (w.setP t x) :=
+  wf_same hw rfl rfl rfl rfl (Nat.le_refl _) rfl
+theorem copyRows_wf {w : World} (hw : WF w) (k : Nat) (vals : List (Nat → Rat)) : WF (w.copyRows k vals) :=
+  wf_same hw rfl rfl rfl rfl (Nat.le_refl _) rfl
+theorem writeByPhase_wf {w : World} (hw : WF w) (k : Nat) (vals : Ph → Nat → Rat) :
+    WF (w.writeByPhase k vals) :=
+  wf_same hw rfl rfl rfl rfl (Nat.le_refl _) rfl
+theorem rebind_wf {w : World} (hw : WF w) (k : Nat) (b : Bool) : WF (w.rebind k b) :=
+  wf_same hw rfl rfl rfl rfl (Nat.le_refl _) rfl
+
+theorem relabel_wf {w : World} {k : Nat} (hw : WF w) (hk : k < w.nStr) (hm : (w.str k).multi = false)
+    (q : Ph) : WF (w.relabel k q) := by
+  obtain ⟨x, hx⟩ := hw.single hk hm
+  have hx' : w.ipr (w.str k).imol = [x] := hx
+  have hok := hw.pr_ok hk
+  rw [hx] at hok
+  apply wf_op (w' := w.relabel k q) hw hk rfl (Nat.le_refl _) (Nat.le_refl _) (fun _ _ => rfl)
+  · intro i _ hne; simp [World.relabel, World.setIpr, hne]
+  · simp only [World.relabel, World.setIpr, World.pr, if_true, hx', List.map_cons, List.map_nil]
+    exact ⟨⟨by simp, by simpa using hok.2.1, Or.inl ⟨_, rfl⟩⟩, rfl⟩
+  · exact hw.imol_lt k hk
+  · rw [relabel_multi, hm, relabel_pr, hx]; simp
+  · intro i h1 h2; exact absurd h2 (Nat.not_lt.2 h1)
+  · rfl
+
+theorem toSingle_wf {w : World} {k : Nat} (hw : WF w) (hk : k < w.nStr) (q : Ph) : WF (w.toSingle k q) := by
+  have hlt := hw.imol_lt k hk
+  have hne : (w.str k).imol ≠ w.nImol := Nat.ne_of_lt hlt
+  apply wf_op hw hk
+  · simp [World.toSingle, World.setStr, World.setCache, World.allocImol, World.allocRows]
+  · simp [World.toSingle, World.setStr, World.setCache, World.allocImol, World.allocRows]
+  · simp [World.toSingle, World.setStr, World.setCache, World.allocImol, World.allocRows]
+  · intro j hj; simp [World.toSingle, World.setStr, World.setCache, World.allocImol, World.allocRows, hj]
+  · intro i hi _
+    have : i ≠ w.nImol := Nat.ne_of_lt hi
+    simp [World.toSingle, World.setStr, World.setCache, World.allocImol, World.allocRows, this]
+  · constructor
+    · simp only [World.toSingle, World.setStr, World.setCache, World.allocImol, World.allocRows, hne, if_false]
+      exact (hw.idx_ok _ hlt).mono (Nat.le_add_right _ _)
+    · simp [World.toSingle, World.setStr, World.setCache, World.allocImol, World.allocRows, hne]
+  · simp [World.toSingle, World.setStr, World.setCache, World.allocImol, World.allocRows]
+  · rw [toSingle_pr]
+    simp [World.toSingle, World.setStr, World.setCache, World.allocImol, World.allocRows]
+  · intro i h1 h2
+    have : i = w.nImol := by
+      simp [World.toSingle, World.setStr, World.setCache, World.allocImol, World.allocRows] at h2
+      omega
+    subst this
+    simp only [World.toSingle, World.setStr, World.setCache, World.allocImol, World.allocRows, if_true]
+    exact ⟨by simp, by simp, Or.inl ⟨_, rfl⟩⟩
+  · simp [World.toSingle, World.setStr, World.setCache, World.allocImol, World.allocRows]
+
+/-- a stream that gets a fresh indexer over the labels `t` with fresh rows -/
+theorem wf_fresh_imol {w w' : World} {k : Nat} {t : List Ph} (hw : WF w) (hk : k < w.nStr)
+    (ht : (∃ p, t = [p]) ∨ (phaseTuple t = t ∧ 2 ≤ t.length))
+    (hn : w'.nStr = w.nStr) (hnRow : w'.nRow = w.nRow + t.length) (hnImol : w'.nImol = w.nImol + 1)
+    (hstr : ∀ j, j ≠ k → w'.str j = w.str j)
+    (hipr : ∀ i, i < w.nImol → w'.ipr i = w.ipr i)
+    (hnew : w'.ipr w.nImol = t.zip (List.range' w.nRow t.length))
+    (himol : (w'.str k).imol = w.nImol)
+    (hkind : (w'.str k).multi = decide (2 ≤ t.length))
+    (hsn : w'.snaps = w.snaps) : WF w' := by
+  have hlt := hw.imol_lt k hk
+  apply wf_op hw hk hn (by omega) (by omega) hstr (fun i hi _ => hipr i hi)
+  · rw [hipr _ hlt]
+    exact ⟨(hw.idx_ok _ hlt).mono (by omega), rfl⟩
+  · omega
+  · simp only [World.pr, himol, hnew, hkind]
+    simp
+  · intro i h1 h2
+    have : i = w.nImol := by omega
+    subst this
+    rw [hnew, hnRow]
+    exact indexerOK_fresh ht
+  · exact hsn
+
+theorem toMulti_wf {w w' : World} {k : Nat} {t : List Ph} (hw : WF w) (hk : k < w.nStr)
+    (h : w.toMulti k t = .ok w') (ht : phaseTuple t = t) (hlen : 2 ≤ t.length) : WF w' := by
+  unfold World.toMulti at h
+  simp only [] at h
+  split at h
+  · split at h
+    · injection h with h; subst h
+      apply rebind_wf
+      apply wf_fresh_imol (t := t) hw hk (Or.inr ⟨ht, hlen⟩)
+      · simp [World.setStr, World.allocImol, World.allocRows]
+      · simp [World.setStr, World.allocImol, World.allocRows]
+      · simp [World.setStr, World.allocImol, World.allocRows]
+      · intro j hj; simp [World.setStr, World.allocImol, World.allocRows, hj]
+      · intro i hi
+        have : i ≠ w.nImol := Nat.ne_of_lt hi
+        simp [World.setStr, World.allocImol, World.allocRows, this]
+      · simp [World.setStr, World.allocImol, World.allocRows]
+      · simp [World.setStr, World.allocImol, World.allocRows]
+      · rename_i hm
+        simp [World.setStr, World.allocImol, World.allocRows, hm, hlen]
+      · simp [World.setStr, World.allocImol, World.allocRows]
+    · injection h with h; subst h
+      apply wf_fresh_imol (t := t) hw hk (Or.inr ⟨ht, hlen⟩)
+      · simp [World.setStr, World.allocCache, World.allocImol, World.allocRows]
+      · simp [World.setStr, World.allocCache, World.allocImol, World.allocRows]
+      · simp [World.setStr, World.allocCache, World.allocImol, World.allocRows]
+      · intro j hj; simp [World.setStr, World.allocCache, World.allocImol, World.allocRows, hj]
+      · intro i hi
+        have : i ≠ w.nImol := Nat.ne_of_lt hi
+        simp [World.setStr, World.allocCache, World.allocImol, World.allocRows, this]
+      · simp [World.setStr, World.allocCache, World.allocImol, World.allocRows]
+      · simp [World.setStr, World.allocCache, World.allocImol, World.allocRows]
+      · simp [World.setStr, World.allocCache, World.allocImol, World.allocRows, hlen]
+      · simp [World.setStr, World.allocCache, World.allocImol, World.allocRows]
+  · cases h
+
+theorem setPhases_wf {w w' : World} {k : Nat} {ps : List Ph} (hw : WF w) (hk : k < w.nStr)
+    (h : w.setPhases k ps = .ok w') : WF w' := by
+  rcases setPhases_cases h with ⟨q, _, _, rfl⟩ | ⟨q, _, hm, rfl⟩ | ⟨_, _, _, rfl⟩ | ⟨hlen, _, h⟩
+  · exact toSingle_wf hw hk q
+  · exact relabel_wf hw hk hm q
+  · exact hw
+  · exact toMulti_wf hw hk h (phaseTuple_idem ps) hlen
+
+theorem setPhase_wf {w w' : World} {k : Nat} {ls : List Ph} (hw : WF w) (hk : k < w.nStr)
+    (h : w.setPhase k ls = .ok w') : WF w' := by
+  rcases setPhase_cases h with ⟨_, q, _, rfl⟩ | ⟨_, _, h⟩ | ⟨hm, q, _, rfl⟩
+  · exact toSingle_wf hw hk q
+  · exact setPhases_wf hw hk h
+  · exact relabel_wf hw hk hm q
+
+theorem reduce_wf {w w' : World} {k : Nat} (hw : WF w) (hk : k < w.nStr) (h : w.reduce k = .ok w') :
+    WF w' := by
+  unfold World.reduce at h
+  split at h
+  · exact setPhase_wf hw hk h
+  · injection h with h; subst h; exact hw
+
+theorem asStream_wf {w w' : World} {k : Nat} (hw : WF w) (hk : k < w.nStr) (h : w.asStream k = .ok w') :
+    WF w' := by
+  unfold World.asStream at h
+  split at h
+  · split at h
+    · exact setPhase_wf hw hk h
+    · exact setPhase_wf hw hk h
+    · cases h
+  · injection h with h; subst h; exact hw
+
+theorem accessor_wf {w w' : World} {k : Nat} {a b : Ph} {f : Ph → Bool} (hw : WF w) (hk : k < w.nStr)
+    (h : w.accessor k a b f = .ok w') : WF w' := by
+  unfold World.accessor at h
+  split at h
+  · split at h
+    · injection h with h; subst h; exact hw
+    · exact setPhases_wf hw hk h
+  · rename_i hm
+    have hm : (w.str k).multi = false := by simpa using hm
+    simp only [] at h
     split at h
+    · split at h
+      · exact setPhases_wf (relabel_wf hw hk hm .l) hk h
+      · exact setPhases_wf hw hk h
+    · exact setPhases_wf hw hk h
+
+theorem getView_wf {w w' : World} {k : Nat} {p : Ph} (hw : WF w) (h : w.getView k p = .ok w') : WF w' := by
+  unfold World.getView at h
+  split at h
+  · split at h
+    · injection h with h; subst h; exact hw
+    · split at h
+      · injection h with h; subst h
+        exact wf_same hw rfl rfl rfl rfl (Nat.le_refl _) rfl
+      · cases h
+  · split at h
     · split at h
       · injection h with h; subst h; exact hw
       · cases h
     · cases h
-  | save => injection h with h; subst h; exact save_wf hw
-  | restore k => exact restore_wf hw h
+
+/-! growing an indexer keeps its shape -/
+
+theorem filterMap_find_labels (all : List (Ph × Nat)) (ks : List Ph) :
+    (ks.filterMap (fun p => all.find? (fun x => x.1 == p))).map (·.1)
+      = ks.filter (fun p => (all.find? (fun x => x.1 == p)).isSome) := by
+  induction ks with
+  | nil => rfl
+  | cons p ks ih =>
+    rw [List.filterMap_cons, List.filter_cons]
+    cases hf : all.find? (fun x => x.1 == p) with
+    | none => simpa using ih
+    | some x =>
+      have hx : x.1 = p := by simpa using List.find?_some hf
+      simp [ih, hx]
+
+theorem filterMap_find_mem {all : List (Ph × Nat)} {ks : List Ph} {x : Ph × Nat}
+    (h : x ∈ ks.filterMap (fun p => all.find? (fun y => y.1 == p))) : x ∈ all := by
+  rw [List.mem_filterMap] at h
+  obtain ⟨p, _, hp⟩ := h
+  exact List.mem_of_find?_eq_some hp
+
+theorem phaseTuple_filter_all (g : Ph → Bool) : phaseTuple (Ph.all.filter g) = Ph.all.filter g := by
+  unfold phaseTuple
+  apply List.filter_congr
+  intro p hp
+  simp [List.mem_filter, hp]
+
+theorem expand_ok {w : World} {k : Nat} {more : List Ph} (hw : WF w) (hk : k < w.nStr)
+    (hm : (w.str k).multi = true) :
+    IndexerOK (w.expand k more).nRow ((w.expand k more).pr k) ∧ 2 ≤ ((w.expand k more).pr k).length := by
+  have hok := hw.pr_ok hk
+  obtain ⟨hsorted, hlen⟩ := hw.multi hk hm
+  unfold World.expand
+  simp only []
+  split
+  · exact ⟨hok, hlen⟩
+  · generalize hnew : (Ph.all.filter fun p => more.contains p && !(w.phases k).contains p) = new
+    simp only [World.pr, World.setIpr, World.allocRows, if_true, List.length_map]
+    generalize hall : w.ipr (w.str k).imol ++ new.zip (List.range' w.nRow new.length) = all
+    have hpr : w.pr k = w.ipr (w.str k).imol := rfl
+    have hall_snd : (all.map (·.2)).Nodup := by
+      rw [← hall, List.map_append, map_snd_zip_range', List.nodup_append]
+      refine ⟨hok.1, List.nodup_range', ?_⟩
+      intro a ha b hb
+      obtain ⟨x, hx, rfl⟩ := List.mem_map.1 ha
+      have h1 := hok.2.1 x hx
+      rw [List.mem_range'_1] at hb
+      omega
+    have hall_lt : ∀ x ∈ all, x.2 < w.nRow + new.length := by
+      intro x hx
+      rw [← hall, List.mem_append] at hx
+      rcases hx with hx | hx
+      · have := hok.2.1 x hx; omega
+      · have := (List.of_mem_zip hx).2
+        rw [List.mem_range'_1] at this
+        exact this.2
+    have hlabels := filterMap_find_labels all Ph.all
+    have hnodup_labels : ((Ph.all.filterMap fun p => all.find? fun x => x.1 == p).map (·.1)).Nodup := by
+      rw [hlabels]; exact List.Nodup.sublist List.filter_sublist Ph.all_nodup
+    have hsub : (Ph.all.filter (fun p => (w.phases k).contains p)).Sublist
+        (Ph.all.filter (fun p => (all.find? (fun x => x.1 == p)).isSome)) := by
+      apply List.monotone_filter_right
+      intro p hp
+      have hp' : p ∈ w.phases k := by simpa using hp
+      obtain ⟨x, hx, hxp⟩ := List.mem_map.1 hp'
+      rw [← hall, List.find?_append]
+      have : ((w.ipr (w.str k).imol).find? (fun y => y.1 == p)).isSome = true := by
+        rw [List.find?_isSome]
+        exact ⟨x, hx, by simpa using hxp⟩
+      obtain ⟨y, hy⟩ := Option.isSome_iff_exists.1 this
+      simp [hy]
+    have hlen' : 2 ≤ (Ph.all.filterMap fun p => all.find? fun x => x.1 == p).length := by
+      have h1 : (Ph.all.filterMap fun p => all.find? fun x => x.1 == p).length
+          = (Ph.all.filter (fun p => (all.find? (fun x => x.1 == p)).isSome)).length := by
+        rw [← hlabels, List.length_map]
+      have h2 := hsub.length_le
+      have h3 : (Ph.all.filter (fun p => (w.phases k).contains p)).length = (w.pr k).length := by
+        have : Ph.all.filter (fun p => (w.phases k).contains p) = w.phases k := hsorted
+        rw [this]; simp [World.phases]
+      omega
+    refine ⟨⟨?_, ?_, Or.inr ⟨?_, hlen'⟩⟩, hlen'⟩
+    · apply List.Nodup.map_on
+      · intro x hx y hy hxy
+        exact List.inj_on_of_nodup_map hall_snd (filterMap_find_mem hx) (filterMap_find_mem hy) hxy
+      · exact List.Nodup.of_map _ hnodup_labels
+    · intro x hx
+      exact hall_lt x (filterMap_find_mem hx)
+    · rw [hlabels]; exact phaseTuple_filter_all _
+
+theorem expand_fields (w : World) (k : Nat) (more : List Ph) :
+    (w.expand k more).str = w.str ∧ (w.expand k more).nStr = w.nStr ∧
+    (w.expand k more).nImol = w.nImol ∧ w.nRow ≤ (w.expand k more).nRow ∧
+    (w.expand k more).snaps = w.snaps ∧
+    (∀ i, i ≠ (w.str k).imol → (w.expand k more).ipr i = w.ipr i) := by
+  unfold World.expand
+  simp only []
+  split
+  · exact ⟨rfl, rfl, rfl, Nat.le_refl _, rfl, fun _ _ => rfl⟩
+  · refine ⟨rfl, rfl, rfl, by simp [World.setIpr, World.allocRows], rfl, ?_⟩
+    intro i hne
+    simp [World.setIpr, World.allocRows, hne]
+
+theorem expand_wf {w : World} {k : Nat} {more : List Ph} (hw : WF w) (hk : k < w.nStr)
+    (hm : (w.str k).multi = true) : WF (w.expand k more) := by
+  obtain ⟨h1, h2, h3, h4, h5, h6⟩ := expand_fields w k more
+  obtain ⟨hok, hlen⟩ := expand_ok (more := more) hw hk hm
+  have hlen0 := (hw.multi hk hm).2
+  have hpr : (w.expand k more).pr k = (w.expand k more).ipr (w.str k).imol := by
+    simp [World.pr, h1]
+  apply wf_op hw hk h2 h4 (by rw [h3]) (fun j _ => by rw [h1]) (fun i _ hne => h6 i hne)
+  · rw [← hpr]
+    refine ⟨hok, ?_⟩
+    have : 2 ≤ (w.ipr (w.str k).imol).length := hlen0
+    simp [hlen, this]
+  · rw [h1, h3]; exact hw.imol_lt k hk
+  · rw [h1, hm]; simp [hlen]
+  · intro i hi1 hi2; rw [h3] at hi2; omega
+  · exact h5
+
+theorem phases_length (w : World) (k : Nat) : (w.phases k).length = (w.pr k).length := by
+  simp [World.phases]
+
+theorem unlink_wf {w w' : World} {k : Nat} (hw : WF w) (hk : k < w.nStr) (h : w.unlink k = .ok w') :
+    WF w' := by
+  unfold World.unlink at h
+  split at h
+  · cases h
+  · simp only [] at h
+    injection h with h; subst h
+    have hshape := shape_labels (hw.pr_ok hk)
+    have hkind := hw.kind k hk
+    have key : WF ((((w.allocRows ((w.pr k).map fun x => w.row x.2)).1.allocImol
+        ((w.phases k).zip (w.allocRows ((w.pr k).map fun x => w.row x.2)).2)).1.allocTc
+        (w.T (w.str k).tc) (w.P (w.str k).tc)).1.setStr k
+        { w.str k with imol := w.nImol, tc := w.nTc }) := by
+      apply wf_fresh_imol (t := w.phases k) hw hk hshape
+      · simp [World.setStr, World.allocTc, World.allocImol, World.allocRows]
+      · simp [World.setStr, World.allocTc, World.allocImol, World.allocRows, phases_length]
+      · simp [World.setStr, World.allocTc, World.allocImol, World.allocRows]
+      · intro j hj; simp [World.setStr, World.allocTc, World.allocImol, World.allocRows, hj]
+      · intro i hi
+        have : i ≠ w.nImol := Nat.ne_of_lt hi
+        simp [World.setStr, World.allocTc, World.allocImol, World.allocRows, this]
+      · simp [World.setStr, World.allocTc, World.allocImol, World.allocRows, phases_length]
+      · simp [World.setStr, World.allocTc, World.allocImol, World.allocRows]
+      · simp [World.setStr, World.allocTc, World.allocImol, World.allocRows, hkind, phases_length]
+      · simp [World.setStr, World.allocTc, World.allocImol, World.allocRows]
+    split
+    · exact rebind_wf key _ _
+    · exact key
+
+theorem rebindLink_wf {w : World} (hw : WF w) (k : Nat) (b : Bool) : WF (w.rebindLink k b) :=
+  wf_same hw rfl rfl rfl rfl (Nat.le_refl _) rfl
+
+theorem link_wf {w w' : World} {k j : Nat} {flow tp : Bool} (hw : WF w) (hk : k < w.nStr) (hj : j < w.nStr)
+    (h : w.link k j flow tp = .ok w') : WF w' := by
+  unfold World.link at h
+  split at h
+  · cases h
+  · rename_i hcls
+    split at h
+    · cases h
+    · rename_i hg
+      simp only [] at h
+      injection h with h; subst h
+      have hm : (w.str k).multi = true := by
+        cases hmm : (w.str k).multi with
+        | true => rfl
+        | false => simp [hmm] at hg
+      have hmj : (w.str j).multi = true := by
+        cases hmm : (w.str j).multi with
+        | true => rfl
+        | false => simp [hm, hmm] at hcls
+      have hlenk := (hw.multi hk hm).2
+      have hlenj := (hw.multi hj hmj).2
+      have hlenk' : 2 ≤ (w.ipr (w.str k).imol).length := hlenk
+      have hlenj' : 2 ≤ (w.ipr (w.str j).imol).length := hlenj
+      have key : WF (if tp = true then
+          (if flow = true then w.setIpr (w.str k).imol (w.pr j) else w).setStr k
+            { (if flow = true then w.setIpr (w.str k).imol (w.pr j) else w).str k with tc := (w.str j).tc }
+        else (if flow = true then w.setIpr (w.str k).imol (w.pr j) else w)) := by
+        apply wf_op hw hk
+        · cases flow <;> cases tp <;> simp [World.setStr, World.setIpr]
+        · cases flow <;> cases tp <;> simp [World.setStr, World.setIpr]
+        · cases flow <;> cases tp <;> simp [World.setStr, World.setIpr]
+        · intro i hne; cases flow <;> cases tp <;> simp [World.setStr, World.setIpr, hne]
+        · intro i _ hne; cases flow <;> cases tp <;> simp [World.setStr, World.setIpr, hne]
+        · have hokk := hw.pr_ok hk
+          have hokj := hw.pr_ok hj
+          cases flow <;> cases tp <;>
+            simp [World.setStr, World.setIpr, World.pr, hlenk', hlenj'] <;>
+            first | exact hokk | exact hokj
+        · have := hw.imol_lt k hk
+          cases flow <;> cases tp <;> simpa [World.setStr, World.setIpr] using this
+        · cases flow <;> cases tp <;> simp [World.setStr, World.setIpr, World.pr, hm, hlenk', hlenj']
+        · intro i h1 h2
+          exfalso
+          cases flow <;> cases tp <;> simp [World.setStr, World.setIpr] at h2 <;> omega
+        · cases flow <;> cases tp <;> simp [World.setStr, World.setIpr]
+      split
+      · exact rebindLink_wf key _ _
+      · exact key
+
+theorem resetThermo_wf {w w' : World} {k t : Nat} (hw : WF w) (hk : k < w.nStr)
+    (h : w.resetThermo k t = .ok w') : WF w' := by
+  unfold World.resetThermo at h
+  split at h
+  · injection h with h; subst h; exact hw
+  · split at h
+    · cases h
+    · simp only [] at h
+      injection h with h; subst h
+      have hshape := shape_labels (hw.pr_ok hk)
+      have hkind := hw.kind k hk
+      have hfr := indexerOK_fresh (nRow := w.nRow) hshape
+      have key : WF (((w.allocRows ((w.pr k).map fun x => w.row x.2)).1.setIpr (w.str k).imol
+          ((w.phases k).zip (w.allocRows ((w.pr k).map fun x => w.row x.2)).2)).setStr k
+          { w.str k with thermo := t }) := by
+        apply wf_op hw hk
+        · simp [World.setStr, World.setIpr, World.allocRows]
+        · simp [World.setStr, World.setIpr, World.allocRows]
+        · simp [World.setStr, World.setIpr, World.allocRows]
+        · intro j hj; simp [World.setStr, World.setIpr, World.allocRows, hj]
+        · intro i _ hne; simp [World.setStr, World.setIpr, World.allocRows, hne]
+        · simp only [World.setStr, World.setIpr, World.allocRows, if_true, List.length_map,
+            allocRows_ids]
+          rw [← phases_length]
+          refine ⟨hfr, ?_⟩
+          have : (w.ipr (w.str k).imol).length = (w.phases k).length := (phases_length w k).symm
+          simp [this]
+        · have := hw.imol_lt k hk
+          simpa [World.setStr, World.setIpr, World.allocRows] using this
+        · simp [World.setStr, World.setIpr, World.allocRows, World.pr, hkind, phases_length]
+          rfl
+        · intro i h1 h2
+          simp [World.setStr, World.setIpr, World.allocRows] at h2
+          omega
+        · simp [World.setStr, World.setIpr, World.allocRows]
+      split
+      · exact rebind_wf key _ _
+      · exact key
+
+theorem mixP_wf {w : World} (hw : WF w) (k : Nat) (live : List Nat) : WF (w.mixP k live) := by
+  unfold World.mixP
+  split
+  · exact setP_wf hw _ _
+  · exact hw
+
+theorem copyLike_wf {w w' : World} {k j : Nat} (hw : WF w) (hk : k < w.nStr) (hj : j < w.nStr)
+    (h : w.copyLike k j = .ok w') : WF w' := by
+  unfold World.copyLike at h
+  simp only [] at h
+  split at h
+  · injection h with h; subst h
+    exact setP_wf (setT_wf hw _ _) _ _
+  · split at h
+    · rename_i hm
+      split at h
+      · cases h
+      · injection h with h; subst h
+        refine setP_wf (setT_wf (writeByPhase_wf ?_ _ _) _ _) _ _
+        split
+        · exact expand_wf hw hk hm
+        · exact hw
+    · rename_i hm
+      have hm' : (w.str k).multi = false := by simpa using hm
+      split at h
+      · rename_i hmj
+        injection h with h; subst h
+        refine setP_wf (setT_wf ?_ _ _) _ _
+        have hj2 := hw.multi hj hmj
+        apply wf_fresh_imol (t := w.phases j) hw hk (Or.inr ⟨hj2.1, by rw [phases_length]; exact hj2.2⟩)
+        · simp [World.setStr, World.allocCache, World.allocImol, World.allocRows]
+        · simp [World.setStr, World.allocCache, World.allocImol, World.allocRows, phases_length]
+        · simp [World.setStr, World.allocCache, World.allocImol, World.allocRows]
+        · intro i hne; simp [World.setStr, World.allocCache, World.allocImol, World.allocRows, hne]
+        · intro i hi
+          have : i ≠ w.nImol := Nat.ne_of_lt hi
+          simp [World.setStr, World.allocCache, World.allocImol, World.allocRows, this]
+        · simp [World.setStr, World.allocCache, World.allocImol, World.allocRows, phases_length]
+        · simp [World.setStr, World.allocCache, World.allocImol, World.allocRows]
+        · simp [World.setStr, World.allocCache, World.allocImol, World.allocRows, phases_length, hj2.2]
+        · simp [World.setStr, World.allocCache, World.allocImol, World.allocRows]
+      · split at h
+        · injection h with h; subst h
+          exact setP_wf (setT_wf (copyRows_wf (relabel_wf hw hk hm' _) _ _) _ _) _ _
+        · cases h
+
+theorem mixFrom_wf {w w' : World} {k : Nat} {js : List Nat} (hw : WF w) (hk : k < w.nStr)
+    (h : w.mixFrom k js = .ok w') : WF w' := by
+  unfold World.mixFrom at h
+  simp only [] at h
+  split at h
+  · injection h with h; subst h; exact emptyRows_wf hw k
+  · split at h
+    · rename_i hm
+      split at h
+      · cases h
+      · injection h with h; subst h
+        apply writeByPhase_wf
+        split
+        · exact expand_wf (mixP_wf hw _ _) (by rw [mixP_nStr]; exact hk) (by rw [mixP_str]; exact hm)
+        · exact mixP_wf hw _ _
+    · rename_i hm
+      have hm' : (w.str k).multi = false := by simpa using hm
+      split at h
+      · cases h
+      · injection h with h; subst h
+        apply copyRows_wf
+        split
+        · split
+          · exact relabel_wf (mixP_wf hw _ _) (by rw [mixP_nStr]; exact hk) (by rw [mixP_str]; exact hm') _
+          · exact mixP_wf hw _ _
+        · exact mixP_wf hw _ _
+
+/-- a new stream record over existing or fresh objects -/
+theorem wf_new {w w' : World} (hw : WF w) (hn : w'.nStr = w.nStr + 1)
+    (hnRow : w.nRow ≤ w'.nRow) (hnImol : w.nImol ≤ w'.nImol)
+    (hstr : ∀ j, j < w.nStr → w'.str j = w.str j)
+    (hipr : ∀ i, i < w.nImol → w'.ipr i = w.ipr i)
+    (hk_lt : (w'.str w.nStr).imol < w'.nImol)
+    (hk_kind : (w'.str w.nStr).multi = decide (2 ≤ (w'.pr w.nStr).length))
+    (hfresh : ∀ i, w.nImol ≤ i → i < w'.nImol → IndexerOK w'.nRow (w'.ipr i))
+    (hsn : w'.snaps = w.snaps) : WF w' := by
+  constructor
+  · intro j hj
+    rw [hn] at hj
+    by_cases hjk : j < w.nStr
+    · rw [hstr j hjk]; exact Nat.lt_of_lt_of_le (hw.imol_lt j hjk) hnImol
+    · have : j = w.nStr := by omega
+      subst this; exact hk_lt
+  · intro i hi
+    by_cases hlt : i < w.nImol
+    · rw [hipr i hlt]; exact (hw.idx_ok i hlt).mono hnRow
+    · exact hfresh i (Nat.le_of_not_lt hlt) hi
+  · intro j hj
+    rw [hn] at hj
+    by_cases hjk : j < w.nStr
+    · unfold World.pr
+      rw [hstr j hjk, hipr _ (hw.imol_lt j hjk)]; exact hw.kind j hjk
+    · have : j = w.nStr := by omega
+      subst this; exact hk_kind
+  · rw [hsn]; exact hw.snaps
+
+theorem proxy_wf {w w' : World} {k : Nat} (hw : WF w) (hk : k < w.nStr) (h : w.proxy k = .ok w') :
+    WF w' := by
+  unfold World.proxy at h
+  simp only [] at h
+  injection h with h; subst h
+  have hne : ∀ j, j < w.nStr → j ≠ w.nStr := fun j hj => Nat.ne_of_lt hj
+  apply wf_new hw
+  · simp [World.setStr, World.allocCache]
+  · simp [World.setStr, World.allocCache]
+  · simp [World.setStr, World.allocCache]
+  · intro j hj; simp [World.setStr, World.allocCache, hne j hj]
+  · intro i _; simp [World.setStr, World.allocCache]
+  · simpa [World.setStr, World.allocCache] using hw.imol_lt k hk
+  · have hk' := hw.kind k hk
+    simp only [World.pr] at hk'
+    simp [World.setStr, World.allocCache, World.pr, hk']
+    rfl
+  · intro i h1 h2; simp [World.setStr, World.allocCache] at h2; omega
+  · simp [World.setStr, World.allocCache]
+
+theorem newSingle_wf {w : World} (hw : WF w) (p : Ph) (T P : Rat) (f : Nat → Rat) :
+    WF (w.newSingle p T P f) := by
+  have hne : ∀ j, j < w.nStr → j ≠ w.nStr := fun j hj => Nat.ne_of_lt hj
+  apply wf_new hw
+  · simp [World.newSingle, World.setStr, World.allocCache, World.allocTc, World.allocImol, World.allocRows]
+  · simp [World.newSingle, World.setStr, World.allocCache, World.allocTc, World.allocImol, World.allocRows]
+  · simp [World.newSingle, World.setStr, World.allocCache, World.allocTc, World.allocImol, World.allocRows]
+  · intro j hj
+    simp [World.newSingle, World.setStr, World.allocCache, World.allocTc, World.allocImol, World.allocRows, hne j hj]
+  · intro i hi
+    have : i ≠ w.nImol := Nat.ne_of_lt hi
+    simp [World.newSingle, World.setStr, World.allocCache, World.allocTc, World.allocImol, World.allocRows, this]
+  · simp [World.newSingle, World.setStr, World.allocCache, World.allocTc, World.allocImol, World.allocRows]
+  · simp [World.newSingle, World.pr, World.setStr, World.allocCache, World.allocTc, World.allocImol, World.allocRows]
+  · intro i h1 h2
+    have : i = w.nImol := by
+      simp [World.newSingle, World.setStr, World.allocCache, World.allocTc, World.allocImol, World.allocRows] at h2
+      omega
+    subst this
+    simp only [World.newSingle, World.setStr, World.allocCache, World.allocTc, World.allocImol, World.allocRows, if_true]
+    exact ⟨by simp, by simp, Or.inl ⟨_, rfl⟩⟩
+  · simp [World.newSingle, World.setStr, World.allocCache, World.allocTc, World.allocImol, World.allocRows]
+
+theorem newMulti_wf {w : World} (hw : WF w) (ps : List Ph) (T P : Rat) (fl : List (Ph × (Nat → Rat)))
+    (hlen : 2 ≤ (phaseTuple ps).length) : WF (w.newMulti ps T P fl) := by
+  have hne : ∀ j, j < w.nStr → j ≠ w.nStr := fun j hj => Nat.ne_of_lt hj
+  apply wf_new hw
+  · simp [World.newMulti, World.setStr, World.allocCache, World.allocTc, World.allocImol, World.allocRows]
+  · simp [World.newMulti, World.setStr, World.allocCache, World.allocTc, World.allocImol, World.allocRows]
+  · simp [World.newMulti, World.setStr, World.allocCache, World.allocTc, World.allocImol, World.allocRows]
+  · intro j hj
+    simp [World.newMulti, World.setStr, World.allocCache, World.allocTc, World.allocImol, World.allocRows, hne j hj]
+  · intro i hi
+    have : i ≠ w.nImol := Nat.ne_of_lt hi
+    simp [World.newMulti, World.setStr, World.allocCache, World.allocTc, World.allocImol, World.allocRows, this]
+  · simp [World.newMulti, World.setStr, World.allocCache, World.allocTc, World.allocImol, World.allocRows]
+  · simp [World.newMulti, World.pr, World.setStr, World.allocCache, World.allocTc, World.allocImol, World.allocRows, hlen]
+  · intro i h1 h2
+    have : i = w.nImol := by
+      simp [World.newMulti, World.setStr, World.allocCache, World.allocTc, World.allocImol, World.allocRows] at h2
+      omega
+    subst this
+    simp only [World.newMulti, World.setStr, World.allocCache, World.allocTc, World.allocImol, World.allocRows,
+      if_true, List.length_map]
+    exact indexerOK_fresh (Or.inr ⟨phaseTuple_idem ps, hlen⟩)
+  · simp [World.newMulti, World.setStr, World.allocCache, World.allocTc, World.allocImol, World.allocRows]
+
+theorem restore_wf {w w' : World} {k idx : Nat} (hw : WF w) (hk : k < w.nStr)
+    (h : w.restore k idx = .ok w') : WF w' := by
+  unfold World.restore at h
+  split at h
+  · cases h
+  · simp only [bind, Except.bind] at h
+    split at h
+    · cases h
+    · rename_i w2 h2
+      injection h with h; subst h
+      exact setP_wf (setT_wf (copyRows_wf (setPhases_wf (emptyRows_wf hw k) hk h2) _ _) _ _) _ _
+
+/-! streams and snapshots are never lost -/
+
+/-- the universe only grows: stream indices stay valid, snapshots are only appended -/
+def Mono (w w' : World) : Prop := w.nStr ≤ w'.nStr ∧ ∃ l, w'.snaps = w.snaps ++ l
+
+theorem Mono.refl (w : World) : Mono w w := ⟨Nat.le_refl _, [], by simp⟩
+theorem Mono.trans {a b c : World} (h1 : Mono a b) (h2 : Mono b c) : Mono a c := by
+  obtain ⟨l1, e1⟩ := h1.2
+  obtain ⟨l2, e2⟩ := h2.2
+  exact ⟨Nat.le_trans h1.1 h2.1, l1 ++ l2, by rw [e2, e1, List.append_assoc]⟩
+theorem mono_of_eq {w w' : World} (h1 : w'.nStr = w.nStr) (h2 : w'.snaps = w.snaps) : Mono w w' :=
+  ⟨by rw [h1], [], by simp [h2]⟩
+
+theorem toSingle_mono (w : World) (k : Nat) (q : Ph) : Mono w (w.toSingle k q) :=
+  mono_of_eq (by simp [World.toSingle, World.setStr, World.setCache, World.allocImol, World.allocRows])
+    (by simp [World.toSingle, World.setStr, World.setCache, World.allocImol, World.allocRows])
+
+theorem toMulti_mono {w w' : World} {k : Nat} {t : List Ph} (h : w.toMulti k t = .ok w') : Mono w w' :=
+  mono_of_eq (toMulti_ok h).2.2.2.2.2.2.2.2.2 (toMulti_ok h).2.2.2.2.2.2.2.1
+
+theorem setPhases_mono {w w' : World} {k : Nat} {ps : List Ph} (h : w.setPhases k ps = .ok w') : Mono w w' := by
+  rcases setPhases_cases h with ⟨q, _, _, rfl⟩ | ⟨q, _, _, rfl⟩ | ⟨_, _, _, rfl⟩ | ⟨_, _, h⟩
+  · exact toSingle_mono w k q
+  · exact mono_of_eq rfl rfl
+  · exact Mono.refl _
+  · exact toMulti_mono h
+
+theorem setPhase_mono {w w' : World} {k : Nat} {ls : List Ph} (h : w.setPhase k ls = .ok w') : Mono w w' := by
+  rcases setPhase_cases h with ⟨_, q, _, rfl⟩ | ⟨_, _, h⟩ | ⟨_, q, _, rfl⟩
+  · exact toSingle_mono w k q
+  · exact setPhases_mono h
+  · exact mono_of_eq rfl rfl
+
+theorem accessor_mono {w w' : World} {k : Nat} {a b : Ph} {f : Ph → Bool}
+    (h : w.accessor k a b f = .ok w') : Mono w w' := by
+  unfold World.accessor at h
+  split at h
+  · split at h
+    · injection h with h; subst h; exact Mono.refl w
+    · exact setPhases_mono h
+  · simp only [] at h
+    split at h
+    · split at h
+      · exact (mono_of_eq (w := w) (w' := w.relabel k .l) rfl rfl).trans (setPhases_mono h)
+      · exact setPhases_mono h
+    · exact setPhases_mono h
+
+theorem expand_mono (w : World) (k : Nat) (more : List Ph) : Mono w (w.expand k more) := by
+  obtain ⟨_, h2, _, _, h5, _⟩ := expand_fields w k more
+  exact mono_of_eq h2 h5
+
+theorem mixP_snaps (w : World) (k : Nat) (live : List Nat) : (w.mixP k live).snaps = w.snaps := by
+  unfold World.mixP; split <;> rfl
+
+theorem Mono.wbp {a b : World} (h : Mono a b) {k : Nat} {v : Ph → Nat → Rat} : Mono a (b.writeByPhase k v) :=
+  h.trans (mono_of_eq rfl rfl)
+theorem Mono.copyRows {a b : World} (h : Mono a b) {k : Nat} {v : List (Nat → Rat)} : Mono a (b.copyRows k v) :=
+  h.trans (mono_of_eq rfl rfl)
+theorem Mono.relabel {a b : World} (h : Mono a b) (k : Nat) (q : Ph) : Mono a (b.relabel k q) :=
+  h.trans (mono_of_eq rfl rfl)
+theorem Mono.expand {a b : World} (h : Mono a b) (k : Nat) (more : List Ph) : Mono a (b.expand k more) :=
+  h.trans (expand_mono _ _ _)
+theorem Mono.mixP {a b : World} (h : Mono a b) (k : Nat) (live : List Nat) : Mono a (b.mixP k live) :=
+  h.trans (mono_of_eq (mixP_nStr _ _ _) (mixP_snaps _ _ _))
+
+theorem body_mono {w w' : World} {op : Op} (h : w.body op = .ok w') : Mono w w' := by
+  cases op with
+  | newS p T P f =>
+    simp only [World.body] at h; injection h with h; subst h
+    exact ⟨by simp [World.newSingle, World.setStr, World.allocCache, World.allocTc, World.allocImol, World.allocRows],
+      [], by simp [World.newSingle, World.setStr, World.allocCache, World.allocTc, World.allocImol, World.allocRows]⟩
+  | newM ps T P fl =>
+    simp only [World.body] at h
+    split at h
+    · injection h with h; subst h
+      exact ⟨by simp [World.newMulti, World.setStr, World.allocCache, World.allocTc, World.allocImol, World.allocRows],
+        [], by simp [World.newMulti, World.setStr, World.allocCache, World.allocTc, World.allocImol, World.allocRows]⟩
+    · cases h
+  | setPhases k ps => exact setPhases_mono h
+  | setPhase k ls => exact setPhase_mono h
+  | reduce k =>
+    simp only [World.body, World.reduce] at h
+    split at h
+    · exact setPhase_mono h
+    · injection h with h; subst h; exact Mono.refl w
+  | asStream k =>
+    simp only [World.body, World.asStream] at h
+    split at h
+    · split at h
+      · exact setPhase_mono h
+      · exact setPhase_mono h
+      · cases h
+    · injection h with h; subst h; exact Mono.refl w
+  | vle k => exact accessor_mono h
+  | lle k => exact accessor_mono h
+  | sle k => exact accessor_mono h
+  | empty k => simp only [World.body] at h; injection h with h; subst h; exact mono_of_eq rfl rfl
+  | view k p =>
+    simp only [World.body, World.getView] at h
+    split at h
+    · split at h
+      · injection h with h; subst h; exact Mono.refl w
+      · split at h
+        · injection h with h; subst h; exact mono_of_eq rfl rfl
+        · cases h
+    · split at h
+      · split at h
+        · injection h with h; subst h; exact Mono.refl w
+        · cases h
+      · cases h
+  | wView hd i x =>
+    simp only [World.body, World.writeView] at h
+    split at h
+    · injection h with h; subst h; exact mono_of_eq rfl rfl
+    · cases h
+  | wPar k p i x =>
+    simp only [World.body, World.writePar] at h
+    split at h
+    · split at h
+      · cases h
+      · split at h
+        · injection h with h; subst h; exact mono_of_eq rfl rfl
+        · cases h
+    · split at h
+      · cases h
+      · injection h with h; subst h; exact mono_of_eq rfl rfl
+  | wT k x => simp only [World.body] at h; injection h with h; subst h; exact mono_of_eq rfl rfl
+  | wP k x => simp only [World.body] at h; injection h with h; subst h; exact mono_of_eq rfl rfl
+  | wvT hd x =>
+    simp only [World.body] at h
+    split at h
+    · injection h with h; subst h; exact mono_of_eq rfl rfl
+    · cases h
+  | wvP hd x =>
+    simp only [World.body] at h
+    split at h
+    · injection h with h; subst h; exact mono_of_eq rfl rfl
+    · cases h
+  | vPhase hd p =>
+    simp only [World.body] at h
+    split at h
+    · split at h
+      · injection h with h; subst h; exact Mono.refl w
+      · cases h
+    · cases h
+  | save k =>
+    simp only [World.body] at h; injection h with h; subst h
+    exact ⟨Nat.le_refl _, [w.snapshot k], rfl⟩
+  | restore k idx =>
+    simp only [World.body, World.restore] at h
+    split at h
+    · cases h
+    · simp only [bind, Except.bind] at h
+      split at h
+      · cases h
+      · rename_i w2 h2
+        injection h with h; subst h
+        exact (mono_of_eq (w := w) (w' := w.emptyRows k) rfl rfl).trans
+          ((setPhases_mono h2).trans (mono_of_eq rfl rfl))
+  | unlink k =>
+    simp only [World.body, World.unlink] at h
+    split at h
+    · cases h
+    · injection h with h; subst h
+      split <;> exact mono_of_eq (by simp [World.setStr, World.allocTc, World.allocImol, World.allocRows])
+        (by simp [World.setStr, World.allocTc, World.allocImol, World.allocRows])
+  | link k j flow tp =>
+    simp only [World.body, World.link] at h
+    split at h
+    · cases h
+    · split at h
+      · cases h
+      · injection h with h; subst h
+        exact mono_of_eq (by cases flow <;> cases tp <;> simp [World.setStr, World.setIpr, World.rebindLink])
+          (by cases flow <;> cases tp <;> simp [World.setStr, World.setIpr, World.rebindLink])
+  | copyLike k j =>
+    simp only [World.body, World.copyLike] at h
+    split at h
+    · injection h with h; subst h; exact mono_of_eq rfl rfl
+    · split at h
+      · split at h
+        · cases h
+        · injection h with h; subst h
+          refine Mono.trans (b := if w.copyNeed k j = true then w.expand k (w.phases j) else w) ?_
+            (mono_of_eq rfl rfl)
+          split
+          · exact expand_mono _ _ _
+          · exact Mono.refl w
+      · split at h
+        · injection h with h; subst h
+          exact mono_of_eq (by simp [World.setT, World.setP, World.setStr, World.allocCache, World.allocImol, World.allocRows])
+            (by simp [World.setT, World.setP, World.setStr, World.allocCache, World.allocImol, World.allocRows])
+        · split at h
+          · injection h with h; subst h; exact mono_of_eq rfl rfl
+          · cases h
+  | mixFrom k js =>
+    simp only [World.body, World.mixFrom] at h
+    split at h
+    · injection h with h; subst h; exact mono_of_eq rfl rfl
+    · split at h
+      · split at h
+        · cases h
+        · injection h with h; subst h
+          apply Mono.wbp
+          split
+          · exact ((Mono.refl w).mixP _ _).expand _ _
+          · exact (Mono.refl w).mixP _ _
+      · split at h
+        · cases h
+        · injection h with h; subst h
+          apply Mono.copyRows
+          split
+          · split
+            · exact ((Mono.refl w).mixP _ _).relabel _ _
+            · exact (Mono.refl w).mixP _ _
+          · exact (Mono.refl w).mixP _ _
+  | resetThermo k t =>
+    simp only [World.body, World.resetThermo] at h
+    split at h
+    · injection h with h; subst h; exact Mono.refl w
+    · split at h
+      · cases h
+      · injection h with h; subst h
+        split <;> exact mono_of_eq (by simp [World.setStr, World.setIpr, World.allocRows])
+          (by simp [World.setStr, World.setIpr, World.allocRows])
+  | proxy k =>
+    simp only [World.body, World.proxy] at h
+    injection h with h; subst h
+    exact ⟨by simp [World.setStr, World.allocCache], [], by simp [World.setStr, World.allocCache]⟩
+
+theorem step_wf {w w' : World} {op : Op} (hw : WF w) (h : w.step op = .ok w') : WF w' := by
+  obtain ⟨hb0, hb⟩ := step_ok h
+  have hreads : ∀ j ∈ op.reads, j < w.nStr := by
+    unfold Op.inBounds at hb0
+    simp only [Bool.and_eq_true, List.all_eq_true, decide_eq_true_eq] at hb0
+    exact hb0.2
+  cases op with
+  | newS p T P f => simp only [World.body] at hb; injection hb with hb; subst hb; exact newSingle_wf hw p T P f
+  | newM ps T P fl =>
+    simp only [World.body] at hb
+    split at hb
+    · rename_i hlen
+      injection hb with hb; subst hb; exact newMulti_wf hw ps T P fl hlen
+    · cases hb
+  | setPhases k ps => exact setPhases_wf hw (step_target_lt h rfl) hb
+  | setPhase k ls => exact setPhase_wf hw (step_target_lt h rfl) hb
+  | reduce k => exact reduce_wf hw (step_target_lt h rfl) hb
+  | asStream k => exact asStream_wf hw (step_target_lt h rfl) hb
+  | vle k => exact accessor_wf hw (step_target_lt h rfl) hb
+  | lle k => exact accessor_wf hw (step_target_lt h rfl) hb
+  | sle k => exact accessor_wf hw (step_target_lt h rfl) hb
+  | empty k => simp only [World.body] at hb; injection hb with hb; subst hb; exact emptyRows_wf hw k
+  | view k p => exact getView_wf hw hb
+  | wView hd i x =>
+    simp only [World.body, World.writeView] at hb
+    split at hb
+    · injection hb with hb; subst hb; exact writeRow_wf hw _ _ _
+    · cases hb
+  | wPar k p i x =>
+    simp only [World.body, World.writePar] at hb
+    split at hb
+    · split at hb
+      · cases hb
+      · split at hb
+        · injection hb with hb; subst hb; exact writeRow_wf hw _ _ _
+        · cases hb
+    · split at hb
+      · cases hb
+      · injection hb with hb; subst hb; exact writeRow_wf hw _ _ _
+  | wT k x => simp only [World.body] at hb; injection hb with hb; subst hb; exact setT_wf hw _ _
+  | wP k x => simp only [World.body] at hb; injection hb with hb; subst hb; exact setP_wf hw _ _
+  | wvT hd x =>
+    simp only [World.body] at hb
+    split at hb
+    · injection hb with hb; subst hb; exact setT_wf hw _ _
+    · cases hb
+  | wvP hd x =>
+    simp only [World.body] at hb
+    split at hb
+    · injection hb with hb; subst hb; exact setP_wf hw _ _
+    · cases hb
+  | vPhase hd p =>
+    simp only [World.body] at hb
+    split at hb
+    · split at hb
+      · injection hb with hb; subst hb; exact hw
+      · cases hb
+    · cases hb
+  | save k =>
+    simp only [World.body] at hb; injection hb with hb; subst hb
+    have hk := step_target_lt h rfl
+    refine ⟨hw.imol_lt, hw.idx_ok, hw.kind, ?_⟩
+    intro d hd
+    simp only [World.save, List.mem_append, List.mem_singleton] at hd
+    rcases hd with hd | rfl
+    · exact hw.snaps d hd
+    · refine ⟨by simp [World.snapshot, World.phases], ?_⟩
+      rcases shape_labels (hw.pr_ok hk) with h1 | h1
+      · exact Or.inl h1
+      · exact Or.inr h1
+  | restore k idx => exact restore_wf hw (step_target_lt h rfl) hb
+  | unlink k => exact unlink_wf hw (step_target_lt h rfl) hb
+  | link k j flow tp => exact link_wf hw (step_target_lt h rfl) (hreads j (by simp [Op.reads])) hb
+  | copyLike k j => exact copyLike_wf hw (step_target_lt h rfl) (hreads j (by simp [Op.reads])) hb
+  | mixFrom k js => exact mixFrom_wf hw (step_target_lt h rfl) hb
+  | resetThermo k t => exact resetThermo_wf hw (step_target_lt h rfl) hb
+  | proxy k => exact proxy_wf hw (step_target_lt h rfl) hb
 
 theorem apply_wf {w : World} (hw : WF w) (op : Op) : WF (w.apply op) := by
   unfold World.apply
@@ -1028,138 +3036,18 @@ theorem run_wf {w : World} (hw : WF w) (ops : List Op) : WF (w.run ops) := by
   | nil => exact hw
   | cons op ops ih => exact ih (apply_wf hw op)
 
-/-! snapshots are never lost -/
+theorem apply_mono (w : World) (op : Op) : Mono w (w.apply op) := by
+  unfold World.apply
+  split
+  · rename_i w' h; exact body_mono (step_ok h).2
+  · exact Mono.refl w
 
-theorem setPhases_snaps {w w' : World} {ps : List Ph} (h : w.setPhases ps = .ok w') : w'.snaps = w.snaps := by
-  rcases setPhases_cases h with ⟨q, _, _, rfl⟩ | ⟨q, _, _, rfl⟩ | ⟨_, _, _, rfl⟩ | ⟨_, _, h⟩
-  · rfl
-  · rfl
-  · rfl
-  · exact (toMulti_ok h).2.2.2.2.2.2.2.2.2.1
-
-theorem setPhase_snaps {w w' : World} {ls : List Ph} (h : w.setPhase ls = .ok w') : w'.snaps = w.snaps := by
-  rcases setPhase_cases h with ⟨_, q, _, rfl⟩ | ⟨_, _, h⟩ | ⟨_, q, _, rfl⟩
-  · rfl
-  · exact setPhases_snaps h
-  · rfl
-
-theorem accessor_snaps {w w' : World} {a b : Ph} {f : Ph → Bool} (h : w.accessor a b f = .ok w') :
-    w'.snaps = w.snaps := by
-  unfold World.accessor at h
-  split at h
-  · split at h
-    · injection h with h; subst h; rfl
-    · exact setPhases_snaps h
-  · simp only [] at h
-    split at h
-    · split at h
-      · exact (setPhases_snaps h).trans rfl
-      · exact setPhases_snaps h
-    · exact setPhases_snaps h
-
-theorem step_snaps {w w' : World} {op : Op} (h : w.step op = .ok w') :
-    ∃ l, w'.snaps = w.snaps ++ l := by
-  cases op with
-  | newS p T P f => injection h with h; subst h; exact ⟨[], by simp [World.newSingle, World.allocRows]⟩
-  | newM ps T P fl =>
-    simp only [World.step] at h
-    split at h
-    · injection h with h; subst h; exact ⟨[], by simp [World.newMulti, World.allocRows]⟩
-    · cases h
-  | setPhases ps => exact ⟨[], by simp [setPhases_snaps h]⟩
-  | setPhase ls => exact ⟨[], by simp [setPhase_snaps h]⟩
-  | reduce =>
-    simp only [World.step, World.reduce] at h
-    split at h
-    · exact ⟨[], by simp [setPhase_snaps h]⟩
-    · injection h with h; subst h; exact ⟨[], by simp⟩
-  | asStream =>
-    simp only [World.step, World.asStream] at h
-    split at h
-    · split at h
-      · exact ⟨[], by simp [setPhase_snaps h]⟩
-      · exact ⟨[], by simp [setPhase_snaps h]⟩
-      · cases h
-    · injection h with h; subst h; exact ⟨[], by simp⟩
-  | vle => exact ⟨[], by simp [accessor_snaps h]⟩
-  | lle => exact ⟨[], by simp [accessor_snaps h]⟩
-  | sle => exact ⟨[], by simp [accessor_snaps h]⟩
-  | empty => injection h with h; subst h; exact ⟨[], by simp [World.emptyRows]⟩
-  | view p =>
-    simp only [World.step, World.getView] at h
-    split at h
-    · split at h
-      · injection h with h; subst h; exact ⟨[], by simp⟩
-      · split at h
-        · injection h with h; subst h; exact ⟨[], by simp⟩
-        · cases h
-    · split at h
-      · split at h
-        · injection h with h; subst h; exact ⟨[], by simp⟩
-        · cases h
-      · cases h
-  | wView hd i x =>
-    simp only [World.step, World.writeView] at h
-    split at h
-    · injection h with h; subst h; exact ⟨[], by simp [World.writeRow]⟩
-    · cases h
-  | wPar p i x =>
-    simp only [World.step, World.writePar] at h
-    split at h
-    · split at h
-      · cases h
-      · split at h
-        · injection h with h; subst h; exact ⟨[], by simp [World.writeRow]⟩
-        · cases h
-    · split at h
-      · cases h
-      · injection h with h; subst h; exact ⟨[], by simp [World.writeRow]⟩
-  | wT x => injection h with h; subst h; exact ⟨[], by simp [World.setT]⟩
-  | wP x => injection h with h; subst h; exact ⟨[], by simp [World.setP]⟩
-  | wvT hd x =>
-    simp only [World.step] at h
-    split at h
-    · injection h with h; subst h; exact ⟨[], by simp [World.setT]⟩
-    · cases h
-  | wvP hd x =>
-    simp only [World.step] at h
-    split at h
-    · injection h with h; subst h; exact ⟨[], by simp [World.setP]⟩
-    · cases h
-  | vPhase hd p =>
-    simp only [World.step] at h
-    split at h
-    · split at h
-      · injection h with h; subst h; exact ⟨[], by simp⟩
-      · cases h
-    · cases h
-  | save => injection h with h; subst h; exact ⟨[w.snapshot], rfl⟩
-  | restore k =>
-    simp only [World.step, World.restore] at h
-    split at h
-    · cases h
-    · simp only [bind, Except.bind] at h
-      split at h
-      · cases h
-      · rename_i w2 h2
-        injection h with h; subst h
-        exact ⟨[], by simp [World.setP, World.setT, World.copyRows, setPhases_snaps h2, World.emptyRows]⟩
-
-theorem run_snaps (w : World) (ops : List Op) : ∃ l, (w.run ops).snaps = w.snaps ++ l := by
+theorem run_mono (w : World) (ops : List Op) : Mono w (w.run ops) := by
   induction ops generalizing w with
-  | nil => exact ⟨[], by simp [World.run]⟩
-  | cons op ops ih =>
-    obtain ⟨l2, h2⟩ := ih (w.apply op)
-    have h1 : ∃ l, (w.apply op).snaps = w.snaps ++ l := by
-      unfold World.apply
-      split
-      · rename_i w' h; exact step_snaps h
-      · exact ⟨[], by simp⟩
-    obtain ⟨l1, h1⟩ := h1
-    exact ⟨l1 ++ l2, by simp [World.run, h2, h1]⟩
+  | nil => exact Mono.refl w
+  | cons op ops ih => exact (apply_mono w op).trans (ih (w.apply op))
 
-
-/-! restoring a snapshot -/
+/-! ### restoring a snapshot -/
 
 /-- what the property talks about: class, phase tuple, the flows of every phase, T and P -/
 structure Obs where
@@ -1169,8 +3057,8 @@ structure Obs where
   T : Rat
   P : Rat
 
-def World.obs (w : World) : Obs :=
-  ⟨w.s.multi, w.s.phases, w.s.pr.map (fun x => w.row x.2), w.temp, w.pres⟩
+def World.obs (w : World) (k : Nat) : Obs :=
+  ⟨(w.str k).multi, w.phases k, (w.pr k).map (fun x => w.row x.2), w.temp k, w.pres k⟩
 
 theorem find_zip_of_mem {β : Type} {rows : List Nat} {vals : List β} (hn : rows.Nodup) {r : Nat} {v : β}
     (hm : (r, v) ∈ rows.zip vals) : (rows.zip vals).find? (fun x => x.1 == r) = some (r, v) := by
@@ -1194,39 +3082,42 @@ theorem find_zip_of_mem {β : Type} {rows : List Nat} {vals : List β} (hn : row
           simp only [this]
           exact ih hn.2 hm
 
-theorem copyRows_vals {w : World} {vals : List (Nat → Rat)} (hn : w.s.rows.Nodup)
-    (hl : w.s.pr.length = vals.length) :
-    (w.copyRows vals).s.pr.map (fun x => (w.copyRows vals).row x.2) = vals := by
+theorem copyRows_vals {w : World} {k : Nat} {vals : List (Nat → Rat)} (hn : (w.rows k).Nodup)
+    (hl : (w.pr k).length = vals.length) :
+    ((w.copyRows k vals).pr k).map (fun x => (w.copyRows k vals).row x.2) = vals := by
+  have hpr : (w.copyRows k vals).pr k = w.pr k := rfl
+  rw [hpr]
   apply List.ext_getElem
-  · simp [World.copyRows, hl]
+  · simp [hl]
   · intro j h1 h2
     simp only [List.getElem_map]
-    have hj : j < w.s.pr.length := by simpa [World.copyRows] using h1
-    have hrows : w.s.rows.length = vals.length := by simpa [Strm.rows] using hl
-    have hjr : j < w.s.rows.length := by simpa [Strm.rows] using hj
-    have hmem : (w.s.rows[j], vals[j]) ∈ w.s.rows.zip vals := by
+    have hj : j < (w.pr k).length := by simpa using h1
+    have hrows : (w.rows k).length = vals.length := by simpa [World.rows] using hl
+    have hjr : j < (w.rows k).length := by simpa [World.rows] using hj
+    have hmem : ((w.rows k)[j], vals[j]) ∈ (w.rows k).zip vals := by
       rw [List.mem_iff_getElem]
       refine ⟨j, by simp [hrows]; exact h2, by simp⟩
     have hf := find_zip_of_mem hn hmem
-    have hx : ((w.copyRows vals).s.pr[j]).2 = w.s.rows[j] := by
-      simp [World.copyRows, Strm.rows]
-    simp only [World.copyRows] at hx ⊢
+    have hx : ((w.pr k)[j]).2 = (w.rows k)[j] := by simp [World.rows]
+    simp only [World.copyRows]
     rw [hx, hf]
 
 theorem isEmptyVal_const_zero (n : Nat) : isEmptyVal n (fun _ => 0) = true := by
   simp [isEmptyVal]
 
-theorem emptyRows_isEmpty {w : World} {x : Ph × Nat} (hx : x ∈ w.s.pr) :
-    w.emptyRows.isEmptyRow x.2 = true := by
-  have : x.2 ∈ w.s.rows := by
-    simp only [Strm.rows, List.mem_map]
+theorem emptyRows_pr (w : World) (k j : Nat) : (w.emptyRows k).pr j = w.pr j := rfl
+
+theorem emptyRows_isEmpty {w : World} {k : Nat} {x : Ph × Nat} (hx : x ∈ w.pr k) :
+    (w.emptyRows k).isEmptyRow x.2 = true := by
+  have : x.2 ∈ w.rows k := by
+    simp only [World.rows, List.mem_map]
     exact ⟨x, hx, rfl⟩
   simp only [World.isEmptyRow, World.emptyRows, List.contains_iff_mem, this, if_true]
   exact isEmptyVal_const_zero _
 
-theorem toMulti_of_empty {w : World} (he : ∀ x ∈ w.s.pr, w.isEmptyRow x.2 = true) (t : List Ph) :
-    ∃ w', w.toMulti t = .ok w' := by
-  have hall : (w.sources.all fun s => !s.2.2 || (dest t s.1).isSome) = true := by
+theorem toMulti_of_empty {w : World} {k : Nat} (he : ∀ x ∈ w.pr k, w.isEmptyRow x.2 = true) (t : List Ph) :
+    ∃ w', w.toMulti k t = .ok w' := by
+  have hall : ((w.sources k).all fun s => !s.2.2 || (dest t s.1).isSome) = true := by
     rw [List.all_eq_true]
     intro s hs
     simp only [World.sources, List.mem_map] at hs
@@ -1238,21 +3129,23 @@ theorem toMulti_of_empty {w : World} (he : ∀ x ∈ w.s.pr, w.isEmptyRow x.2 = 
 
 theorem phaseTuple_single (p : Ph) : phaseTuple [p] = [p] := by cases p <;> rfl
 
-theorem setPhases_of_empty {w : World} (hw : WF w) (he : ∀ x ∈ w.s.pr, w.isEmptyRow x.2 = true)
+theorem setPhases_of_empty {w : World} {k : Nat} (hw : WF w) (hk : k < w.nStr)
+    (he : ∀ x ∈ w.pr k, w.isEmptyRow x.2 = true)
     {ps : List Ph} (hd : (∃ p, ps = [p]) ∨ (phaseTuple ps = ps ∧ 2 ≤ ps.length)) :
-    ∃ w', w.setPhases ps = .ok w' ∧ w'.s.phases = ps ∧ w'.s.multi = decide (2 ≤ ps.length) := by
+    ∃ w', w.setPhases k ps = .ok w' ∧ w'.phases k = ps ∧ (w'.str k).multi = decide (2 ≤ ps.length) := by
   rcases hd with ⟨p, rfl⟩ | ⟨ht, hlen⟩
-  · cases hm : w.s.multi with
+  · cases hm : (w.str k).multi with
     | true =>
-      exact ⟨w.toSingle p, by simp [World.setPhases, phaseTuple_single, hm],
-        by simp [World.toSingle, Strm.phases], by simp [World.toSingle]⟩
+      exact ⟨w.toSingle k p, by simp [World.setPhases, phaseTuple_single, hm],
+        toSingle_phases w k p,
+        by simp [World.toSingle, World.setStr, World.setCache, World.allocImol, World.allocRows]⟩
     | false =>
-      obtain ⟨x, hx⟩ := hw.single hm
-      exact ⟨w.relabel p, by simp [World.setPhases, phaseTuple_single, hm],
-        by simp [World.relabel, Strm.phases, hx], by simp [relabel_multi, hm]⟩
+      obtain ⟨x, hx⟩ := hw.single hk hm
+      exact ⟨w.relabel k p, by simp [World.setPhases, phaseTuple_single, hm],
+        by simp [relabel_phases, hx], by simp [relabel_multi, hm]⟩
   · match hps : ps, ht, hlen with
     | a :: b :: rest, ht, hlen =>
-      by_cases hc : w.s.multi = true ∧ (a :: b :: rest) = w.s.phases
+      by_cases hc : (w.str k).multi = true ∧ (a :: b :: rest) = w.phases k
       · refine ⟨w, ?_, hc.2.symm, ?_⟩
         · simp only [World.setPhases, ht]
           simp [hc.1, hc.2.symm]
@@ -1260,120 +3153,95 @@ theorem setPhases_of_empty {w : World} (hw : WF w) (he : ∀ x ∈ w.s.pr, w.isE
       · obtain ⟨w', hw'⟩ := toMulti_of_empty he (a :: b :: rest)
         refine ⟨w', ?_, toMulti_phases hw', ?_⟩
         · simp only [World.setPhases, ht]
-          have : (w.s.multi && (a :: b :: rest) == w.s.phases) = false := by
-            rcases Bool.eq_false_or_eq_true w.s.multi with hm | hm
-            · have : ¬ (a :: b :: rest) = w.s.phases := fun e => hc ⟨hm, e⟩
+          have : ((w.str k).multi && (a :: b :: rest) == w.phases k) = false := by
+            rcases Bool.eq_false_or_eq_true (w.str k).multi with hm | hm
+            · have : ¬ (a :: b :: rest) = w.phases k := fun e => hc ⟨hm, e⟩
               simp [hm, this]
             · simp [hm]
           simp only [this]
           exact hw'
-        · simp [(toMulti_ok hw').2.2.2.2.2.2.2.2.2.2.2]
-
+        · simp [(toMulti_ok hw').2.2.2.2.2.2.2.2.1]
 
 /-- `set_data` of any snapshot held by a well-formed world succeeds and reproduces the snapshot -/
-theorem restore_spec {w : World} (hw : WF w) {k : Nat} {d : Snap} (hk : w.snaps[k]? = some d) :
-    ∃ w', w.restore k = .ok w' ∧
-      w'.obs = ⟨decide (2 ≤ d.phases.length), d.phases, d.vals, d.T, d.P⟩ := by
-  have hd : SnapOK d := hw.snaps d (List.mem_of_getElem? hk)
-  have hw1 : WF w.emptyRows := wf_of_eq hw rfl rfl
-  have he : ∀ x ∈ w.emptyRows.s.pr, w.emptyRows.isEmptyRow x.2 = true :=
+theorem restore_spec {w : World} {k : Nat} (hw : WF w) (hk : k < w.nStr) {idx : Nat} {d : Snap}
+    (hidx : w.snaps[idx]? = some d) :
+    ∃ w', w.restore k idx = .ok w' ∧
+      w'.obs k = ⟨decide (2 ≤ d.phases.length), d.phases, d.vals, d.T, d.P⟩ := by
+  have hd : SnapOK d := hw.snaps d (List.mem_of_getElem? hidx)
+  have hw1 : WF (w.emptyRows k) := emptyRows_wf hw k
+  have he : ∀ x ∈ (w.emptyRows k).pr k, (w.emptyRows k).isEmptyRow x.2 = true :=
     fun x hx => emptyRows_isEmpty hx
-  obtain ⟨w2, h2, hph, hm⟩ := setPhases_of_empty hw1 he hd.2
-  have hw2 := setPhases_wf hw1 h2
-  have hlen : w2.s.pr.length = d.vals.length := by
-    have : w2.s.pr.length = w2.s.phases.length := by simp [Strm.phases]
-    rw [this, hph, hd.1]
-  have hv := copyRows_vals hw2.rows_nodup hlen
-  refine ⟨((w2.copyRows d.vals).setT (w2.copyRows d.vals).s.tc d.T).setP (w2.copyRows d.vals).s.tc d.P, ?_, ?_⟩
-  · simp [World.restore, hk, bind, Except.bind, h2]
+  obtain ⟨w2, h2, hph, hm⟩ := setPhases_of_empty hw1 hk he hd.2
+  have hk2 : k < w2.nStr := Nat.lt_of_lt_of_le hk (setPhases_mono h2).1
+  have hw2 := setPhases_wf hw1 hk h2
+  have hlen : (w2.pr k).length = d.vals.length := by
+    rw [← phases_length, hph, hd.1]
+  have hv := copyRows_vals (w := w2) (k := k) (hw2.pr_ok hk2).1 hlen
+  refine ⟨((w2.copyRows k d.vals).setT ((w2.copyRows k d.vals).str k).tc d.T).setP
+    ((w2.copyRows k d.vals).str k).tc d.P, ?_, ?_⟩
+  · simp [World.restore, hidx, bind, Except.bind, h2]
   · simp only [World.obs, World.setP, World.setT, World.temp, World.pres, if_true]
     rw [Obs.mk.injEq]
     exact ⟨hm, hph, hv, rfl, rfl⟩
 
+/-! ### unlink / _reset_thermo / proxy keep what the stream shows -/
 
-/-! ### `reduce_phases` / `as_stream` keep a place for every non-empty phase -/
+theorem fresh_copy_vals (w : World) (pr : List (Ph × Nat)) :
+    ((pr.map (·.1)).zip (List.range' w.nRow pr.length)).map
+        (fun x => (w.allocRows (pr.map fun y => w.row y.2)).1.row x.2)
+      = pr.map (fun y => w.row y.2) := by
+  have hl : (pr.map (·.1)).length = (pr.map fun y => w.row y.2).length := by simp
+  have := zip_range'_map (pr.map (·.1)) (pr.map fun y => w.row y.2) w.nRow
+    (fun r => (w.allocRows (pr.map fun y => w.row y.2)).1.row r) (fun v => v) (fun _ c => c) hl
+    (fun j hj => by rw [allocRows_row_new w _ j hj])
+  simp only [List.length_map] at this
+  rw [this]
+  exact List.map_snd_zip (by simp)
 
-/-- the lower-case letter of the group (g, l/L, s/S) of a phase -/
-def Ph.grp : Ph → Ph
-  | .L => .l | .l => .l | .S => .s | .s => .s | .g => .g
-
-theorem dest_isSome_of_grp {t : List Ph} {p : Ph} (h : p.grp ∈ t) : (dest t p).isSome = true := by
-  cases p <;> simp [Ph.grp] at h <;> simp [dest, Ph.flip, h] <;>
-    (split <;> simp)
-
-theorem grp_mem_phaseString {w : World} {x : Ph × Nat} (hx : x ∈ w.s.pr) (he : w.isEmptyRow x.2 = false) :
-    x.1.grp ∈ w.phaseString := by
-  unfold World.phaseString
-  simp only [List.mem_append]
-  have key : ∀ grp : List Ph, x.1 ∈ grp →
-      (w.s.pr.any fun y => grp.contains y.1 && !w.isEmptyRow y.2) = true := by
-    intro grp hg
-    rw [List.any_eq_true]
-    exact ⟨x, hx, by simp [hg, he]⟩
-  cases hp : x.1 with
-  | g => left; left; rw [hp] at key; rw [if_pos (key [.g] (by simp))]; simp [Ph.grp]
-  | l => left; right; rw [hp] at key; rw [if_pos (key [.l, .L] (by simp))]; simp [Ph.grp]
-  | L => left; right; rw [hp] at key; rw [if_pos (key [.l, .L] (by simp))]; simp [Ph.grp]
-  | s => right; rw [hp] at key; rw [if_pos (key [.s, .S] (by simp))]; simp [Ph.grp]
-  | S => right; rw [hp] at key; rw [if_pos (key [.s, .S] (by simp))]; simp [Ph.grp]
-
-theorem covers_self (w : World) : Covers w w.s.phases := by
-  intro x hx _
-  have hm : x.1 ∈ w.s.phases := List.mem_map.2 ⟨x, hx, rfl⟩
-  rw [dest_of_mem hm]; rfl
-
-theorem setPhases_covers_of_grp {w w' : World} {ls : List Ph} (h : w.setPhases ls = .ok w')
-    (hg : ∀ x ∈ w.s.pr, w.isEmptyRow x.2 = false → x.1.grp ∈ ls) : Covers w w'.s.phases := by
-  rcases setPhases_cases h with ⟨q, hq, _, rfl⟩ | ⟨q, hq, _, rfl⟩ | ⟨_, _, _, rfl⟩ | ⟨_, _, h⟩
-  · intro x hx he
-    apply dest_isSome_of_grp
-    have := mem_phaseTuple.2 (hg x hx he)
-    rw [hq] at this
-    simpa [World.toSingle, Strm.phases] using this
-  · intro x hx he
-    apply dest_isSome_of_grp
-    have := mem_phaseTuple.2 (hg x hx he)
-    rw [hq] at this
-    have hq' : x.1.grp = q := by simpa using this
-    rw [relabel_phases, hq']
-    exact List.mem_map.2 ⟨x, hx, rfl⟩
-  · exact covers_self _
-  · rw [toMulti_phases h]; exact toMulti_covers h
-
-theorem setPhase_covers_of_grp {w w' : World} {ls : List Ph} (h : w.setPhase ls = .ok w')
-    (hm : w.s.multi = true)
-    (hg : ∀ x ∈ w.s.pr, w.isEmptyRow x.2 = false → x.1.grp ∈ ls) : Covers w w'.s.phases := by
-  rcases setPhase_cases h with ⟨_, q, hq, rfl⟩ | ⟨_, _, h⟩ | ⟨hm', _⟩
-  · intro x hx he
-    apply dest_isSome_of_grp
-    have := hg x hx he
-    rcases hq with ⟨rfl, _⟩ | rfl
-    · cases this
-    · simpa [World.toSingle, Strm.phases] using this
-  · exact setPhases_covers_of_grp h hg
-  · rw [hm] at hm'; cases hm'
-
-theorem reduce_covers {w w' : World} (h : w.reduce = .ok w') : Covers w w'.s.phases := by
-  unfold World.reduce at h
+theorem unlink_obs {w w' : World} {k : Nat} (h : w.unlink k = .ok w') : w'.obs k = w.obs k := by
+  unfold World.unlink at h
   split at h
-  · rename_i hm
-    exact setPhase_covers_of_grp h hm (fun x hx he => grp_mem_phaseString hx he)
-  · injection h with h; subst h
-    exact covers_self w
+  · cases h
+  · simp only [] at h
+    injection h with h; subst h
+    have hv := fresh_copy_vals w (w.pr k)
+    have hph : ((w.phases k).zip (List.range' w.nRow (w.pr k).length)).map (·.1) = w.phases k := by
+      have := map_fst_zip_range' (w.phases k) w.nRow
+      rwa [phases_length] at this
+    split <;>
+    · simp only [World.obs, World.phases, World.pr, World.temp, World.pres, World.setStr, World.allocTc,
+        World.allocImol, World.allocRows, rebind_str, rebind_ipr, rebind_row, rebind_T, rebind_P, if_true,
+        List.length_map]
+      rw [Obs.mk.injEq]
+      refine ⟨rfl, hph, ?_, rfl, rfl⟩
+      simpa [World.allocRows, World.phases, World.pr] using hv
 
-theorem asStream_covers {w w' : World} (h : w.asStream = .ok w') : Covers w w'.s.phases := by
-  unfold World.asStream at h
+theorem resetThermo_obs {w w' : World} {k t : Nat} (h : w.resetThermo k t = .ok w') :
+    w'.obs k = w.obs k := by
+  unfold World.resetThermo at h
   split at h
-  · rename_i hm
-    split at h
-    · rename_i q hq
-      exact setPhase_covers_of_grp h hm (fun x hx he => hq ▸ grp_mem_phaseString hx he)
-    · rename_i hq
-      exact setPhase_covers_of_grp h hm (fun x hx he => by
-        have := grp_mem_phaseString hx he
-        rw [hq] at this; cases this)
+  · injection h with h; subst h; rfl
+  · split at h
     · cases h
-  · injection h with h; subst h
-    exact covers_self w
+    · simp only [] at h
+      injection h with h; subst h
+      have hv := fresh_copy_vals w (w.pr k)
+      have hph : ((w.phases k).zip (List.range' w.nRow (w.pr k).length)).map (·.1) = w.phases k := by
+        have := map_fst_zip_range' (w.phases k) w.nRow
+        rwa [phases_length] at this
+      split <;>
+      · simp only [World.obs, World.phases, World.pr, World.temp, World.pres, World.setStr, World.setIpr,
+          World.allocRows, rebind_str, rebind_ipr, rebind_row, rebind_T, rebind_P, if_true,
+          List.length_map]
+        rw [Obs.mk.injEq]
+        refine ⟨rfl, hph, ?_, rfl, rfl⟩
+        simpa [World.allocRows, World.phases, World.pr] using hv
+
+theorem proxy_obs {w w' : World} {k : Nat} (h : w.proxy k = .ok w') :
+    w'.obs w.nStr = w.obs k ∧ w'.nStr = w.nStr + 1 := by
+  unfold World.proxy at h
+  simp only [] at h
+  injection h with h; subst h
+  simp [World.obs, World.phases, World.pr, World.temp, World.pres, World.setStr, World.allocCache]
 
 end ThermoVerif.Phases
